@@ -95,9 +95,10 @@ Section ext.
     (forall n, scope (nd s' n) = scope (nd s n)) ->
     scoping_ok s -> scoping_ok s'.
   Proof.
-    intros Hb Hk Hd Hs [H1 H2 H3 H4 H5].
+    intros Hb Hk Hd Hs [H1 H2 H3 H4 H5 H6 H7].
     assert (Hbd : forall b, bd s' b = bd s b) by (intros; unfold bd; rewrite Hb; reflexivity).
-    split; [| | | |intros n q b0; rewrite Hd, Hk; apply H5].
+    split; [| | | |intros n q b0; rewrite Hd, Hk; apply H5|intros b q b0; rewrite Hbd, Hk; apply H6
+           |intros b b1; unfold inGen; rewrite Hbd, Hk; apply H7].
     - intros n q. rewrite Hd, !Hs, Hk. intros Hq. destruct (H1 n q Hq) as [?|[?|(b & ? & ? & ?)]]; auto.
       right; right. exists b. rewrite Hbd. auto.
     - intros n q b. unfold inGen. rewrite Hd, !Hs, Hbd. apply H2.
@@ -296,6 +297,8 @@ Proof.
     + intros b q. unfold bd, init; cbn. rewrite lookup_empty. cbn. discriminate.
     + intros n q. rewrite Hnd. cbn. intros H; inversion H.
     + intros n q b0. rewrite Hnd. cbn. intros H; inversion H.
+    + intros b q b0. unfold bd, init; cbn. rewrite lookup_empty. cbn. discriminate.
+    + intros b b1. unfold inGen, bd, init; cbn. rewrite lookup_empty. cbn. intros H; inversion H.
   - split.
     + intros n _. rewrite Hnd. reflexivity.
     + intros n b H. destruct (has_init mh n H).
@@ -439,6 +442,18 @@ Qed.
 Lemma chain_top_inv s n t d : scope (nd s n) = None -> chain s n t d -> t = n /\ d = 0%nat.
 Proof. intros E H. inversion H; subst; [auto|congruence]. Qed.
 
+Lemma rhs_has s : ids_ok s -> binds_wf s -> forall b q, b_rhs (bd s b) = Some q -> has s q.
+Proof.
+  intros Hi Hb b q. unfold bd. destruct (binds s !! b) as [r|] eqn:E; cbn; [|discriminate].
+  intros Hr. apply (io_decl s Hi (S b) q). rewrite (bw_decl_main s b r (Hb b r E)), Hr. right. left.
+Qed.
+
+Lemma gen_has s : binds_wf s -> forall b n, inGen s b n -> has s n /\ scope (nd s n) = Some b.
+Proof.
+  intros Hb b n. unfold inGen, bd. destruct (binds s !! b) as [r|] eqn:E; cbn; [|intros H; inversion H].
+  apply (bw_rhsNodes s b r (Hb b r E)).
+Qed.
+
 (** * Construction of a top-level node *)
 Section new_top.
   Context (s : state) (k : kind) (d : list nid) (v : Z).
@@ -504,7 +519,9 @@ Section new_top.
       + intros _. cbn. destruct k; try exact I; contradiction.
       + intros [?|H]%nt_has; [contradiction|]. apply Ikinds, H.
     - (* scopes *) apply (scopes_ok_ext s s'); auto using nt_binds, nt_scope.
-    - (* scoping *) destruct Iscoping as [S1 S2 S3 S4 S5]. split.
+    - (* scoping *) destruct Iscoping as [S1 S2 S3 S4 S5 S6 S7]. split;
+        [| | | | |intros b q b0; rewrite nt_bd; intros Hr; rewrite nt_nd_has by (apply (rhs_has s Iids Ibinds b q Hr)); apply (S6 b q b0 Hr)
+        |intros b b1; unfold inGen; rewrite nt_bd; intros Hg; rewrite nt_nd_has by (apply (gen_has s Ibinds b b1 Hg)); apply (S7 b b1 Hg)].
       + intros n q. rewrite nt_nd. destruct (decide (n = x)) as [->|Hne].
         * cbn. intros Hq. left. rewrite nt_scope. apply Hd, Hq.
         * rewrite !nt_scope. fold (nd s n). intros Hq.
@@ -709,7 +726,13 @@ Section new_bind.
     - (* scopes *) intros n b. rewrite nb_scope, nb_binds. intros E. destruct (Iscopes n b E) as [Hb Hlt].
       split; [|exact Hlt]. rewrite lookup_insert_ne; [exact Hb|].
       intros <-. rewrite nb_binds_x in Hb. destruct Hb; discriminate.
-    - (* scoping *) destruct Iscoping as [S1 S2 S3 S4 S5]. split.
+    - (* scoping *) destruct Iscoping as [S1 S2 S3 S4 S5 S6 S7]. split;
+        [| | | | |intros b q b0; destruct (decide (b = x)) as [->|Hne];
+                  [rewrite nb_bd_x; cbn; discriminate|
+                   rewrite nb_bd by exact Hne; intros Hr; rewrite nb_nd_has by (apply (rhs_has s Iids Ibinds b q Hr)); apply (S6 b q b0 Hr)]
+        |intros b b1; unfold inGen; destruct (decide (b = x)) as [->|Hne];
+                  [rewrite nb_bd_x; cbn; intros H; inversion H|
+                   rewrite nb_bd by exact Hne; intros Hg; rewrite nb_nd_has by (apply (gen_has s Ibinds b b1 Hg)); apply (S7 b b1 Hg)]].
       + intros n q. rewrite nb_nd. destruct (decide (n = S x)) as [->|].
         { cbn. intros ->%elem_of_list_singleton. left. rewrite nb_scope, (not_has_nd s _ nb_x). reflexivity. }
         destruct (decide (n = x)) as [->|].
@@ -1903,7 +1926,7 @@ Proof.
         rewrite (bw_kind_main s b r (r_binds0 b r Hr)) in Hkn. discriminate.
     - apply (kinds_ok_ext s s3); auto.
     - apply (scopes_ok_ext s s3); auto.
-    - destruct r_scoping0 as [S1 S2 S3 S4 S5]. split.
+    - destruct r_scoping0 as [S1 S2 S3 S4 S5 S6 S7]. split; [| | | | |intros b q b0; rewrite Hk; apply S6|intros b b1; rewrite Hk; apply S7].
       + intros m q Hq. rewrite !Hsc, Hk. apply S1, Hsub, Hq.
       + intros m q b Hq. rewrite !Hsc. apply S2, Hsub, Hq.
       + intros b q. rewrite Hsc. apply S3.
@@ -4132,9 +4155,10 @@ Proof.
         rewrite (bw_kind_main s b r (r_binds0 b r Hr)) in Hkn. discriminate.
     - apply (kinds_ok_ext s s1); auto.
     - apply (scopes_ok_ext s s1); auto.
-    - destruct r_scoping0 as [S1 S2 S3 S4 S5]. split;
+    - destruct r_scoping0 as [S1 S2 S3 S4 S5 S6 S7]. split;
         [| | | |intros m q b0; rewrite Hdecl, Hk; destruct (decide (m = n)) as [->|]; [|apply S5];
-                rewrite elem_of_app, elem_of_list_singleton; intros [Hq| ->] Hkq; [apply (S5 n q b0 Hq Hkq)|rewrite Hkq in Hnla; destruct Hnla]].
+                rewrite elem_of_app, elem_of_list_singleton; intros [Hq| ->] Hkq; [apply (S5 n q b0 Hq Hkq)|rewrite Hkq in Hnla; destruct Hnla]
+        |intros b q b0; rewrite Hk; apply S6|intros b b1; rewrite Hk; apply S7].
       + intros m q. rewrite Hdecl, !Hsc, Hk. destruct (decide (m = n)) as [->|]; [|apply S1].
         rewrite elem_of_app, elem_of_list_singleton. intros [Hq| ->]; [apply S1, Hq|left; exact Hsca].
       + intros m q b. rewrite Hdecl, !Hsc. destruct (decide (m = n)) as [->|]; [|apply S2].
@@ -5127,6 +5151,2484 @@ Proof.
   - apply bind_spec_bindfree.
 Qed.
 
+(** * The stabilization of a bind's lhs-change node: [bind_spec] holds *)
+
+(** * The stabilization of a bind's lhs-change node *)
+
+(** ** the part of the pass invariant that is not about the dependency graph, with a set [D]
+       of nodes exempt from "a discarded generation is invalid and unregistered" *)
+Record RestM (D : nid -> Prop) (s : state) : Prop := {
+  m_ids : ids_ok s;
+  m_binds : binds_wf s;
+  m_kinds : kinds_ok s;
+  m_scopes : scopes_ok s;
+  m_scoping : scoping_ok s;
+  m_vtop : forall n, scope (nd s n) = None -> valid (nd s n) = true;
+  m_vdead : forall n b, has s n -> scope (nd s n) = Some b -> ~ inGen s b n -> ~ D n ->
+    valid (nd s n) = false /\ inGraph (nd s n) = false;
+  m_vgen : forall n b, inGen s b n -> valid (nd s n) = valid (nd s b);
+  m_shape : shape_ok s;
+  m_stamps : stamps_ok s;
+  m_inval : forall n, valid (nd s n) = false <-> EvInval n ∈ log s;
+  m_status : status s = 1;
+  m_invq : invq s = [];
+  m_adj : adj_idle s;
+  m_vars : forall v, v ∈ setDuring s \/ v ∈ setRemoved s -> exists e, nkind (nd s v) = KVar e
+}.
+
+Definition noD : nid -> Prop := fun _ => False.
+
+Lemma PInv_split s : PInv s -> TInv [] noE s /\ RestM noD s /\ forall n, forceNec (nd s n) = false.
+Proof.
+  intros [T A1 A2 A3 A4 A5 V1 V2 V3 [Q1 Q2 Q3 Q4 Q5] A6 A7 A8]. split; [exact T|]. split; [|exact Q4].
+  constructor; auto. intros n b H1 H2 H3 _. apply (V2 n b); assumption.
+Qed.
+
+Lemma PInv_join s : TInv [] noE s -> RestM noD s -> (forall n, forceNec (nd s n) = false) -> PInv s.
+Proof.
+  intros T [A1 A2 A3 A4 A5 V1 V2 V3 A6 A7 A8 Q1 Q2 Q3 Q5] Q4. constructor; auto.
+  - intros n b H1 H2 H3. apply (V2 n b); auto.
+  - constructor; auto.
+Qed.
+
+(** ** the failing bind function: only variable writes happened; the scope's node list is restored *)
+Lemma alter_alter_id {A} (f g : A -> A) (m : gmap nat A) b :
+  (forall x, f (g x) = x) -> alter f b (alter g b m) = m.
+Proof.
+  intros H. apply map_eq. intros k. destruct (decide (k = b)) as [->|Hne].
+  - rewrite !lookup_alter. destruct (m !! b); simpl; [rewrite H|]; reflexivity.
+  - rewrite !lookup_alter_ne by congruence. reflexivity.
+Qed.
+
+Lemma soft_binds_irrel s t t' B :
+  soft (s <| binds := B |>) t -> t' = t <| binds := binds s |> -> soft s t'.
+Proof.
+  intros S ->. destruct S as [SS Hn Hst (l & Hl & Fl) Hs Hv Hk]. split.
+  - destruct SS as [Snext Sbinds Shas Sreg Sobs Sadj Sinvq Snum Smh Snode]. split; try assumption; try reflexivity.
+  - exact Hn.
+  - exact Hst.
+  - exists l. split; [exact Hl|]. exact Fl.
+  - intros H. assert (H' : stamps_ok (s <| binds := B |>)) by (revert H; apply stamps_ok_ext; reflexivity).
+    specialize (Hs H'). revert Hs. apply stamps_ok_ext; reflexivity.
+  - intros H. apply Hv. exact H.
+  - intros H1 H2. apply Hk; assumption.
+Qed.
+
+(** ** running the bind function: [inst] adds fresh, unregistered nodes to scope [b] *)
+Record ext_by (b : nat) (s s' : state) : Prop := {
+  eb_next : (next s <= next s')%nat;
+  eb_has1 : forall m, has s m -> has s' m;
+  eb_has2 : forall m, has s' m -> has s m \/ (next s <= m)%nat;
+  eb_old : forall m, has s m -> nd s' m = nd s m;
+  eb_dyn : forall m, dyn_eq (nd s' m) (nd s m);
+  eb_new : forall m, has s' m -> ~ has s m -> scope (nd s' m) = Some b /\ inGen s' b m;
+  eb_gen : forall m, inGen s b m -> inGen s' b m;
+  eb_gen2 : forall m, inGen s' b m -> inGen s b m \/ ~ has s m;
+  eb_bd : forall b', b' <> b -> is_Some (binds s !! b') -> bd s' b' = bd s b';
+  eb_bdb : b_lhs (bd s' b) = b_lhs (bd s b) /\ b_rhs (bd s' b) = b_rhs (bd s b) /\
+           b_cases (bd s' b) = b_cases (bd s b) /\ b_memo (bd s' b) = b_memo (bd s b);
+  eb_binds1 : forall b', is_Some (binds s !! b') -> is_Some (binds s' !! b');
+  eb_bindsN : forall n, has s n -> binds s !! n = None -> binds s' !! n = None;
+  eb_reg : reg s' = reg s; eb_obs : obs s' = obs s; eb_heap : heap s' = heap s; eb_adj : adj s' = adj s;
+  eb_invq : invq s' = invq s; eb_stabNum : stabNum s' = stabNum s; eb_status : status s' = status s;
+  eb_numNodes : numNodes s' = numNodes s; eb_setDuring : setDuring s' = setDuring s;
+  eb_setRemoved : setRemoved s' = setRemoved s; eb_handlers : handlers s' = handlers s;
+  eb_maxHeight : maxHeight s' = maxHeight s; eb_log : log s' = log s
+}.
+
+Lemma ext_by_refl b s : ext_by b s s.
+Proof.
+  split; try reflexivity; auto.
+  - intros m. apply dyn_eq_refl.
+  - intros m H1 H2. contradiction.
+Qed.
+
+Lemma ext_by_trans b s1 s2 s3 :
+  (forall m, has s1 m -> (m < next s1)%nat) -> ext_by b s1 s2 -> ext_by b s2 s3 -> ext_by b s1 s3.
+Proof.
+  intros Hlt A B. split.
+  - pose proof (eb_next _ _ _ A). pose proof (eb_next _ _ _ B). lia.
+  - intros m H. apply B, A, H.
+  - intros m H. destruct (eb_has2 _ _ _ B m H) as [H2|H2]; [apply A, H2|]. right.
+    pose proof (eb_next _ _ _ A). lia.
+  - intros m H. rewrite (eb_old _ _ _ B) by (apply A, H). apply A, H.
+  - intros m. destruct (eb_dyn _ _ _ A m) as (?&?&?&?&?&?&?&?&?&?&?), (eb_dyn _ _ _ B m) as (?&?&?&?&?&?&?&?&?&?&?).
+    repeat split; congruence.
+  - intros m H3 H1. destruct (decide (has s2 m)) as [H2|H2].
+    + destruct (eb_new _ _ _ A m H2 H1) as [E1 E2]. rewrite (eb_old _ _ _ B m H2). split; [exact E1|apply (eb_gen _ _ _ B), E2].
+    + apply (eb_new _ _ _ B m H3 H2).
+  - intros m H. apply (eb_gen _ _ _ B), (eb_gen _ _ _ A), H.
+  - intros m H. destruct (eb_gen2 _ _ _ B m H) as [H2|H2].
+    + apply (eb_gen2 _ _ _ A m H2).
+    + right. intros H1. apply H2, A, H1.
+  - intros b' Hne Hb. rewrite (eb_bd _ _ _ B b' Hne) by (apply A, Hb). apply A; assumption.
+  - destruct (eb_bdb _ _ _ A) as (?&?&?&?), (eb_bdb _ _ _ B) as (?&?&?&?). repeat split; congruence.
+  - intros b' H. apply B, A, H.
+  - intros n Hn Hnone. apply (eb_bindsN _ _ _ B n (eb_has1 _ _ _ A n Hn)), (eb_bindsN _ _ _ A n Hn), Hnone.
+  - rewrite (eb_reg _ _ _ B). apply A. - rewrite (eb_obs _ _ _ B). apply A. - rewrite (eb_heap _ _ _ B). apply A.
+  - rewrite (eb_adj _ _ _ B). apply A. - rewrite (eb_invq _ _ _ B). apply A. - rewrite (eb_stabNum _ _ _ B). apply A.
+  - rewrite (eb_status _ _ _ B). apply A. - rewrite (eb_numNodes _ _ _ B). apply A.
+  - rewrite (eb_setDuring _ _ _ B). apply A. - rewrite (eb_setRemoved _ _ _ B). apply A.
+  - rewrite (eb_handlers _ _ _ B). apply A. - rewrite (eb_maxHeight _ _ _ B). apply A. - rewrite (eb_log _ _ _ B). apply A.
+Qed.
+
+Lemma bd_alter_eq s f b : is_Some (binds s !! b) ->
+  default (mkBind 0%nat 0%nat 0%nat None [] [] 0%nat false []) (alter f b (binds s) !! b) = f (bd s b).
+Proof. intros [r Hr]. rewrite lookup_alter. unfold bd. rewrite Hr. reflexivity. Qed.
+
+Lemma ext_by_newNode b s k d v :
+  (forall m, has s m -> (m < next s)%nat) -> is_Some (binds s !! b) ->
+  ext_by b s (newNode s k d (Some b) v).1.
+Proof.
+  intros Hlt Hb. set (s' := (newNode s k d (Some b) v).1). set (x := next s).
+  assert (Hx : ~ has s x) by (intros H; apply Hlt in H; unfold x in H; lia).
+  assert (Hnd : forall m, nd s' m = if decide (m = x) then fresh_node k d (Some b) v else nd s m) by apply nd_newNode.
+  assert (Hbinds : binds s' = alter (set b_rhsNodes (fun l => l ++ [x])) b (binds s)) by apply binds_newNode.
+  assert (Hbdb : bd s' b = set b_rhsNodes (fun l => l ++ [x]) (bd s b)).
+  { unfold bd at 1. rewrite Hbinds. apply bd_alter_eq, Hb. }
+  assert (Hbdne : forall b', b' <> b -> bd s' b' = bd s b').
+  { intros b' Hne. unfold bd. rewrite Hbinds, lookup_alter_ne by congruence. reflexivity. }
+  split.
+  - unfold s'. rewrite next_newNode. lia.
+  - intros m H. apply has_newNode. auto.
+  - intros m [->|H]%has_newNode; [right; unfold x; lia|auto].
+  - intros m H. rewrite Hnd, decide_False; [reflexivity|]. intros ->. contradiction.
+  - intros m. rewrite Hnd. destruct (decide (m = x)) as [->|]; [|apply dyn_eq_refl].
+    rewrite (not_has_nd s x Hx). apply dyn_eq_fresh.
+  - intros m [->|H]%has_newNode Hn; [|contradiction]. rewrite Hnd, decide_True by reflexivity. split; [reflexivity|].
+    unfold inGen. rewrite Hbdb. cbn. apply elem_of_app. right. left.
+  - intros m. unfold inGen. rewrite Hbdb. cbn. intros H. apply elem_of_app. auto.
+  - intros m. unfold inGen. rewrite Hbdb. cbn. rewrite elem_of_app, elem_of_list_singleton. intros [H| ->]; auto.
+  - intros b' Hne _. apply Hbdne, Hne.
+  - rewrite Hbdb. cbn. auto.
+  - intros b'. rewrite Hbinds. destruct (decide (b' = b)) as [->|Hne].
+    + rewrite lookup_alter. intros [r ->]. eauto.
+    + rewrite lookup_alter_ne by congruence. auto.
+  - intros n _. rewrite Hbinds. destruct (decide (n = b)) as [->|Hne].
+    + rewrite lookup_alter. intros ->. reflexivity.
+    + rewrite lookup_alter_ne by congruence. auto.
+  - apply reg_newNode. - apply obs_newNode. - apply heap_newNode. - apply adj_newNode.
+  - apply invq_newNode. - apply stabNum_newNode. - apply status_newNode. - apply numNodes_newNode.
+  - apply setDuring_newNode. - apply setRemoved_newNode. - apply handlers_newNode.
+  - apply maxHeight_newNode. - apply log_newNode.
+Qed.
+
+Lemma ext_by_insert_bind b s x r :
+  binds s !! x = None -> x <> b -> ~ has s x -> ext_by b s (s <| binds := <[x := r]> (binds s) |>).
+Proof.
+  intros Hx Hne Hxh. set (s' := s <| binds := <[x := r]> (binds s) |>).
+  assert (Hnd : forall m, nd s' m = nd s m) by reflexivity.
+  split; try reflexivity.
+  - auto.
+  - auto.
+  - intros m. apply dyn_eq_refl.
+  - intros m H1 H2. contradiction.
+  - intros m. unfold inGen, bd. cbn. rewrite lookup_insert_ne by congruence. auto.
+  - intros m. unfold inGen, bd. cbn. rewrite lookup_insert_ne by congruence. auto.
+  - intros b' Hb' Hs. unfold bd. cbn. rewrite lookup_insert_ne; [reflexivity|].
+    intros <-. rewrite Hx in Hs. destruct Hs; discriminate.
+  - unfold bd. cbn. rewrite lookup_insert_ne by congruence. auto.
+  - intros b' Hs. cbn. destruct (decide (b' = x)) as [->|]; [rewrite lookup_insert; eauto|].
+    rewrite lookup_insert_ne by congruence. exact Hs.
+  - intros n Hn Hnone. cbn. rewrite lookup_insert_ne; [exact Hnone|]. intros <-. exact (Hxh Hn).
+Qed.
+
+(** ** the static clauses while the bind function of [b] runs ([T]: top of [b]'s scope chain) *)
+Definition not_lhs (x : node) : Prop := match nkind x with KBindLhs _ => False | _ => True end.
+
+Definition okin (b : nat) (T : nid) (s : state) (q : nid) : Prop :=
+  (has s q /\ not_lhs (nd s q)) /\
+  ((scope (nd s q) = None /\ (q < T)%nat) \/ (scope (nd s q) = Some b /\ inGen s b q)).
+
+Record IStat (b : nat) (T : nid) (s : state) : Prop := {
+  i_ids : ids_ok s;
+  i_bwf : forall b' r, binds s !! b' = Some r ->
+            bind_wf s b' (if decide (b' = b) then set b_rhsNodes (fun _ => []) r else r);
+  i_bnodes : forall n, inGen s b n -> has s n /\ scope (nd s n) = Some b;
+  i_bnodup : NoDup (b_rhsNodes (bd s b));
+  i_bsome : is_Some (binds s !! b);
+  i_chain : exists d, chain s b T d;
+  i_kinds : kinds_ok s;
+  i_scopes : scopes_ok s;
+  i_decl : forall n q, q ∈ decl (nd s n) ->
+    scope (nd s q) = None \/ scope (nd s q) = scope (nd s n) \/
+    (exists b0, nkind (nd s n) = KBindMain b0 /\ scope (nd s q) = Some b0 /\ b_rhs (bd s b0) = Some q);
+  i_gen : forall n q b0, q ∈ decl (nd s n) -> scope (nd s n) = Some b0 -> scope (nd s q) = Some b0 ->
+    inGen s b0 n -> inGen s b0 q;
+  i_rhs : forall b0 q, b0 <> b -> b_rhs (bd s b0) = Some q ->
+    scope (nd s q) = None \/ (scope (nd s q) = Some b0 /\ inGen s b0 q);
+  i_acyc : forall n q, q ∈ decl (nd s n) -> mu_lt s q n;
+  i_lhs : forall n q b0, q ∈ decl (nd s n) -> nkind (nd s q) = KBindLhs b0 -> n = S q;
+  i_rhsnl : forall b0 q k0, b_rhs (bd s b0) = Some q -> nkind (nd s q) <> KBindLhs k0;
+  i_pair : forall b0 b1, inGen s b0 b1 -> nkind (nd s b1) = KBindLhs b1 -> inGen s b0 (S b1)
+}.
+
+Lemma IStat_gen_has b T s b0 n : IStat b T s -> inGen s b0 n -> has s n.
+Proof.
+  intros I Hg. destruct (decide (b0 = b)) as [->|Hne]; [apply (i_bnodes _ _ _ I n Hg)|].
+  unfold inGen, bd in Hg. destruct (binds s !! b0) as [r|] eqn:Er; [|inversion Hg]. simpl in Hg.
+  pose proof (i_bwf _ _ _ I b0 r Er) as W. rewrite decide_False in W by exact Hne.
+  apply (bw_rhsNodes _ _ _ W n Hg).
+Qed.
+
+Lemma IStat_rhs_has b T s b0 q : IStat b T s -> b_rhs (bd s b0) = Some q -> has s q.
+Proof.
+  intros I Hr. unfold bd in Hr. destruct (binds s !! b0) as [r|] eqn:Er; [|discriminate]. simpl in Hr.
+  pose proof (i_bwf _ _ _ I b0 r Er) as W.
+  apply (io_decl s (i_ids _ _ _ I) (S b0) q). rewrite (bw_decl_main _ _ _ W).
+  destruct (decide (b0 = b)); simpl; rewrite Hr; right; left.
+Qed.
+
+Lemma IStat_owner b T s n b0 : IStat b T s -> scope (nd s n) = Some b0 -> has s b0 /\ has s (S b0).
+Proof.
+  intros I Hs. destruct (i_scopes _ _ _ I n b0 Hs) as [[r Hr] _].
+  pose proof (i_bwf _ _ _ I b0 r Hr) as W. split; [apply (bw_has_lhs _ _ _ W)|apply (bw_has_main _ _ _ W)].
+Qed.
+
+Lemma chain_has_iff s s' :
+  (forall n b0, scope (nd s n) = Some b0 -> has s b0) ->
+  (forall n, has s n -> scope (nd s' n) = scope (nd s n)) ->
+  forall n t d, has s n -> (chain s n t d <-> chain s' n t d).
+Proof.
+  intros Hown Hsc n t d Hn. split.
+  - intros H. induction H as [n E|n b0 t d E _ IH].
+    + apply chain_top. rewrite Hsc by exact Hn. exact E.
+    + apply (chain_in s' n b0); [rewrite Hsc by exact Hn; exact E|]. apply IH, (Hown n b0 E).
+  - intros H. induction H as [n E|n b0 t d E _ IH].
+    + apply chain_top. rewrite <- Hsc by exact Hn. exact E.
+    + rewrite Hsc in E by exact Hn. apply (chain_in s n b0); [exact E|]. apply IH, (Hown n b0 E).
+Qed.
+
+Lemma bind_wf_mono2 s s' b r :
+  (forall n, has s n -> has s' n) ->
+  (forall n, has s n -> nd s' n = nd s n) ->
+  (forall t d, chain s' b t d -> chain s b t d) ->
+  bind_wf s b r -> bind_wf s' b r.
+Proof.
+  intros Hh Hnd Hch [? ? ? Hl Hm ? ? ? ? ? Hrn ? ? Hcases].
+  constructor; rewrite ?(Hnd b), ?(Hnd (S b)) by assumption; auto.
+  - intros n Hn. destruct (Hrn n Hn) as [H1 H2]. rewrite (Hnd n H1). auto.
+  - intros t d Hc. apply Hch in Hc.
+    eapply List.Forall_impl; [|apply (Hcases t d Hc)].
+    intros e. apply texp_wf_ext; intros; [apply Hh; assumption|rewrite Hnd by assumption; reflexivity|rewrite Hnd by assumption; reflexivity].
+Qed.
+
+Lemma chain_in_inv s n b t d : scope (nd s n) = Some b -> chain s n t d ->
+  exists d', d = S d' /\ chain s b t d'.
+Proof.
+  intros E H. inversion H as [n' E'|n' b' t'' d'' E' C'']; subst; [congruence|].
+  assert (b' = b) as -> by congruence. eauto.
+Qed.
+
+Lemma okin_ext b T s s' q : ext_by b s s' -> okin b T s q -> okin b T s' q.
+Proof.
+  intros E [[Hq Hk] H]. unfold okin. rewrite (eb_old _ _ _ E q Hq). split; [split; [apply (eb_has1 _ _ _ E), Hq|exact Hk]|].
+  destruct H as [H|[H1 H2]]; [left; exact H|right; split; [exact H1|apply (eb_gen _ _ _ E), H2]].
+Qed.
+
+Lemma set_rhsNodes_nil_idem (r : bindrec) f :
+  set b_rhsNodes (fun _ => []) (set b_rhsNodes f r) = set b_rhsNodes (fun _ => []) r.
+Proof. destruct r; reflexivity. Qed.
+
+(* adding one plain node to the scope of [b] *)
+Lemma IStat_newNode b T s k d v :
+  IStat b T s -> (forall q, q ∈ d -> okin b T s q) ->
+  match k with KReturn | KMap _ | KMap2 _ | KCutoff _ => True | _ => False end ->
+  let s' := (newNode s k d (Some b) v).1 in
+  IStat b T s' /\ ext_by b s s' /\ okin b T s' (next s).
+Proof.
+  intros I Hd Hk s'. set (x := next s).
+  pose proof (ext_by_newNode b s k d v (io_lt s (i_ids _ _ _ I)) (i_bsome _ _ _ I)) as E. fold s' in E.
+  assert (Hx : ~ has s x) by (intros H; apply (io_lt s (i_ids _ _ _ I)) in H; unfold x in H; lia).
+  assert (Hnd : forall m, nd s' m = if decide (m = x) then fresh_node k d (Some b) v else nd s m) by apply nd_newNode.
+  assert (Hold : forall m, has s m -> nd s' m = nd s m) by apply E.
+  assert (Hbinds : binds s' = alter (set b_rhsNodes (fun l => l ++ [x])) b (binds s)) by apply binds_newNode.
+  assert (Hbdb : bd s' b = set b_rhsNodes (fun l => l ++ [x]) (bd s b)).
+  { unfold bd at 1. rewrite Hbinds. apply bd_alter_eq, (i_bsome _ _ _ I). }
+  assert (Hbdne : forall b', b' <> b -> bd s' b' = bd s b').
+  { intros b' Hne. unfold bd. rewrite Hbinds, lookup_alter_ne by congruence. reflexivity. }
+  assert (Hbrhs : forall b0, b_rhs (bd s' b0) = b_rhs (bd s b0)).
+  { intros b0. destruct (decide (b0 = b)) as [->|Hne]; [rewrite Hbdb; reflexivity|rewrite Hbdne by exact Hne; reflexivity]. }
+  assert (Hgen : forall b0 m, inGen s' b0 m <-> inGen s b0 m \/ (b0 = b /\ m = x)).
+  { intros b0 m. unfold inGen. destruct (decide (b0 = b)) as [->|Hne].
+    - rewrite Hbdb. cbn. rewrite elem_of_app, elem_of_list_singleton. tauto.
+    - rewrite Hbdne by exact Hne. split; [auto|]. intros [?|[? _]]; [assumption|contradiction]. }
+  assert (Hown : forall n b0, scope (nd s n) = Some b0 -> has s b0) by (intros n b0 Hs; apply (IStat_owner b T s n b0 I Hs)).
+  assert (Hch : forall n t d0, has s n -> (chain s n t d0 <-> chain s' n t d0)).
+  { apply chain_has_iff; [exact Hown|]. intros n Hn. rewrite Hold by exact Hn. reflexivity. }
+  assert (Hhasb : has s b) by (destruct (i_bsome _ _ _ I) as [r Hr]; apply (bw_has_lhs _ _ _ (i_bwf _ _ _ I b r Hr))).
+  destruct (i_chain _ _ _ I) as [d0 Hc0].
+  assert (Hcx : chain s' x T (S d0)).
+  { apply (chain_in s' x b); [rewrite Hnd, decide_True by reflexivity; reflexivity|]. apply Hch; assumption. }
+  assert (Hmu : forall q n, has s q -> has s n -> mu_lt s q n -> mu_lt s' q n).
+  { intros q n Hq Hn H tq dq tn dn Cq Cn. apply H; apply Hch; assumption. }
+  assert (Hsx : scope (nd s' x) = Some b) by (rewrite Hnd, decide_True by reflexivity; reflexivity).
+  assert (Hdx : decl (nd s' x) = d) by (rewrite Hnd, decide_True by reflexivity; reflexivity).
+  assert (Hne' : forall n, n <> x -> nd s' n = nd s n) by (intros n Hn; rewrite Hnd, decide_False by exact Hn; reflexivity).
+  split; [|split; [exact E|]].
+  - constructor.
+    + destruct (i_ids _ _ _ I) as [I1 I2]. split.
+      * intros m [->|H]%has_newNode; unfold s'; rewrite next_newNode; [lia|]. apply I1 in H. lia.
+      * intros n p. rewrite Hnd. destruct (decide (n = x)) as [->|].
+        -- cbn. intros Hp. apply (eb_has1 _ _ _ E). apply (Hd p Hp).
+        -- intros Hp. eapply (eb_has1 _ _ _ E), I2, Hp.
+    + intros b' r'. rewrite Hbinds. destruct (decide (b' = b)) as [->|Hne].
+      * rewrite lookup_alter. destruct (binds s !! b) as [r|] eqn:Er; [|discriminate]. intros [= <-].
+        rewrite set_rhsNodes_nil_idem. pose proof (i_bwf _ _ _ I b r Er) as W. rewrite decide_True in W by reflexivity.
+        apply (bind_wf_mono2 s s'); auto; [apply E|]. intros t d1. apply Hch, Hhasb.
+      * rewrite lookup_alter_ne by congruence. intros Hr. pose proof (i_bwf _ _ _ I b' r' Hr) as W.
+        rewrite decide_False in W by exact Hne.
+        apply (bind_wf_mono2 s s'); auto; [apply E|]. intros t d1. apply Hch, (bw_has_lhs _ _ _ W).
+    + intros n. rewrite Hgen. intros [H|[_ ->]].
+      * destruct (i_bnodes _ _ _ I n H) as [H1 H2]. split; [apply E, H1|rewrite Hold by exact H1; exact H2].
+      * split; [apply has_newNode; auto|]. rewrite Hnd, decide_True by reflexivity. reflexivity.
+    + rewrite Hbdb. cbn. apply NoDup_app. split; [apply (i_bnodup _ _ _ I)|]. split; [|apply NoDup_singleton].
+      intros y Hy ->%elem_of_list_singleton. apply Hx, (i_bnodes _ _ _ I x Hy).
+    + apply (eb_binds1 _ _ _ E), (i_bsome _ _ _ I).
+    + exists d0. apply Hch; assumption.
+    + intros n. rewrite Hnd. destruct (decide (n = x)) as [->|Hne].
+      * intros _. cbn. destruct k; try exact Logic.I; destruct Hk.
+      * intros [?|Hn]%has_newNode; [contradiction|]. pose proof (i_kinds _ _ _ I n Hn) as K.
+        destruct (nkind (nd s n)); auto; destruct K as [K1 K2]; (split; [exact K1|apply (eb_binds1 _ _ _ E), K2]).
+    + intros n b0. rewrite Hnd. destruct (decide (n = x)) as [->|Hne].
+      * cbn. intros [= <-]. split; [apply (eb_binds1 _ _ _ E), (i_bsome _ _ _ I)|].
+        destruct (i_bsome _ _ _ I) as [r Hr]. pose proof (bw_has_main _ _ _ (i_bwf _ _ _ I b r Hr)) as Hm.
+        apply (io_lt s (i_ids _ _ _ I)) in Hm. unfold x. lia.
+      * intros Hs. destruct (i_scopes _ _ _ I n b0 Hs) as [H1 H2]. split; [apply (eb_binds1 _ _ _ E), H1|exact H2].
+    + intros n q Hq. destruct (decide (n = x)) as [->|Hne].
+      * rewrite Hdx in Hq. rewrite Hsx. destruct (Hd q Hq) as [[Hhq _] [[Hs _]|[Hs _]]]; rewrite (Hold q Hhq); auto.
+      * rewrite (Hne' n Hne) in *. assert (Hhq : has s q) by (apply (io_decl s (i_ids _ _ _ I) n q Hq)).
+        rewrite (Hold q Hhq). destruct (i_decl _ _ _ I n q Hq) as [?|[?|(b0 & ? & ? & ?)]]; auto.
+        right; right. exists b0. rewrite Hbrhs. auto.
+    + intros n q b0 Hq Hsn Hsq Hgn. destruct (decide (n = x)) as [->|Hne].
+      * rewrite Hdx in Hq. rewrite Hsx in Hsn. injection Hsn as <-. destruct (Hd q Hq) as [[Hhq _] [[Hs _]|[_ Hg]]].
+        -- rewrite (Hold q Hhq) in Hsq. congruence.
+        -- apply Hgen. left. exact Hg.
+      * rewrite (Hne' n Hne) in *. assert (Hhq : has s q) by (apply (io_decl s (i_ids _ _ _ I) n q Hq)).
+        rewrite (Hold q Hhq) in Hsq. apply Hgen in Hgn as [Hgn|[_ ->]]; [|congruence].
+        apply Hgen. left. apply (i_gen _ _ _ I n q b0 Hq Hsn Hsq Hgn).
+    + intros b0 q Hne. rewrite Hbrhs. intros Hr.
+      assert (Hhq : has s q).
+      { unfold bd in Hr. destruct (binds s !! b0) as [r|] eqn:Er; [|discriminate]. simpl in Hr.
+        pose proof (i_bwf _ _ _ I b0 r Er) as W. rewrite decide_False in W by exact Hne.
+        apply (io_decl s (i_ids _ _ _ I) (S b0) q). rewrite (bw_decl_main _ _ _ W), Hr. right; left. }
+      rewrite (Hold q Hhq). destruct (i_rhs _ _ _ I b0 q Hne Hr) as [Hs|[Hs Hg]]; [auto|].
+      right. split; [exact Hs|apply Hgen; auto].
+    + intros n q Hq. destruct (decide (n = x)) as [->|Hne].
+      * rewrite Hdx in Hq. intros tq dq tn dn Cq Cn. destruct (Hd q Hq) as [[Hhq _] Hk'].
+        destruct (chain_fun _ _ _ _ _ _ Cn Hcx) as [-> ->].
+        apply (Hch q tq dq Hhq) in Cq.
+        pose proof (io_lt s (i_ids _ _ _ I) q Hhq) as Hqx.
+        destruct Hk' as [[Hs Hlt]|[Hs _]].
+        -- apply chain_top_inv in Cq as [-> ->]; [|exact Hs]. left. exact Hlt.
+        -- destruct (chain_in_inv s q b tq dq Hs Cq) as (d' & -> & C'').
+           destruct (chain_fun _ _ _ _ _ _ C'' Hc0) as [-> ->]. right. split; [reflexivity|]. right. split; [reflexivity|exact Hqx].
+      * rewrite (Hne' n Hne) in Hq. assert (Hhq : has s q) by (apply (io_decl s (i_ids _ _ _ I) n q Hq)).
+        apply Hmu; [exact Hhq|eapply has_decl, Hq|apply (i_acyc _ _ _ I n q Hq)].
+    + intros n q b0 Hq Hkq. destruct (decide (n = x)) as [->|Hne].
+      * rewrite Hdx in Hq. destruct (Hd q Hq) as [[Hhq Hnl] _]. rewrite (Hold q Hhq) in Hkq.
+        unfold not_lhs in Hnl. rewrite Hkq in Hnl. destruct Hnl.
+      * rewrite (Hne' n Hne) in Hq. assert (Hhq : has s q) by (apply (io_decl s (i_ids _ _ _ I) n q Hq)).
+        rewrite (Hold q Hhq) in Hkq. apply (i_lhs _ _ _ I n q b0 Hq Hkq).
+    + intros b0 q k0. rewrite Hbrhs. intros Hr. rewrite (Hold q (IStat_rhs_has _ _ _ _ _ I Hr)).
+      apply (i_rhsnl _ _ _ I b0 q k0 Hr).
+    + intros b0 b1 Hg Hkk. apply Hgen in Hg as [Hg|[-> ->]].
+      * rewrite (Hold b1 (IStat_gen_has _ _ _ _ _ I Hg)) in Hkk. apply Hgen. left. apply (i_pair _ _ _ I b0 b1 Hg Hkk).
+      * exfalso. rewrite Hnd, decide_True in Hkk by reflexivity. cbn in Hkk. rewrite Hkk in Hk. destruct Hk.
+  - split; [split; [apply has_newNode; auto|]|].
+    + unfold not_lhs. rewrite Hnd, decide_True by reflexivity. cbn. destruct k; try exact Logic.I; destruct Hk.
+    + right. split; [exact Hsx|]. apply Hgen. auto.
+Qed.
+
+(* adding a nested bind (its lhs-change and main nodes, its record) to the scope of [b] *)
+Lemma IStat_newBind b T s cs a :
+  IStat b T s -> okin b T s a -> Forall (texp_wf s T true) cs ->
+  let s' := (newBindWith false s cs a (Some b)).1 in
+  IStat b T s' /\ ext_by b s s' /\ okin b T s' (S (next s)).
+Proof.
+  intros I Ha Hcs s'. set (x := next s).
+  set (rec := mkBind a x (S x) None [] cs 0%nat false []).
+  set (s0 := s <| binds := <[x := rec]> (binds s) |>).
+  set (s1 := (newNode s0 (KBindLhs x) [a] (Some b) 0).1).
+  assert (Es' : s' = (newNode s1 (KBindMain x) [x] (Some b) 0).1).
+  { unfold s'. rewrite newBindWith_eq. reflexivity. }
+  assert (Hlt : forall m, has s m -> (m < x)%nat) by apply (io_lt s (i_ids _ _ _ I)).
+  assert (Hx : ~ has s x) by (intros H; apply Hlt in H; lia).
+  assert (HSx : ~ has s (S x)) by (intros H; apply Hlt in H; lia).
+  assert (Hbx : binds s !! x = None).
+  { destruct (binds s !! x) as [r|] eqn:Er; [|reflexivity]. exfalso. apply Hx.
+    pose proof (i_bwf _ _ _ I x r Er) as W. apply (bw_has_lhs _ _ _ W). }
+  assert (Hhasb : has s b) by (destruct (i_bsome _ _ _ I) as [r Hr]; apply (bw_has_lhs _ _ _ (i_bwf _ _ _ I b r Hr))).
+  assert (Hxb : x <> b) by (intros E; apply Hx; rewrite E; exact Hhasb).
+  assert (E0 : ext_by b s s0) by (apply ext_by_insert_bind; assumption).
+  assert (Hb0 : is_Some (binds s0 !! b)) by (apply (eb_binds1 _ _ _ E0), (i_bsome _ _ _ I)).
+  assert (Hlt0 : forall m, has s0 m -> (m < next s0)%nat) by (intros m Hm; apply Hlt, Hm).
+  assert (E1 : ext_by b s0 s1) by (apply ext_by_newNode; assumption).
+  assert (Hlt1 : forall m, has s1 m -> (m < next s1)%nat).
+  { intros m [->|Hm]%has_newNode; unfold s1; rewrite next_newNode; [unfold s0; cbn; lia|]. apply Hlt0 in Hm. lia. }
+  assert (E2 : ext_by b s1 s') by (rewrite Es'; apply ext_by_newNode; [exact Hlt1|apply (eb_binds1 _ _ _ E1), Hb0]).
+  assert (E : ext_by b s s').
+  { eapply ext_by_trans; [exact Hlt|exact E0|]. eapply ext_by_trans; [exact Hlt0|exact E1|exact E2]. }
+  assert (Hn1 : next s1 = S x) by (unfold s1; rewrite next_newNode; reflexivity).
+  assert (Hnd : forall m, nd s' m = if decide (m = S x) then fresh_node (KBindMain x) [x] (Some b) 0
+                                    else if decide (m = x) then fresh_node (KBindLhs x) [a] (Some b) 0 else nd s m).
+  { intros m. rewrite Es', nd_newNode, Hn1. destruct (decide (m = S x)); [reflexivity|].
+    unfold s1. rewrite nd_newNode. reflexivity. }
+  assert (Hhas : forall m, has s' m <-> m = S x \/ m = x \/ has s m).
+  { intros m. rewrite Es', has_newNode, Hn1. unfold s1. rewrite has_newNode. reflexivity. }
+  assert (Hold : forall m, has s m -> nd s' m = nd s m) by apply E.
+  assert (Hne' : forall n, n <> S x -> n <> x -> nd s' n = nd s n).
+  { intros n H1 H2. rewrite Hnd, !decide_False by assumption. reflexivity. }
+  assert (Hbinds : binds s' = alter (set b_rhsNodes (fun l => l ++ [S x])) b
+                              (alter (set b_rhsNodes (fun l => l ++ [x])) b (<[x := rec]> (binds s)))).
+  { rewrite Es', binds_newNode, Hn1. unfold s1. rewrite binds_newNode. reflexivity. }
+  assert (Hlook : forall b', binds s' !! b' =
+            if decide (b' = b) then set b_rhsNodes (fun l => (l ++ [x]) ++ [S x]) <$> binds s !! b
+            else if decide (b' = x) then Some rec else binds s !! b').
+  { intros b'. rewrite Hbinds. destruct (decide (b' = b)) as [->|Hne].
+    - rewrite !lookup_alter, lookup_insert_ne by congruence. destruct (binds s !! b); reflexivity.
+    - rewrite !lookup_alter_ne by congruence. destruct (decide (b' = x)) as [->|]; [apply lookup_insert|].
+      apply lookup_insert_ne. congruence. }
+  assert (Hbdb : bd s' b = set b_rhsNodes (fun l => (l ++ [x]) ++ [S x]) (bd s b)).
+  { unfold bd. rewrite Hlook, decide_True by reflexivity. destruct (i_bsome _ _ _ I) as [r ->]. reflexivity. }
+  assert (Hbdx : bd s' x = rec).
+  { unfold bd. rewrite Hlook, decide_False, decide_True by congruence. reflexivity. }
+  assert (Hbdne : forall b', b' <> b -> b' <> x -> bd s' b' = bd s b').
+  { intros b' H1 H2. unfold bd. rewrite Hlook, !decide_False by assumption. reflexivity. }
+  assert (Hbrhs : forall b0, b0 <> x -> b_rhs (bd s' b0) = b_rhs (bd s b0)).
+  { intros b0 H0. destruct (decide (b0 = b)) as [->|Hne]; [rewrite Hbdb; reflexivity|rewrite Hbdne by assumption; reflexivity]. }
+  assert (Hgen : forall b0 m, inGen s' b0 m <-> (b0 <> x /\ inGen s b0 m) \/ (b0 = b /\ (m = x \/ m = S x))).
+  { intros b0 m. unfold inGen. destruct (decide (b0 = b)) as [->|Hne].
+    - rewrite Hbdb. cbn. rewrite !elem_of_app, !elem_of_list_singleton. split.
+      + intros [[H|H]|H]; [left; split; [congruence|exact H]|right; auto|right; auto].
+      + intros [[_ H]|[_ [H|H]]]; auto.
+    - destruct (decide (b0 = x)) as [->|Hne2].
+      + rewrite Hbdx. cbn. split; [intros H; inversion H|]. intros [[H _]|[H _]]; congruence.
+      + rewrite Hbdne by assumption. split; [intros H; left; auto|]. intros [[_ H]|[H _]]; [exact H|congruence]. }
+  assert (Hown : forall n b0, scope (nd s n) = Some b0 -> has s b0) by (intros n b0 Hs; apply (IStat_owner b T s n b0 I Hs)).
+  assert (Hch : forall n t d0, has s n -> (chain s n t d0 <-> chain s' n t d0)).
+  { apply chain_has_iff; [exact Hown|]. intros n Hn. rewrite Hold by exact Hn. reflexivity. }
+  destruct (i_chain _ _ _ I) as [d0 Hc0].
+  assert (Hsx : scope (nd s' x) = Some b) by (rewrite Hnd, decide_False, decide_True by lia; reflexivity).
+  assert (HsSx : scope (nd s' (S x)) = Some b) by (rewrite Hnd, decide_True by reflexivity; reflexivity).
+  assert (Hdx : decl (nd s' x) = [a]) by (rewrite Hnd, decide_False, decide_True by lia; reflexivity).
+  assert (HdSx : decl (nd s' (S x)) = [x]) by (rewrite Hnd, decide_True by reflexivity; reflexivity).
+  assert (Hkx : nkind (nd s' x) = KBindLhs x) by (rewrite Hnd, decide_False, decide_True by lia; reflexivity).
+  assert (HkSx : nkind (nd s' (S x)) = KBindMain x) by (rewrite Hnd, decide_True by reflexivity; reflexivity).
+  assert (Hcx : chain s' x T (S d0)) by (apply (chain_in s' x b); [exact Hsx|apply Hch; assumption]).
+  assert (HcSx : chain s' (S x) T (S d0)) by (apply (chain_in s' (S x) b); [exact HsSx|apply Hch; assumption]).
+  assert (Hmu : forall q n, has s q -> has s n -> mu_lt s q n -> mu_lt s' q n).
+  { intros q n Hq Hn H tq dq tn dn Cq Cn. apply H; apply Hch; assumption. }
+  assert (Hbs1 : forall b', is_Some (binds s !! b') -> is_Some (binds s' !! b')) by apply E.
+  destruct Ha as [[Hha Hnla] Hka].
+  assert (Hmua : mu_lt s' a x).
+  { intros tq dq tn dn Cq Cn. destruct (chain_fun _ _ _ _ _ _ Cn Hcx) as [-> ->].
+    apply (Hch a tq dq Hha) in Cq. pose proof (Hlt a Hha) as Hax.
+    destruct Hka as [[Hs Hl]|[Hs _]].
+    - apply chain_top_inv in Cq as [-> ->]; [|exact Hs]. left. exact Hl.
+    - destruct (chain_in_inv s a b tq dq Hs Cq) as (d' & -> & C'').
+      destruct (chain_fun _ _ _ _ _ _ C'' Hc0) as [-> ->]. right. split; [reflexivity|]. right. split; [reflexivity|exact Hax]. }
+  split; [|split; [exact E|]].
+  - constructor.
+    + destruct (i_ids _ _ _ I) as [I1 I2]. split.
+      * intros m Hm. apply Hhas in Hm. rewrite (Nat.le_antisymm (next s') (S (S x))).
+        -- destruct Hm as [->|[->|Hm]]; [lia|lia|]. apply Hlt in Hm. lia.
+        -- rewrite Es', next_newNode, Hn1. lia.
+        -- rewrite Es', next_newNode, Hn1. lia.
+      * intros n p Hp. destruct (decide (n = S x)) as [->|H1].
+        { rewrite HdSx in Hp. apply elem_of_list_singleton in Hp as ->. apply Hhas. auto. }
+        destruct (decide (n = x)) as [->|H2].
+        { rewrite Hdx in Hp. apply elem_of_list_singleton in Hp as ->. apply E, Hha. }
+        rewrite (Hne' n H1 H2) in Hp. eapply (eb_has1 _ _ _ E), I2, Hp.
+    + intros b' r'. rewrite Hlook. destruct (decide (b' = b)) as [->|Hne].
+      * destruct (binds s !! b) as [r|] eqn:Er; [|discriminate]. intros [= <-].
+        rewrite set_rhsNodes_nil_idem. pose proof (i_bwf _ _ _ I b r Er) as W. rewrite decide_True in W by reflexivity.
+        apply (bind_wf_mono2 s s'); auto; [apply E|]. intros t d1. apply Hch, Hhasb.
+      * destruct (decide (b' = x)) as [->|Hne2].
+        -- intros [= <-]. constructor; try reflexivity.
+           ++ apply Hhas. auto.
+           ++ apply Hhas. auto.
+           ++ exact Hkx.
+           ++ exact HkSx.
+           ++ exact Hdx.
+           ++ exact HdSx.
+           ++ rewrite Hsx, HsSx. reflexivity.
+           ++ cbn. intros n Hn. inversion Hn.
+           ++ cbn. constructor.
+           ++ intros t d1 Hc. destruct (chain_fun _ _ _ _ _ _ Hc Hcx) as [-> ->]. cbn.
+              eapply List.Forall_impl; [|exact Hcs]. intros e.
+              apply texp_wf_ext; intros; [apply E; assumption|rewrite Hold by assumption; reflexivity|rewrite Hold by assumption; reflexivity].
+        -- intros Hr. pose proof (i_bwf _ _ _ I b' r' Hr) as W. rewrite decide_False in W by exact Hne.
+           apply (bind_wf_mono2 s s'); auto; [apply E|]. intros t d1. apply Hch, (bw_has_lhs _ _ _ W).
+    + intros n. rewrite Hgen. intros [[_ H]|[_ [->| ->]]].
+      * destruct (i_bnodes _ _ _ I n H) as [H1 H2]. split; [apply E, H1|rewrite Hold by exact H1; exact H2].
+      * split; [apply Hhas; auto|exact Hsx].
+      * split; [apply Hhas; auto|exact HsSx].
+    + rewrite Hbdb. cbn. apply NoDup_app. split; [apply NoDup_app; split; [apply (i_bnodup _ _ _ I)|split; [|apply NoDup_singleton]]|split; [|apply NoDup_singleton]].
+      * intros y Hy ->%elem_of_list_singleton. apply Hx, (i_bnodes _ _ _ I x Hy).
+      * intros y Hy ->%elem_of_list_singleton. apply elem_of_app in Hy as [Hy|Hy%elem_of_list_singleton]; [|lia].
+        apply HSx, (i_bnodes _ _ _ I (S x) Hy).
+    + apply Hbs1, (i_bsome _ _ _ I).
+    + exists d0. apply Hch; assumption.
+    + intros n Hn. destruct (decide (n = S x)) as [->|H1].
+      { rewrite HkSx. split; [reflexivity|]. rewrite Hlook, decide_False, decide_True by congruence. eauto. }
+      destruct (decide (n = x)) as [->|H2].
+      { rewrite Hkx. split; [reflexivity|]. rewrite Hlook, decide_False, decide_True by congruence. eauto. }
+      rewrite (Hne' n H1 H2). apply Hhas in Hn as [?|[?|Hn]]; [contradiction|contradiction|].
+      pose proof (i_kinds _ _ _ I n Hn) as K.
+      destruct (nkind (nd s n)); auto; destruct K as [K1 K2]; (split; [exact K1|apply Hbs1, K2]).
+    + intros n b0 Hs. destruct (decide (n = S x)) as [->|H1]; [|destruct (decide (n = x)) as [->|H2]].
+      * rewrite HsSx in Hs. injection Hs as <-. split; [apply Hbs1, (i_bsome _ _ _ I)|].
+        destruct (i_bsome _ _ _ I) as [r Hr]. pose proof (bw_has_main _ _ _ (i_bwf _ _ _ I b r Hr)) as Hm.
+        apply Hlt in Hm. lia.
+      * rewrite Hsx in Hs. injection Hs as <-. split; [apply Hbs1, (i_bsome _ _ _ I)|].
+        destruct (i_bsome _ _ _ I) as [r Hr]. pose proof (bw_has_main _ _ _ (i_bwf _ _ _ I b r Hr)) as Hm.
+        apply Hlt in Hm. lia.
+      * rewrite (Hne' n H1 H2) in Hs. destruct (i_scopes _ _ _ I n b0 Hs) as [A B]. split; [apply Hbs1, A|exact B].
+    + intros n q Hq. destruct (decide (n = S x)) as [->|H1]; [|destruct (decide (n = x)) as [->|H2]].
+      * rewrite HdSx in Hq. apply elem_of_list_singleton in Hq as ->. right; left. rewrite Hsx, HsSx. reflexivity.
+      * rewrite Hdx in Hq. apply elem_of_list_singleton in Hq as ->. rewrite Hsx, (Hold a Hha).
+        destruct Hka as [[Hs _]|[Hs _]]; auto.
+      * rewrite (Hne' n H1 H2) in *. assert (Hhq : has s q) by (apply (io_decl s (i_ids _ _ _ I) n q Hq)).
+        rewrite (Hold q Hhq). destruct (i_decl _ _ _ I n q Hq) as [?|[?|(b0 & Hk1 & Hk2 & Hk3)]]; auto.
+        right; right. exists b0. rewrite Hbrhs; [auto|]. intros ->. unfold bd in Hk3. rewrite Hbx in Hk3. discriminate.
+    + intros n q b0 Hq Hsn Hsq Hgn. destruct (decide (n = S x)) as [->|H1]; [|destruct (decide (n = x)) as [->|H2]].
+      * rewrite HdSx in Hq. apply elem_of_list_singleton in Hq as ->. rewrite HsSx in Hsn. injection Hsn as <-.
+        apply Hgen. right. auto.
+      * rewrite Hdx in Hq. apply elem_of_list_singleton in Hq as ->. rewrite Hsx in Hsn. injection Hsn as <-.
+        rewrite (Hold a Hha) in Hsq. destruct Hka as [[Hs _]|[_ Hg]]; [congruence|].
+        apply Hgen. left. split; [congruence|exact Hg].
+      * rewrite (Hne' n H1 H2) in *. assert (Hhq : has s q) by (apply (io_decl s (i_ids _ _ _ I) n q Hq)).
+        rewrite (Hold q Hhq) in Hsq. apply Hgen in Hgn as [[Hb0x Hgn]|[_ [->| ->]]]; [|congruence|congruence].
+        apply Hgen. left. split; [exact Hb0x|]. apply (i_gen _ _ _ I n q b0 Hq Hsn Hsq Hgn).
+    + intros b0 q Hne Hr. destruct (decide (b0 = x)) as [->|Hne2]; [rewrite Hbdx in Hr; discriminate|].
+      rewrite Hbrhs in Hr by exact Hne2.
+      assert (Hhq : has s q).
+      { unfold bd in Hr. destruct (binds s !! b0) as [r|] eqn:Er; [|discriminate]. simpl in Hr.
+        pose proof (i_bwf _ _ _ I b0 r Er) as W. rewrite decide_False in W by exact Hne.
+        apply (io_decl s (i_ids _ _ _ I) (S b0) q). rewrite (bw_decl_main _ _ _ W), Hr. right; left. }
+      rewrite (Hold q Hhq). destruct (i_rhs _ _ _ I b0 q Hne Hr) as [Hs|[Hs Hg]]; [auto|].
+      right. split; [exact Hs|apply Hgen; auto].
+    + intros n q Hq. destruct (decide (n = S x)) as [->|H1]; [|destruct (decide (n = x)) as [->|H2]].
+      * rewrite HdSx in Hq. apply elem_of_list_singleton in Hq as ->.
+        intros tq dq tn dn Cq Cn. destruct (chain_fun _ _ _ _ _ _ Cn HcSx) as [-> ->].
+        destruct (chain_fun _ _ _ _ _ _ Cq Hcx) as [-> ->]. right. split; [reflexivity|]. right. split; [reflexivity|lia].
+      * rewrite Hdx in Hq. apply elem_of_list_singleton in Hq as ->. exact Hmua.
+      * rewrite (Hne' n H1 H2) in Hq. assert (Hhq : has s q) by (apply (io_decl s (i_ids _ _ _ I) n q Hq)).
+        apply Hmu; [exact Hhq|eapply has_decl, Hq|apply (i_acyc _ _ _ I n q Hq)].
+    + intros n q b0 Hq Hkq. destruct (decide (n = S x)) as [->|H1]; [|destruct (decide (n = x)) as [->|H2]].
+      * rewrite HdSx in Hq. apply elem_of_list_singleton in Hq as ->. reflexivity.
+      * rewrite Hdx in Hq. apply elem_of_list_singleton in Hq as ->. rewrite (Hold a Hha) in Hkq.
+        unfold not_lhs in Hnla. rewrite Hkq in Hnla. destruct Hnla.
+      * rewrite (Hne' n H1 H2) in Hq. assert (Hhq : has s q) by (apply (io_decl s (i_ids _ _ _ I) n q Hq)).
+        rewrite (Hold q Hhq) in Hkq. apply (i_lhs _ _ _ I n q b0 Hq Hkq).
+    + intros b0 q k0 Hr. destruct (decide (b0 = x)) as [->|Hne2]; [rewrite Hbdx in Hr; discriminate|].
+      rewrite Hbrhs in Hr by exact Hne2. rewrite (Hold q (IStat_rhs_has _ _ _ _ _ I Hr)).
+      apply (i_rhsnl _ _ _ I b0 q k0 Hr).
+    + intros b0 b1 Hg Hkk. apply Hgen in Hg as [[Hb0x Hg]|[-> [->| ->]]].
+      * rewrite (Hold b1 (IStat_gen_has _ _ _ _ _ I Hg)) in Hkk. apply Hgen. left. split; [exact Hb0x|]. apply (i_pair _ _ _ I b0 b1 Hg Hkk).
+      * apply Hgen. right. auto.
+      * exfalso. rewrite HkSx in Hkk. discriminate.
+  - split; [split; [apply Hhas; auto|unfold not_lhs; rewrite HkSx; exact Logic.I]|].
+    right. split; [exact HsSx|]. apply Hgen. auto.
+Qed.
+
+Lemma texp_wf_ext_by b s s' T root e : ext_by b s s' -> texp_wf s T root e -> texp_wf s' T root e.
+Proof.
+  intros E. apply texp_wf_ext; intros; [apply E; assumption|rewrite (eb_old _ _ _ E) by assumption; reflexivity|rewrite (eb_old _ _ _ E) by assumption; reflexivity].
+Qed.
+
+Lemma texp_wf_cases s T cs :
+  (fix go (l : list texp) : Prop := match l with [] => True | c :: l => texp_wf s T true c /\ go l end) cs ->
+  Forall (texp_wf s T true) cs.
+Proof. induction cs as [|c cs IH]; [constructor|]. intros [H1 H2]. constructor; auto. Qed.
+
+Lemma IStat_lt b T s : IStat b T s -> forall m, has s m -> (m < next s)%nat.
+Proof. intros I. apply (io_lt s (i_ids _ _ _ I)). Qed.
+
+Lemma inst_spec (b : nat) (T : nid) (x : Z) : forall (e : texp) (root : bool) (s s' : state) (r : option nid),
+  IStat b T s -> texp_wf s T root e -> inst s (Some b) x e = (s', r) ->
+  IStat b T s' /\ ext_by b s s' /\
+  match r with Some a => okin b T s' a | None => root = true /\ s' = s end.
+Proof.
+  induction e as [k| |t|f e IH|f e1 IH1 e2 IH2|c e IH|cs e IH|]; intros root s s' r I W H; simpl in H.
+  - (* TRet *) injection H as <- <-.
+    destruct (IStat_newNode b T s KReturn [] k I ltac:(intros q Hq; inversion Hq) Logic.I) as (A & B & C). auto.
+  - (* TX *) injection H as <- <-.
+    destruct (IStat_newNode b T s KReturn [] x I ltac:(intros q Hq; inversion Hq) Logic.I) as (A & B & C). auto.
+  - (* TOuter *) injection H as <- <-. split; [exact I|]. split; [apply ext_by_refl|].
+    simpl in W. destruct W as (W1 & W2 & W3 & W4). split; [split; [exact W1|exact W4]|left; auto].
+  - (* TMap *) destruct (inst s (Some b) x e) as [s1 a] eqn:E1. injection H as <- <-. simpl in W.
+    destruct (IH false s s1 a I W E1) as (I1 & B1 & C1).
+    destruct a as [a|]; [|destruct C1; discriminate]. simpl.
+    destruct (IStat_newNode b T s1 (KMap f) [a] 0 I1) as (A & B & C); [|exact Logic.I|].
+    { intros q ->%elem_of_list_singleton. exact C1. }
+    split; [exact A|]. split; [eapply ext_by_trans; [apply (IStat_lt b T s I)|exact B1|exact B]|exact C].
+  - (* TMap2 *) destruct (inst s (Some b) x e1) as [s1 a1] eqn:E1. destruct (inst s1 (Some b) x e2) as [s2 a2] eqn:E2.
+    injection H as <- <-. simpl in W. destruct W as [W1 W2].
+    destruct (IH1 false s s1 a1 I W1 E1) as (I1 & B1 & C1).
+    destruct (IH2 false s1 s2 a2 I1 (texp_wf_ext_by b s s1 T false e2 B1 W2) E2) as (I2 & B2 & C2).
+    destruct a1 as [a1|]; [|destruct C1; discriminate]. destruct a2 as [a2|]; [|destruct C2; discriminate]. simpl.
+    destruct (IStat_newNode b T s2 (KMap2 f) [a1; a2] 0 I2) as (A & B & C); [|exact Logic.I|].
+    { intros q Hq. apply elem_of_cons in Hq as [->|Hq]; [apply (okin_ext b T s1 s2 a1 B2 C1)|].
+      apply elem_of_list_singleton in Hq as ->. exact C2. }
+    split; [exact A|]. split; [|exact C].
+    eapply ext_by_trans; [apply (IStat_lt b T s I)|exact B1|].
+    eapply ext_by_trans; [apply (IStat_lt b T s1 I1)|exact B2|exact B].
+  - (* TCut *) destruct (inst s (Some b) x e) as [s1 a] eqn:E1. injection H as <- <-. simpl in W.
+    destruct (IH false s s1 a I W E1) as (I1 & B1 & C1).
+    destruct a as [a|]; [|destruct C1; discriminate]. simpl.
+    destruct (IStat_newNode b T s1 (KCutoff c) [a] 0 I1) as (A & B & C); [|exact Logic.I|].
+    { intros q ->%elem_of_list_singleton. exact C1. }
+    split; [exact A|]. split; [eapply ext_by_trans; [apply (IStat_lt b T s I)|exact B1|exact B]|exact C].
+  - (* TBind *) destruct (inst s (Some b) x e) as [s1 a] eqn:E1. simpl in W. destruct W as [Wc We].
+    destruct (IH false s s1 a I We E1) as (I1 & B1 & C1).
+    destruct a as [a|]; [|destruct C1; discriminate]. simpl in H. injection H as <- <-.
+    assert (Hcs : Forall (texp_wf s1 T true) cs).
+    { eapply List.Forall_impl; [|apply (texp_wf_cases s T cs Wc)]. intros e0. apply (texp_wf_ext_by b s s1 T true e0 B1). }
+    destruct (IStat_newBind b T s1 cs a I1 C1 Hcs) as (A & B & C).
+    change (IStat b T (newBindWith false s1 cs a (Some b)).1 /\ ext_by b s (newBindWith false s1 cs a (Some b)).1 /\
+            okin b T (newBindWith false s1 cs a (Some b)).1 (S (next s1))).
+    split; [exact A|]. split; [eapply ext_by_trans; [apply (IStat_lt b T s I)|exact B1|exact B]|exact C].
+  - (* TNil *) injection H as <- <-. simpl in W. split; [exact I|]. split; [apply ext_by_refl|auto].
+Qed.
+
+(** the graph clauses only read the dynamic fields: they survive fresh nodes, new bind records
+    and benign log entries *)
+Lemma TInv_dyn E s s' l :
+  ids_ok s ->
+  (next s <= next s')%nat -> (forall m, has s m -> has s' m) ->
+  (forall m, has s' m -> has s m \/ (next s <= m)%nat) ->
+  (forall m, dyn_eq (nd s' m) (nd s m)) ->
+  (forall m, has s m -> decl (nd s' m) = decl (nd s m)) ->
+  (forall m, has s m -> scope (nd s' m) = scope (nd s m)) ->
+  reg s' = reg s -> obs s' = obs s -> heap s' = heap s -> numNodes s' = numNodes s ->
+  maxHeight s' = maxHeight s -> log s' = l ++ log s -> Forall (ev_benign s) l ->
+  (forall n, has s n -> binds s !! n = None -> binds s' !! n = None) ->
+  TInv [] E s -> TInv [] E s'.
+Proof.
+  intros Hids Hnext Hh1 Hh2 Hdyn Hdecl Hscope Hreg Hobs Hheap Hnum Hmh Hlog Hl Hbn T.
+  destruct T as [t_edges0 t_zero0 t_nec0 t_necE0 t_W0 t_par0 t_height0 t_heap0 t_count0 t_obs0 t_valid0 t_log0 t_life0 t_lifeW0 t_nodup0].
+  assert (Hg : forall m, inGraph (nd s' m) = inGraph (nd s m)) by (intros m; apply (Hdyn m)).
+  assert (Hp : forall m, parents (nd s' m) = parents (nd s m)) by (intros m; apply (Hdyn m)).
+  assert (Hv : forall m, valid (nd s' m) = valid (nd s m)) by (intros m; apply (Hdyn m)).
+  assert (Hnec : forall m, isNecessary (nd s' m) = isNecessary (nd s m)).
+  { intros m. destruct (Hdyn m) as (_&_&_&_&_&_&Hc&Ho&_&Hf&_). apply isNecessary_ext; assumption. }
+  constructor.
+  - apply (extend_edges s s' Hdyn t_edges0).
+  - apply (extend_zero s s' Hdyn t_zero0).
+  - intros n. rewrite Hg, Hnec. apply t_nec0.
+  - intros n. rewrite Hg, Hnec. apply t_necE0.
+  - intros n. rewrite Hg, Hnec. apply t_W0.
+  - intros n Hn. rewrite Hg, Hp. intros Hgn. rewrite Hdecl by (apply has_inGraph, Hgn). apply t_par0; assumption.
+  - apply (extend_height s s' Hdyn Hscope Hmh t_height0).
+  - apply (extend_heap s s' Hdyn Hheap t_heap0).
+  - apply (extend_count s s' Hdyn Hreg Hobs Hnum t_count0).
+  - apply (extend_obs s s' Hnext Hh1 Hh2 Hdyn Hdecl Hscope Hobs Hbn Hids t_obs0).
+  - intros n. rewrite Hg, Hv. apply t_valid0.
+  - rewrite Hlog. apply (log_ok_benign s); auto. intros n Hn.
+    apply (t_life0 n ltac:(intros Hw; inversion Hw)), Hn.
+  - intros n Hn. rewrite Hg, Hlog, (lastNU_benign s l _ n Hl). apply t_life0, Hn.
+  - intros n Hn. rewrite Hlog, (lastNU_benign s l _ n Hl). apply t_lifeW0, Hn.
+  - exact t_nodup0.
+Qed.
+
+(** ** after the function has run: the record of [b] gets its new right-hand side, the main
+       node its new declaration, and the static clauses hold in full again *)
+Section finish.
+  Context (b : nat) (T : nid) (s3 s7 : state) (root : option nid) (r3 r7 : bindrec).
+  Hypothesis (I : IStat b T s3).
+  Hypothesis (Hroot : match root with Some a => okin b T s3 a | None => b_rhsNodes r3 = [] end).
+  Hypothesis (Hr3 : binds s3 !! b = Some r3) (Hr7 : binds s7 !! b = Some r7).
+  Hypothesis (Hbne : forall b', b' <> b -> binds s7 !! b' = binds s3 !! b').
+  Hypothesis (Hf : b_lhs r7 = b_lhs r3 /\ b_lhsChange r7 = b_lhsChange r3 /\ b_main r7 = b_main r3 /\
+                   b_memo r7 = b_memo r3 /\ b_cases r7 = b_cases r3 /\ b_rhsNodes r7 = b_rhsNodes r3 /\
+                   b_rhs r7 = root).
+  Hypothesis (Hnext : next s7 = next s3) (Hhas : forall m, has s7 m <-> has s3 m).
+  Hypothesis (Hndne : forall m, m <> S b -> nd s7 m = nd s3 m).
+  Hypothesis (Hndm : nd s7 (S b) = set decl (fun _ => b :: option_list root) (nd s3 (S b))).
+
+  Local Lemma fin_scope m : scope (nd s7 m) = scope (nd s3 m).
+  Proof. destruct (decide (m = S b)) as [->|Hne]; [rewrite Hndm; reflexivity|rewrite Hndne by exact Hne; reflexivity]. Qed.
+  Local Lemma fin_kind m : nkind (nd s7 m) = nkind (nd s3 m).
+  Proof. destruct (decide (m = S b)) as [->|Hne]; [rewrite Hndm; reflexivity|rewrite Hndne by exact Hne; reflexivity]. Qed.
+  Local Lemma fin_decl m : decl (nd s7 m) = if decide (m = S b) then b :: option_list root else decl (nd s3 m).
+  Proof. destruct (decide (m = S b)) as [->|Hne]; [rewrite Hndm; reflexivity|rewrite Hndne by exact Hne; reflexivity]. Qed.
+
+  Local Lemma fin_bd b' : b' <> b -> bd s7 b' = bd s3 b'.
+  Proof. intros H. unfold bd. rewrite Hbne by exact H. reflexivity. Qed.
+  Local Lemma fin_bdb : bd s7 b = r7 /\ bd s3 b = r3.
+  Proof. unfold bd. rewrite Hr3, Hr7. auto. Qed.
+  Local Lemma fin_gen b' m : inGen s7 b' m <-> inGen s3 b' m.
+  Proof.
+    unfold inGen. destruct (decide (b' = b)) as [->|Hne]; [|rewrite fin_bd by exact Hne; reflexivity].
+    destruct fin_bdb as [-> ->]. destruct Hf as (_&_&_&_&_&->&_). reflexivity.
+  Qed.
+  Local Lemma fin_chain n t d : chain s7 n t d <-> chain s3 n t d.
+  Proof. apply chain_ext_iff. apply fin_scope. Qed.
+
+  Lemma finish_static : ids_ok s7 /\ binds_wf s7 /\ kinds_ok s7 /\ scopes_ok s7 /\ scoping_ok s7.
+  Proof.
+    pose proof (i_bwf _ _ _ I b r3 Hr3) as Wb. rewrite decide_True in Wb by reflexivity.
+    destruct Hf as (F1 & F2 & F3 & F4 & F5 & F6 & F7).
+    destruct (i_chain _ _ _ I) as [d0 Hc0].
+    assert (Hsm : scope (nd s3 (S b)) = scope (nd s3 b)) by apply (bw_scope _ _ _ Wb).
+    assert (HcS : (chain s3 (S b) T d0 /\ scope (nd s3 b) <> None) \/
+                  (chain s3 (S b) (S b) 0 /\ T = b /\ d0 = 0%nat)).
+    { destruct (scope (nd s3 b)) as [b0|] eqn:Eb.
+      - left. split; [|discriminate]. destruct (chain_in_inv s3 b b0 T d0 Eb Hc0) as (d' & -> & C').
+        apply (chain_in s3 (S b) b0); [exact Hsm|exact C'].
+      - right. destruct (chain_top_inv s3 b T d0 Eb Hc0) as [-> ->]. split; [|auto].
+        apply chain_top. exact Hsm. }
+    assert (Hroot_has : forall a, root = Some a -> has s3 a).
+    { intros a ->. apply Hroot. }
+    assert (Hroot_nl : forall a, root = Some a -> not_lhs (nd s3 a)).
+    { intros a ->. apply Hroot. }
+    split; [|split; [|split; [|split]]].
+    - destruct (i_ids _ _ _ I) as [I1 I2]. split.
+      + intros m Hm. rewrite Hnext. apply I1, Hhas, Hm.
+      + intros n q. rewrite fin_decl, Hhas. destruct (decide (n = S b)) as [->|]; [|apply I2].
+        intros [->|Hq]%elem_of_cons; [apply (bw_has_lhs _ _ _ Wb)|].
+        destruct root as [a|]; [|inversion Hq]. apply elem_of_list_singleton in Hq as ->. apply Hroot_has. reflexivity.
+    - intros b' r' Hr'. destruct (decide (b' = b)) as [->|Hne].
+      + rewrite Hr7 in Hr'. injection Hr' as <-. destruct Wb as [W1 W2 W3 W4 W5 W6 W7 W8 W9 W10 W11 W12 W13 W14].
+        constructor; rewrite ?F1, ?F2, ?F3, ?F4, ?F5, ?F6, ?F7, ?fin_kind, ?fin_scope, ?Hhas; auto.
+        * rewrite fin_decl, decide_False by lia. exact W8.
+        * rewrite fin_decl, decide_True by reflexivity. reflexivity.
+        * intros n Hn. rewrite Hhas, fin_scope. apply (i_bnodes _ _ _ I n). unfold inGen.
+          destruct fin_bdb as [_ ->]. exact Hn.
+        * pose proof (i_bnodup _ _ _ I) as Hnd. destruct fin_bdb as [_ E]. rewrite E in Hnd. exact Hnd.
+        * intros ->. exact Hroot.
+        * intros t d Hc. apply fin_chain in Hc.
+          eapply List.Forall_impl; [|apply (W14 t d Hc)]. intros e.
+          apply texp_wf_ext; intros; [apply Hhas; assumption|apply fin_scope|apply fin_kind].
+      + rewrite Hbne in Hr' by exact Hne. pose proof (i_bwf _ _ _ I b' r' Hr') as W. rewrite decide_False in W by exact Hne.
+        destruct W as [W1 W2 W3 W4 W5 W6 W7 W8 W9 W10 W11 W12 W13 W14].
+        assert (HSb : S b' <> S b) by congruence.
+        assert (Hb'S : b' <> S b).
+        { intros ->. rewrite (bw_kind_main _ _ _ Wb) in W6. discriminate. }
+        constructor; rewrite ?fin_kind, ?fin_scope, ?Hhas; auto.
+        * rewrite fin_decl, decide_False by exact Hb'S. exact W8.
+        * rewrite fin_decl, decide_False by exact HSb. exact W9.
+        * intros n Hn. rewrite Hhas, fin_scope. apply W11, Hn.
+        * intros t d Hc. apply fin_chain in Hc.
+          eapply List.Forall_impl; [|apply (W14 t d Hc)]. intros e.
+          apply texp_wf_ext; intros; [apply Hhas; assumption|apply fin_scope|apply fin_kind].
+    - intros n Hn. rewrite fin_kind. apply Hhas in Hn. pose proof (i_kinds _ _ _ I n Hn) as K.
+      assert (Hdom : forall b0, is_Some (binds s3 !! b0) -> is_Some (binds s7 !! b0)).
+      { intros b0 H0. destruct (decide (b0 = b)) as [->|Hne]; [rewrite Hr7; eauto|rewrite Hbne by exact Hne; exact H0]. }
+      destruct (nkind (nd s3 n)); auto; destruct K as [K1 K2]; (split; [exact K1|apply Hdom, K2]).
+    - intros n b0. rewrite fin_scope. intros Hs. destruct (i_scopes _ _ _ I n b0 Hs) as [A B]. split; [|exact B].
+      destruct (decide (b0 = b)) as [->|Hne]; [rewrite Hr7; eauto|rewrite Hbne by exact Hne; exact A].
+    - split.
+      + intros n q. rewrite fin_decl, !fin_scope, fin_kind. destruct (decide (n = S b)) as [->|Hne].
+        * intros [->|Hq]%elem_of_cons; [right; left; symmetry; exact Hsm|].
+          destruct root as [a|]; [|inversion Hq]. apply elem_of_list_singleton in Hq as ->.
+          destruct Hroot as [_ [[Hs _]|[Hs _]]]; [left; exact Hs|].
+          right; right. exists b. split; [apply (bw_kind_main _ _ _ Wb)|]. split; [exact Hs|].
+          destruct fin_bdb as [-> _]. exact F7.
+        * intros Hq. destruct (i_decl _ _ _ I n q Hq) as [?|[?|(b0 & K1 & K2 & K3)]]; auto.
+          right; right. exists b0. split; [exact K1|]. split; [exact K2|].
+          rewrite fin_bd; [exact K3|]. intros ->.
+          pose proof (i_kinds _ _ _ I n (has_decl s3 n q Hq)) as K. rewrite K1 in K. destruct K as [-> _]. congruence.
+      + intros n q b0. rewrite fin_decl, !fin_scope, !fin_gen. destruct (decide (n = S b)) as [->|Hne]; [|apply (i_gen _ _ _ I)].
+        intros [->|Hq]%elem_of_cons Hsn Hsq Hgn.
+        * apply (i_gen _ _ _ I (S b) b b0); auto. rewrite (bw_decl_main _ _ _ Wb). left.
+        * destruct root as [a|]; [|inversion Hq]. apply elem_of_list_singleton in Hq as ->. exfalso.
+          destruct Hroot as [_ [[Hs _]|[Hs _]]]; [congruence|].
+          assert (b0 = b) as -> by congruence.
+          destruct (i_scopes _ _ _ I (S b) b Hsn) as [_ Hlt]. lia.
+      + intros b0 q. rewrite fin_scope, fin_gen. destruct (decide (b0 = b)) as [->|Hne].
+        * destruct fin_bdb as [-> _]. rewrite F7. intros ->. destruct Hroot as [_ [[Hs _]|[Hs Hg]]]; auto.
+        * rewrite fin_bd by exact Hne. apply (i_rhs _ _ _ I b0 q Hne).
+      + intros n q. rewrite fin_decl. destruct (decide (n = S b)) as [->|Hne].
+        * intros Hq tq dq tn dn Cq Cn. apply fin_chain in Cq, Cn.
+          destruct HcS as [[HcS _]|(HcS & -> & ->)]; destruct (chain_fun _ _ _ _ _ _ Cn HcS) as [-> ->].
+          -- apply elem_of_cons in Hq as [->|Hq].
+             ++ destruct (chain_fun _ _ _ _ _ _ Cq Hc0) as [-> ->]. right. split; [reflexivity|]. right. split; [reflexivity|lia].
+             ++ destruct root as [a|]; [|inversion Hq]. apply elem_of_list_singleton in Hq as ->.
+                destruct Hroot as [_ [[Hs Hl]|[Hs _]]].
+                ** apply chain_top_inv in Cq as [-> ->]; [|exact Hs]. left. exact Hl.
+                ** destruct (chain_in_inv s3 a b tq dq Hs Cq) as (d' & -> & C').
+                   destruct (chain_fun _ _ _ _ _ _ C' Hc0) as [-> ->]. right. split; [reflexivity|]. left. lia.
+          -- apply elem_of_cons in Hq as [->|Hq].
+             ++ destruct (chain_fun _ _ _ _ _ _ Cq Hc0) as [-> ->]. left. lia.
+             ++ destruct root as [a|]; [|inversion Hq]. apply elem_of_list_singleton in Hq as ->.
+                destruct Hroot as [_ [[Hs Hl]|[Hs _]]].
+                ** apply chain_top_inv in Cq as [-> ->]; [|exact Hs]. left. lia.
+                ** destruct (chain_in_inv s3 a b tq dq Hs Cq) as (d' & -> & C').
+                   destruct (chain_fun _ _ _ _ _ _ C' Hc0) as [-> ->]. left. lia.
+        * intros Hq tq dq tn dn Cq Cn. apply fin_chain in Cq, Cn. apply (i_acyc _ _ _ I n q Hq); assumption.
+      + intros n q b0. rewrite fin_decl, fin_kind. destruct (decide (n = S b)) as [->|Hne]; [|apply (i_lhs _ _ _ I)].
+        intros [->|Hq]%elem_of_cons Hkq; [reflexivity|].
+        destruct root as [a|]; [|inversion Hq]. apply elem_of_list_singleton in Hq as ->.
+        pose proof (Hroot_nl a eq_refl) as Hnl. unfold not_lhs in Hnl. rewrite Hkq in Hnl. destruct Hnl.
+      + intros b0 q k0. rewrite fin_kind. destruct (decide (b0 = b)) as [->|Hne].
+        * destruct fin_bdb as [-> _]. rewrite F7. intros -> Hkq.
+          pose proof (Hroot_nl q eq_refl) as Hnl. unfold not_lhs in Hnl. rewrite Hkq in Hnl. destruct Hnl.
+        * rewrite fin_bd by exact Hne. apply (i_rhsnl _ _ _ I b0 q k0).
+      + intros b0 b1. rewrite !fin_gen, fin_kind. apply (i_pair _ _ _ I b0 b1).
+  Qed.
+End finish.
+
+Lemma TInv_soft E s s' : soft s s' -> hreg_ok s -> TInv [] E s -> TInv [] E s'.
+Proof.
+  intros S Hr T. destruct (so_log _ _ S) as (l & Hl & Fl).
+  pose proof (so_struct _ _ S) as SS.
+  assert (Hk : heap_ok s') by (apply (so_heap _ _ S); [apply T|exact Hr]).
+  destruct T as [t_edges0 t_zero0 t_nec0 t_necE0 t_W0 t_par0 t_height0 t_heap0 t_count0 t_obs0 t_valid0 t_log0 t_life0 t_lifeW0 t_nodup0].
+  destruct SS as [Snext Sbinds Shas Sreg Sobs Sadj Sinvq Snum Smh Snode].
+  assert (Hd : forall n, decl (nd s' n) = decl (nd s n)) by (intros n; apply Snode).
+  assert (Hsc : forall n, scope (nd s' n) = scope (nd s n)) by (intros n; apply Snode).
+  assert (Hh : forall n, height (nd s' n) = height (nd s n)) by (intros n; apply Snode).
+  assert (Hp : forall n, parents (nd s' n) = parents (nd s n)) by (intros n; apply Snode).
+  assert (Hc : forall n, children (nd s' n) = children (nd s n)) by (intros n; apply Snode).
+  assert (Ho : forall n, observers (nd s' n) = observers (nd s n)) by (intros n; apply Snode).
+  assert (Hv : forall n, valid (nd s' n) = valid (nd s n)) by (intros n; apply Snode).
+  assert (Hf : forall n, forceNec (nd s' n) = forceNec (nd s n)) by (intros n; apply Snode).
+  assert (Hg : forall n, inGraph (nd s' n) = inGraph (nd s n)) by (intros n; apply Snode).
+  assert (Hnec : forall n, isNecessary (nd s' n) = isNecessary (nd s n)) by (intros; apply isNecessary_ext; auto).
+  assert (Hnil : forall m : nid, m ∉ []) by (intros m Hm; inversion Hm).
+  constructor.
+  - apply (edges_ok_ext s s'); auto.
+  - apply (zero_ok_ext s s'); auto.
+  - intros n. rewrite Hg, Hnec. apply t_nec0.
+  - intros n. rewrite Hg, Hnec. apply t_necE0.
+  - intros w Hw. inversion Hw.
+  - intros n. rewrite Hg, Hp, Hd. apply t_par0.
+  - apply (height_ok_ext s s'); auto.
+  - exact Hk.
+  - apply (count_ok_ext s s'); auto.
+  - apply (obs_ok_ext s s'); auto.
+  - intros n. rewrite Hg, Hv. apply t_valid0.
+  - rewrite Hl. apply (log_ok_benign s); auto. intros n Hn. apply (t_life0 n (Hnil n)), Hn.
+  - intros n _. rewrite Hg, Hl, (lastNU_benign s l _ n Fl). apply t_life0, Hnil.
+  - intros w Hw. inversion Hw.
+  - constructor.
+Qed.
+
+(* a state that differs only in its bind records *)
+Lemma TInv_binds E s s' : TInv [] E s ->
+  nodes s' = nodes s -> next s' = next s -> reg s' = reg s -> obs s' = obs s -> heap s' = heap s ->
+  numNodes s' = numNodes s -> maxHeight s' = maxHeight s -> log s' = log s -> ids_ok s ->
+  (forall n, binds s !! n = None -> binds s' !! n = None) -> TInv [] E s'.
+Proof.
+  intros T Hn Hnx Hr Ho Hw Hnn Hm Hl Hids Hbn.
+  assert (Hnd : forall m, nd s' m = nd s m) by (intros m; unfold nd; rewrite Hn; reflexivity).
+  assert (Hhas : forall m, has s' m <-> has s m) by (intros m; unfold has; rewrite Hn; reflexivity).
+  apply (TInv_dyn E s s' [] Hids); auto; try (rewrite Hnx; lia);
+    try (intros m; rewrite Hnd; try reflexivity; try apply dyn_eq_refl; fail);
+    try (intros m Hm'; apply Hhas, Hm'; fail); try (intros m Hm'; left; apply Hhas, Hm'; fail);
+    try (intros m _; rewrite Hnd; reflexivity); try (intros m _; apply Hbn).
+Qed.
+
+Lemma bind_wf_nodes_same s s' b r :
+  nodes s' = nodes s -> bind_wf s b r -> bind_wf s' b r.
+Proof.
+  intros Hn W. assert (Hnd : forall m, nd s' m = nd s m) by (intros m; unfold nd; rewrite Hn; reflexivity).
+  assert (Hh : forall m, has s' m <-> has s m) by (intros m; unfold has; rewrite Hn; reflexivity).
+  apply (bind_wf_mono2 s s'); auto.
+  - intros n. apply Hh.
+  - intros t d. apply chain_ext. intros n. rewrite Hnd. reflexivity.
+Qed.
+
+Lemma IStat_start t b T d :
+  ids_ok t -> binds_wf t -> kinds_ok t -> scopes_ok t -> scoping_ok t ->
+  is_Some (binds t !! b) -> chain t b T d ->
+  IStat b T (updb t b (set b_rhsNodes (fun _ => []))).
+Proof.
+  intros Hids Hb Hk Hs [S1 S2 S3 S4 S5 S6 S7] [r Hr] Hc.
+  set (f1 := set b_rhsNodes (fun _ : list nid => [])). set (t1 := updb t b f1).
+  assert (Hnd : forall m, nd t1 m = nd t m) by reflexivity.
+  assert (Hlook : forall b', binds t1 !! b' = if decide (b' = b) then f1 <$> binds t !! b else binds t !! b').
+  { intros b'. apply binds_updb_lookup. }
+  assert (Hbdb : bd t1 b = f1 (bd t b)) by (apply bd_updb_eq; eauto).
+  assert (Hbdne : forall b', b' <> b -> bd t1 b' = bd t b') by (intros b' H; apply bd_updb_ne, H).
+  assert (Hrhs : forall b0, b_rhs (bd t1 b0) = b_rhs (bd t b0)).
+  { intros b0. destruct (decide (b0 = b)) as [->|H]; [rewrite Hbdb; reflexivity|rewrite Hbdne by exact H; reflexivity]. }
+  assert (Hgen : forall b0 m, inGen t1 b0 m <-> b0 <> b /\ inGen t b0 m).
+  { intros b0 m. unfold inGen. destruct (decide (b0 = b)) as [->|H].
+    - rewrite Hbdb. cbn. split; [intros Hx; inversion Hx|intros [Hx _]; congruence].
+    - rewrite Hbdne by exact H. tauto. }
+  constructor.
+  - apply (ids_ok_ext t t1); auto; reflexivity.
+  - intros b' r'. rewrite Hlook. destruct (decide (b' = b)) as [->|Hne].
+    + rewrite Hr. intros [= <-]. apply (bind_wf_nodes_same t t1); [reflexivity|].
+      destruct (Hb b r Hr) as [W1 W2 W3 W4 W5 W6 W7 W8 W9 W10 W11 W12 W13 W14].
+      unfold f1. rewrite set_rhsNodes_nil_idem.
+      constructor; auto; cbn; [intros n Hn; inversion Hn|constructor].
+    + intros Hr'. apply (bind_wf_nodes_same t t1); [reflexivity|]. apply Hb, Hr'.
+  - intros n [_ Hn]%Hgen. destruct (Hb b r Hr) as [_ _ _ _ _ _ _ _ _ _ W11 _ _ _].
+    unfold inGen, bd in Hn. rewrite Hr in Hn. simpl in Hn. apply (W11 n Hn).
+  - rewrite Hbdb. cbn. constructor.
+  - rewrite Hlook, decide_True, Hr by reflexivity. eauto.
+  - exists d. revert Hc. apply chain_ext. intros n. reflexivity.
+  - assert (Hdom : forall b0, is_Some (binds t !! b0) -> is_Some (binds t1 !! b0)).
+    { intros b0 [r' K2]. rewrite Hlook. destruct (decide _) as [->|]; [rewrite Hr|rewrite K2]; eauto. }
+    intros n Hn. change (has t n) in Hn. change (nd t1 n) with (nd t n). specialize (Hk n Hn).
+    destruct (nkind (nd t n)); auto; destruct Hk as [K1 K2]; (split; [exact K1|apply Hdom, K2]).
+  - assert (Hdom : forall b0, is_Some (binds t !! b0) -> is_Some (binds t1 !! b0)).
+    { intros b0 [r' K2]. rewrite Hlook. destruct (decide _) as [->|]; [rewrite Hr|rewrite K2]; eauto. }
+    intros n b0 Hn. change (nd t1 n) with (nd t n) in Hn. destruct (Hs n b0 Hn) as [K2 K3]. split; [apply Hdom, K2|exact K3].
+  - intros n q Hq. destruct (S1 n q Hq) as [?|[?|(b0 & ? & ? & ?)]]; auto.
+    right; right. exists b0. rewrite Hrhs. auto.
+  - intros n q b0 Hq H1 H2 [Hne Hg]%Hgen. apply Hgen. split; [exact Hne|]. apply (S2 n q b0 Hq H1 H2 Hg).
+  - intros b0 q Hne. rewrite Hrhs. intros Hq. destruct (S3 b0 q Hq) as [?|[? ?]]; auto.
+    right. split; [assumption|]. apply Hgen. auto.
+  - intros n q Hq. apply (mu_lt_ext t t1); [intros; reflexivity|]. apply S4, Hq.
+  - exact S5.
+  - intros b0 q k0. rewrite Hrhs. apply S6.
+  - intros b0 b1 [Hne Hg]%Hgen Hkk. apply Hgen. split; [exact Hne|]. apply (S7 b0 b1 Hg Hkk).
+Qed.
+
+Lemma state_binds_eta (s : state) B : binds s = B -> s <| binds := B |> = s.
+Proof. intros <-. destruct s; reflexivity. Qed.
+
+Lemma state_binds_set_set (s : state) B1 B2 : s <| binds := B1 |> <| binds := B2 |> = s <| binds := B2 |>.
+Proof. destruct s; reflexivity. Qed.
+
+Lemma nth_texp_wf s T cs k : Forall (texp_wf s T true) cs -> texp_wf s T true (nth k cs TNil).
+Proof.
+  intros H. destruct (nth_in_or_default k cs TNil) as [Hin| ->]; [|reflexivity].
+  rewrite List.Forall_forall in H. apply H, Hin.
+Qed.
+
+(** ** registered scope nodes have a registered owner; a registered lhs-change node has its main node registered *)
+Lemma TInv_nec_ok s : TInv [] noE s -> nec_ok s.
+Proof. intros T n. apply (t_nec _ _ _ T); [intros H; inversion H|intros []]. Qed.
+
+Lemma TInv_par_ok s : TInv [] noE s -> par_ok s.
+Proof. intros T n. apply (t_par _ _ _ T). intros H; inversion H. Qed.
+
+Lemma PInv_sreg s : PInv s ->
+  forall m b, inGraph (nd s m) = true -> scope (nd s m) = Some b -> inGraph (nd s b) = true.
+Proof.
+  intros P. pose proof (p_t s P) as T. apply scope_registered;
+    first [apply T|apply (TInv_nec_ok s T)|apply (TInv_par_ok s T)|apply (pq_force s (p_pq s P))
+          |apply (p_binds s P)|apply (p_kinds s P)|apply (p_scoping s P)].
+Qed.
+
+Lemma lhs_main_reg s b :
+  edges_ok s -> zero_ok s -> nec_ok s -> par_ok s -> obs_ok s -> (forall m, forceNec (nd s m) = false) ->
+  scoping_ok s -> is_Some (binds s !! b) -> nkind (nd s b) = KBindLhs b ->
+  inGraph (nd s b) = true -> inGraph (nd s (S b)) = true.
+Proof.
+  intros He Hz Hnec Hpar Hobs Hf Hsc [r Hr] Hk Hg.
+  pose proof Hg as Hn. rewrite (Hnec b) in Hn. apply isNecessary_true in Hn as [Hn|[Hn|Hn]].
+  - rewrite Hf in Hn. discriminate.
+  - destruct (children (nd s b)) as [|c l] eqn:Ec; [congruence|].
+    assert (Hc : c ∈ children (nd s b)) by (rewrite Ec; left).
+    pose proof (child_registered s c b He Hz Hc) as Hgc.
+    apply (edges_parent_child s c b He) in Hc. rewrite (Hpar c Hgc) in Hc.
+    rewrite (sc_lhs s Hsc c b b Hc Hk) in Hgc. exact Hgc.
+  - destruct (observers (nd s b)) as [|o l] eqn:Eo; [congruence|].
+    assert (Ho : o ∈ observers (nd s b)) by (rewrite Eo; left).
+    apply (ob_iff s Hobs) in Ho. rewrite (ob_user s Hobs o b Ho) in Hr. discriminate.
+Qed.
+
+Lemma isVar_intro s n e : has s n -> nkind (nd s n) = KVar e -> isVar s n = true.
+Proof.
+  unfold isVar, has, nd. intros [y Hy]. rewrite Hy. simpl. intros ->. reflexivity.
+Qed.
+
+(** ** running the function of the bind [b]: from the pass invariant to the state in which the
+       record of [b] and the declaration of its main node have been switched to the new
+       right-hand side (but the graph still links the old one) *)
+Section run_fn.
+  Context (p : plan) (s : state) (b : nat).
+  Hypothesis (P : PInv s) (Hp : plan_ok s p = true).
+  Hypothesis (Hk : nkind (nd s b) = KBindLhs b) (Hg : inGraph (nd s b) = true).
+  Let f1 := set b_rhsNodes (fun _ : list nid => []).
+  Let s1 := updb s b f1.
+  Context (s2 : state) (Hinv : invoke p s1 b WFn = Ok (s2, None)).
+  Context (x : Z) (s3 : state) (root : option nid).
+  Let case := nth (Z.to_nat (x mod Z.of_nat (length (b_cases (bd s b))))) (b_cases (bd s b)) TNil.
+  Hypothesis (Hinst : inst s2 (Some b) x case = (s3, root)).
+  Let f5 := fun r : bindrec => r <| b_gen := S (b_gen r) |>
+                                 <| b_cache := if b_memo r then b_cache r ++ [(x, root)] else b_cache r |>.
+  Let s6 := updb (updb (emit (EvBindFn b x root) s3) b f5) b (set b_rhs (fun _ => root)).
+  Let s7 := upd s6 (S b) (set decl (fun _ => match root with Some r => [b; r] | None => [b] end)).
+
+  Local Lemma rf_rec : exists r0, binds s !! b = Some r0.
+  Proof.
+    pose proof (p_kinds s P b (has_inGraph s b Hg)) as K. rewrite Hk in K. apply K.
+  Qed.
+
+  Local Lemma rf_soft : soft s (s2 <| binds := binds s |>) /\ binds s2 = binds s1.
+  Proof.
+    assert (Hst : status s1 = 1) by apply (pq_status s (p_pq s P)).
+    pose proof (invoke_soft p s1 b WFn s2 None Hst Hp Hinv) as S12.
+    split; [|apply (ss_binds _ _ (so_struct _ _ S12))].
+    apply (soft_binds_irrel s s2 _ (binds s1)); [exact S12|reflexivity].
+  Qed.
+
+  (* the states along the way *)
+  Lemma run_fn_inst : exists T d0,
+    chain s b T d0 /\ IStat b T s3 /\ ext_by b s2 s3 /\
+    match root with Some a => okin b T s3 a | None => s3 = s2 end /\
+    TInv [] noE s2 /\ PInv (s2 <| binds := binds s |>) /\ b_rhsNodes (bd s2 b) = [] /\
+    (forall b', b' <> b -> bd s2 b' = bd s b') /\ b_rhs (bd s2 b) = b_rhs (bd s b) /\
+    nodes s2 = nodes (s2 <| binds := binds s |>).
+  Proof.
+    destruct rf_rec as [r0 Hr0]. destruct rf_soft as [S02 Hb2].
+    set (s2' := s2 <| binds := binds s |>) in *.
+    pose proof (PInv_of_soft s s2' P S02) as P2.
+    destruct (PInv_split s2' P2) as (T2' & R2' & F2').
+    assert (E2 : s2 = updb s2' b f1).
+    { unfold updb, s2'. cbn [binds set]. rewrite state_binds_set_set. symmetry. apply state_binds_eta. exact Hb2. }
+    destruct (chain_exists s2' (m_scopes _ _ R2') b) as (T & d0 & Hc2).
+    assert (Hsc2 : forall n, scope (nd s2' n) = scope (nd s n)).
+    { intros n. apply (ss_node _ _ (so_struct _ _ S02) n). }
+    assert (Hc : chain s b T d0) by (revert Hc2; apply chain_ext; intros n; symmetry; apply Hsc2).
+    assert (Hbs2' : binds s2' !! b = Some r0) by exact Hr0.
+    pose proof (IStat_start s2' b T d0 (m_ids _ _ R2') (m_binds _ _ R2') (m_kinds _ _ R2') (m_scopes _ _ R2')
+                  (m_scoping _ _ R2') ltac:(rewrite Hbs2'; eauto) Hc2) as I2.
+    fold f1 in I2. rewrite <- E2 in I2.
+    assert (Hcase : texp_wf s2 T true case).
+    { unfold case. apply nth_texp_wf.
+      assert (Ebd : b_cases (bd s b) = b_cases r0) by (unfold bd; rewrite Hr0; reflexivity). rewrite Ebd.
+      pose proof (bw_cases _ _ _ (m_binds _ _ R2' b r0 Hbs2') T d0 Hc2) as Hcs.
+      eapply List.Forall_impl; [|exact Hcs]. intros e. apply texp_wf_ext; intros; [assumption|reflexivity|reflexivity]. }
+    destruct (inst_spec b T x case true s2 s3 root I2 Hcase Hinst) as (I3 & E23 & Hroot).
+    exists T, d0. split; [exact Hc|]. split; [exact I3|]. split; [exact E23|]. split.
+    { destruct root; [exact Hroot|apply Hroot]. }
+    split.
+    { apply (TInv_binds noE s2' s2 T2'); try reflexivity; [apply (m_ids _ _ R2')|].
+      intros n Hn. rewrite Hb2. unfold s1. rewrite binds_updb_lookup.
+      destruct (decide (n = b)) as [->|]; [|exact Hn]. change (binds s2' !! b) with (binds s !! b) in Hn. rewrite Hn. reflexivity. }
+    split; [exact P2|]. split.
+    { unfold bd. rewrite Hb2. unfold s1. rewrite binds_updb_lookup, decide_True, Hr0 by reflexivity. reflexivity. }
+    split; [|split; [|reflexivity]].
+    - intros b' Hne. unfold bd. rewrite Hb2. unfold s1. rewrite binds_updb_lookup, decide_False by exact Hne. reflexivity.
+    - unfold bd. rewrite Hb2. unfold s1. rewrite binds_updb_lookup, decide_True, Hr0 by reflexivity. reflexivity.
+  Qed.
+
+  Let oldNodes := b_rhsNodes (bd s b).
+  Let oldRhs := b_rhs (bd s b).
+
+  Record fn_post : Prop := {
+    fp_T6 : TInv [] noE s6;
+    fp_R7 : RestM (fun n => n ∈ oldNodes) s7;
+    fp_vc7 : forall m q, valid (nd s7 m) = true -> q ∈ decl (nd s7 m) -> valid (nd s7 q) = true;
+    fp_force : forall n, forceNec (nd s6 n) = false;
+    fp_rhs : b_rhs (bd s7 b) = root;
+    fp_decl6 : decl (nd s6 (S b)) = b :: option_list oldRhs;
+    fp_root : match root with
+              | Some r => has s6 r /\ not_lhs (nd s6 r) /\
+                          (scope (nd s6 r) = None \/ (scope (nd s6 r) = Some b /\ inGen s7 b r))
+              | None => True
+              end;
+    fp_new : forall n, inGen s7 b n -> ~ has s n;
+    fp_old : forall n, n ∈ oldNodes -> has s n /\ scope (nd s6 n) = Some b /\ valid (nd s6 n) = true;
+    fp_oldnd : forall n, has s n -> struct_eq (nd s6 n) (nd s n);
+    fp_sreg : forall m b', inGraph (nd s6 m) = true -> scope (nd s6 m) = Some b' -> inGraph (nd s6 b') = true;
+    fp_main : inGraph (nd s6 (S b)) = true;
+    fp_lhs : inGraph (nd s6 b) = true /\ nkind (nd s6 b) = KBindLhs b;
+    fp_oldne : match oldRhs with Some o => o <> b | None => oldNodes = [] end;
+    fp_pair1 : forall b1, S b1 ∈ oldNodes -> nkind (nd s6 (S b1)) = KBindMain b1 -> b1 ∈ oldNodes;
+    fp_pair2 : forall b1, b1 ∈ oldNodes -> nkind (nd s6 b1) = KBindLhs b1 -> S b1 ∈ oldNodes;
+    fp_plan : plan_ok s7 p = true;
+    fp_stab : stabNum s7 = stabNum s
+  }.
+
+  Lemma run_fn_post : fn_post.
+  Proof.
+    destruct run_fn_inst as (T & d0 & Hc & I3 & E23 & Hroot & T2 & P2 & Hrn2 & Hbd2 & Hrhs2 & _).
+    destruct rf_rec as [r0 Hr0]. destruct rf_soft as [S02 Hb2].
+    set (s2' := s2 <| binds := binds s |>) in *.
+    destruct (PInv_split s2' P2) as (T2' & R2' & F2').
+    assert (Hnd2 : forall m, nd s2 m = nd s2' m) by reflexivity.
+    assert (Hhas2 : forall m, has s2 m <-> has s m) by (intros m; apply (ss_has _ _ (so_struct _ _ S02) m)).
+    assert (Hst2 : forall m, struct_eq (nd s2 m) (nd s m)) by (intros m; apply (ss_node _ _ (so_struct _ _ S02) m)).
+    assert (Hnd6 : forall m, nd s6 m = nd s3 m) by reflexivity.
+    assert (Hhas6 : forall m, has s6 m <-> has s3 m) by reflexivity.
+    assert (Hold3 : forall m, has s m -> nd s3 m = nd s2 m) by (intros m Hm; apply (eb_old _ _ _ E23), Hhas2, Hm).
+    assert (Hbs3 : is_Some (binds s3 !! b)) by apply (i_bsome _ _ _ I3).
+    destruct Hbs3 as [r3 Hr3].
+    assert (Hbd3 : bd s3 b = r3) by (unfold bd; rewrite Hr3; reflexivity).
+    set (r7 := set b_rhs (fun _ => root) (f5 r3)).
+    assert (Hr6 : binds s6 !! b = Some r7).
+    { unfold s6. rewrite binds_updb_lookup, decide_True by reflexivity. rewrite binds_updb_lookup, decide_True by reflexivity.
+      change (binds (emit (EvBindFn b x root) s3)) with (binds s3). rewrite Hr3. reflexivity. }
+    assert (Hb6ne : forall b', b' <> b -> binds s6 !! b' = binds s3 !! b').
+    { intros b' Hne. unfold s6. rewrite !binds_updb_lookup, !decide_False by exact Hne. reflexivity. }
+    assert (Hdroot : (match root with Some r => [b; r] | None => [b] end) = b :: option_list root) by (destruct root; reflexivity).
+    assert (Hhas7 : forall m, has s7 m <-> has s3 m) by (intros m; unfold s7; rewrite has_upd; reflexivity).
+    assert (HSb3 : has s3 (S b)).
+    { pose proof (i_bwf _ _ _ I3 b r3 Hr3) as W. rewrite decide_True in W by reflexivity. apply (bw_has_main _ _ _ W). }
+    assert (Hnd7ne : forall m, m <> S b -> nd s7 m = nd s3 m) by (intros m Hm; unfold s7; rewrite nd_upd_ne by exact Hm; reflexivity).
+    assert (Hnd7m : nd s7 (S b) = set decl (fun _ => b :: option_list root) (nd s3 (S b))).
+    { unfold s7. rewrite nd_upd_eq by exact HSb3. rewrite Hdroot. reflexivity. }
+    assert (Hrootk : match root with Some a => okin b T s3 a | None => b_rhsNodes r3 = [] end).
+    { destruct root as [a|]; [exact Hroot|]. rewrite <- Hbd3, Hroot. exact Hrn2. }
+    destruct (finish_static b T s3 s7 root r3 r7 I3 Hrootk Hr3) as (Fids & Fbinds & Fkinds & Fscopes & Fscoping).
+    { exact Hr6. }
+    { exact Hb6ne. }
+    { unfold r7, f5. cbn. repeat split; reflexivity. }
+    { reflexivity. }
+    { exact Hhas7. }
+    { exact Hnd7ne. }
+    { exact Hnd7m. }
+    (* the records of the binds *)
+    assert (Hbd7 : forall b', bd s7 b' = bd s6 b') by reflexivity.
+    assert (Hbd6b : bd s6 b = r7) by (unfold bd; rewrite Hr6; reflexivity).
+    assert (Hbd6ne : forall b', b' <> b -> bd s6 b' = bd s3 b') by (intros b' Hne; unfold bd; rewrite Hb6ne by exact Hne; reflexivity).
+    assert (Hgen7b : forall m, inGen s7 b m <-> inGen s3 b m).
+    { intros m. unfold inGen. rewrite Hbd7, Hbd6b, Hbd3. reflexivity. }
+    assert (Hgen7ne : forall b' m, b' <> b -> inGen s7 b' m <-> inGen s3 b' m).
+    { intros b' m Hne. unfold inGen. rewrite Hbd7, Hbd6ne by exact Hne. reflexivity. }
+    assert (Hnew : forall m, inGen s3 b m -> ~ has s m).
+    { intros m Hm. destruct (eb_gen2 _ _ _ E23 m Hm) as [H2|H2].
+      - unfold inGen in H2. rewrite Hrn2 in H2. inversion H2.
+      - intros Hs. apply H2, Hhas2, Hs. }
+    assert (Hbdold : forall b', b' <> b -> is_Some (binds s !! b') -> bd s3 b' = bd s b').
+    { intros b' Hne Hs. rewrite (eb_bd _ _ _ E23 b' Hne); [apply Hbd2, Hne|].
+      rewrite Hb2. unfold s1. rewrite binds_updb_lookup, decide_False by exact Hne. exact Hs. }
+    assert (Hsc3 : forall m, has s m -> scope (nd s3 m) = scope (nd s m)).
+    { intros m Hm. rewrite (Hold3 m Hm). apply (Hst2 m). }
+    assert (Hv3 : forall m, valid (nd s3 m) = valid (nd s m)).
+    { intros m. destruct (eb_dyn _ _ _ E23 m) as (_&_&_&_&_&_&_&_&->&_). apply (Hst2 m). }
+    assert (Hg3 : forall m, inGraph (nd s3 m) = inGraph (nd s m)).
+    { intros m. destruct (eb_dyn _ _ _ E23 m) as (_&_&_&_&_&_&_&_&_&_&->). apply (Hst2 m). }
+    assert (Hnewsc : forall m, has s3 m -> ~ has s m -> scope (nd s3 m) = Some b /\ inGen s3 b m).
+    { intros m H3 Hs. apply (eb_new _ _ _ E23 m H3). intros H2. apply Hs, Hhas2, H2. }
+    assert (Hsc7 : forall m, scope (nd s7 m) = scope (nd s3 m)).
+    { intros m. destruct (decide (m = S b)) as [->|Hne]; [rewrite Hnd7m; reflexivity|rewrite Hnd7ne by exact Hne; reflexivity]. }
+    assert (Hv7 : forall m, valid (nd s7 m) = valid (nd s3 m)).
+    { intros m. destruct (decide (m = S b)) as [->|Hne]; [rewrite Hnd7m; reflexivity|rewrite Hnd7ne by exact Hne; reflexivity]. }
+    assert (Hg7 : forall m, inGraph (nd s7 m) = inGraph (nd s3 m)).
+    { intros m. destruct (decide (m = S b)) as [->|Hne]; [rewrite Hnd7m; reflexivity|rewrite Hnd7ne by exact Hne; reflexivity]. }
+    pose proof (PInv_sreg s P) as Hsreg.
+    destruct P as [T0 A1 A2 A3 A4 A5 V1 V2 V3 [Q1 Q2 Q3 Q4 Q5] A6 A7 A8].
+    assert (Hvb : valid (nd s b) = true) by (apply (t_valid _ _ _ T0), Hg).
+    assert (Hhb : has s b) by (apply has_inGraph, Hg).
+    assert (Hlog6 : log s6 = [EvBindFn b x root] ++ log s2).
+    { change (log s6) with (EvBindFn b x root :: log s3). rewrite (eb_log _ _ _ E23). reflexivity. }
+    assert (Hlog2 : exists l, log s2 = l ++ log s /\ Forall (ev_benign s) l) by apply (so_log _ _ S02).
+    assert (V3' : forall n b', inGen s7 b' n -> valid (nd s7 n) = valid (nd s7 b')).
+    { intros n b' Hg7'. rewrite !Hv7, !Hv3. destruct (decide (b' = b)) as [->|Hne].
+        * apply Hgen7b in Hg7'. pose proof (Hnew n Hg7') as Hn. rewrite Hvb.
+          rewrite not_has_nd; [reflexivity|exact Hn].
+        * apply (Hgen7ne b' n Hne) in Hg7'.
+          destruct (decide (is_Some (binds s !! b'))) as [Hs|Hs].
+          -- unfold inGen in Hg7'. rewrite (Hbdold b' Hne Hs) in Hg7'. apply (V3 n b' Hg7').
+          -- (* a bind created just now has no nodes yet *)
+             exfalso. unfold inGen, bd in Hg7'. destruct (binds s3 !! b') as [r'|] eqn:Er'; [|inversion Hg7'].
+             simpl in Hg7'. pose proof (i_bwf _ _ _ I3 b' r' Er') as W. rewrite decide_False in W by exact Hne.
+             destruct (bw_rhsNodes _ _ _ W n Hg7') as [Hn3 Hsn].
+             destruct (decide (has s n)) as [Hn|Hn].
+             ++ rewrite (Hsc3 n Hn) in Hsn. apply Hs, (A4 n b' Hsn).
+             ++ destruct (Hnewsc n Hn3 Hn). congruence. }
+    constructor.
+    - (* the graph clauses in s6 *)
+      apply (TInv_dyn noE s2 s6 [EvBindFn b x root]); try apply E23; auto.
+      + apply (ids_ok_ext s2' s2); try reflexivity. apply (m_ids _ _ R2').
+      + intros m Hm. rewrite Hnd6, (eb_old _ _ _ E23 m Hm). reflexivity.
+      + intros m Hm. rewrite Hnd6, (eb_old _ _ _ E23 m Hm). reflexivity.
+      + constructor; [|constructor]. simpl. destruct (Hst2 b) as (_&_&_&_&_&_&_&_&_&_&->). exact Hg.
+      + intros n Hn Hnone. destruct (decide (n = b)) as [->|Hne].
+        * exfalso. rewrite Hb2 in Hnone. unfold s1 in Hnone. rewrite binds_updb_lookup, decide_True, Hr0 in Hnone by reflexivity. discriminate.
+        * rewrite Hb6ne by exact Hne. apply (eb_bindsN _ _ _ E23 n Hn Hnone).
+    - (* the rest, with the old generation exempt *)
+      constructor; try assumption.
+      + intros n. rewrite Hsc7, Hv7, Hv3. intros Hs.
+        destruct (decide (has s n)) as [Hn|Hn]; [apply V1; rewrite <- (Hsc3 n Hn); exact Hs|].
+        destruct (decide (has s3 n)) as [H3|H3]; [destruct (Hnewsc n H3 Hn); congruence|].
+        rewrite not_has_nd; [reflexivity|]. intros Hx. apply Hn. exact Hx.
+      + intros n b' Hn7 Hs7 Hng Hnd. apply Hhas7 in Hn7. rewrite Hsc7 in Hs7. rewrite Hv7, Hg7, Hv3, Hg3.
+        destruct (decide (has s n)) as [Hn|Hn].
+        * rewrite (Hsc3 n Hn) in Hs7. apply (V2 n b' Hn Hs7). intros Hgs.
+          destruct (decide (b' = b)) as [->|Hne]; [exact (Hnd Hgs)|].
+          apply Hng. apply Hgen7ne; [exact Hne|]. unfold inGen. rewrite Hbdold; [exact Hgs|exact Hne|apply (A4 n b' Hs7)].
+        * destruct (Hnewsc n Hn7 Hn) as [E1 E2]. assert (b' = b) as -> by congruence.
+          exfalso. apply Hng, Hgen7b, E2.
+      + apply (shape_ok_ext s s7); auto.
+        * change (adj s7) with (adj s3). rewrite (eb_adj _ _ _ E23). apply (ss_adj _ _ (so_struct _ _ S02)).
+        * change (maxHeight s7) with (maxHeight s3). rewrite (eb_maxHeight _ _ _ E23). apply (ss_maxHeight _ _ (so_struct _ _ S02)).
+      + pose proof (so_stamps _ _ S02 A7) as [St1 St2]. split.
+        * change (stabNum s7) with (stabNum s3). rewrite (eb_stabNum _ _ _ E23). exact St1.
+        * intros n. change (stabNum s7) with (stabNum s3). rewrite (eb_stabNum _ _ _ E23).
+          assert (E : recomputedAt (nd s7 n) = recomputedAt (nd s2 n) /\ changedAt (nd s7 n) = changedAt (nd s2 n) /\ setAt (nd s7 n) = setAt (nd s2 n)).
+          { destruct (eb_dyn _ _ _ E23 n) as (_&_&<-&<-&<-&_).
+            destruct (decide (n = S b)) as [->|Hne]; [rewrite Hnd7m; auto|rewrite Hnd7ne by exact Hne; auto]. }
+          destruct E as (-> & -> & ->). apply (St2 n).
+      + intros n. rewrite Hv7, Hv3. change (log s7) with (log s6). rewrite Hlog6.
+        destruct Hlog2 as (l & -> & Fl). rewrite A8.
+        rewrite (benign_inval s ([EvBindFn b x root] ++ l) (log s) n); [reflexivity|].
+        apply Forall_app. split; [|exact Fl]. constructor; [exact Hg|constructor].
+      + change (status s7) with (status s3). rewrite (eb_status _ _ _ E23). change (status s2) with (status s2'). rewrite (so_status _ _ S02). exact Q1.
+      + change (invq s7) with (invq s3). rewrite (eb_invq _ _ _ E23). change (invq s2) with (invq s2').
+        rewrite (ss_invq _ _ (so_struct _ _ S02)). exact Q2.
+      + destruct (m_adj _ _ R2') as (B1 & B2 & B3). split; [|split].
+        * change (adj s7) with (adj s3). rewrite (eb_adj _ _ _ E23). exact B1.
+        * change (adj s7) with (adj s3). rewrite (eb_adj _ _ _ E23). exact B2.
+        * intros m. assert (E : hAdj (nd s7 m) = hAdj (nd s3 m)).
+          { destruct (decide (m = S b)) as [->|Hne]; [rewrite Hnd7m; reflexivity|rewrite Hnd7ne by exact Hne; reflexivity]. }
+          rewrite E. destruct (eb_dyn _ _ _ E23 m) as (_&->&_). apply B3.
+      + intros v. change (setDuring s7) with (setDuring s3). change (setRemoved s7) with (setRemoved s3).
+        rewrite (eb_setDuring _ _ _ E23), (eb_setRemoved _ _ _ E23). intros Hv.
+        destruct (m_vars _ _ R2' v Hv) as [e He]. exists e.
+        assert (Hhv : has s2 v) by (apply (has_of_field nkind); change (nd s2 v) with (nd s2' v); rewrite He; discriminate).
+        assert (E : nkind (nd s7 v) = nkind (nd s3 v)).
+        { destruct (decide (v = S b)) as [->|Hne]; [rewrite Hnd7m; reflexivity|rewrite Hnd7ne by exact Hne; reflexivity]. }
+        rewrite E, (eb_old _ _ _ E23 v Hhv). exact He.
+    - (* validity is closed under the new declarations *)
+      intros m q Hvm Hq.
+      assert (V1' : forall n, scope (nd s7 n) = None -> valid (nd s7 n) = true).
+      { intros n. rewrite Hsc7, Hv7, Hv3. intros Hs.
+        destruct (decide (has s n)) as [Hn|Hn]; [apply V1; rewrite <- (Hsc3 n Hn); exact Hs|].
+        destruct (decide (has s3 n)) as [H3|H3]; [destruct (Hnewsc n H3 Hn); congruence|].
+        rewrite not_has_nd; [reflexivity|]. intros Hx. apply Hn. exact Hx. }
+      assert (Vb : forall n, inGen s3 b n -> valid (nd s7 n) = true).
+      { intros n Hn. rewrite Hv7, Hv3. rewrite not_has_nd; [reflexivity|apply Hnew, Hn]. }
+      destruct (decide (m = S b)) as [->|Hne].
+      + rewrite Hnd7m in Hq. cbn in Hq. apply elem_of_cons in Hq as [->|Hq].
+        * rewrite Hv7, Hv3. exact Hvb.
+        * destruct root as [a|]; [|inversion Hq]. apply elem_of_list_singleton in Hq as ->.
+          destruct Hroot as [_ [[E _]|[_ E]]]; [apply V1'; rewrite Hsc7; exact E|apply Vb, E].
+      + rewrite Hnd7ne in Hq by exact Hne. destruct (decide (has s m)) as [Hm|Hm].
+        * rewrite (Hold3 m Hm) in Hq. destruct (Hst2 m) as (_&Ed&_). rewrite Ed in Hq.
+          rewrite Hv7, Hv3 in Hvm |- *.
+          apply (valid_closed s A2 A3 A5 V1 V2 V3 m q Hvm Hq).
+        * assert (H3 : has s3 m) by (eapply has_decl, Hq).
+          destruct (Hnewsc m H3 Hm) as [Esm Gm].
+          destruct (sc_decl _ Fscoping m q) as [E|[E|(b0 & Hkm & Hsq & Hr)]].
+          { rewrite Hnd7ne by exact Hne. exact Hq. }
+          -- apply V1', E.
+          -- rewrite Hsc7 in E. rewrite (Hsc7 m), Esm in E. apply Vb. apply Hgen7b.
+             apply (sc_gen _ Fscoping m q b); [rewrite Hnd7ne by exact Hne; exact Hq|rewrite Hsc7; exact Esm|rewrite Hsc7; exact E|apply Hgen7b, Gm].
+          -- pose proof (Fkinds m ltac:(apply Hhas7, H3)) as Hkm'. rewrite Hkm in Hkm'. destruct Hkm' as [-> [r' Hr']].
+             assert (Hb0 : b0 <> b) by congruence.
+             destruct (sc_rhs _ Fscoping b0 q Hr) as [E|[_ Gq]]; [congruence|].
+             pose proof (Fbinds b0 r' Hr') as W.
+             assert (Es0 : scope (nd s7 b0) = Some b).
+             { rewrite <- (bw_scope _ _ _ W). rewrite Hsc7. exact Esm. }
+             assert (Hbd : b0 ∈ decl (nd s7 (S b0))) by (rewrite (bw_decl_main _ _ _ W); left).
+             assert (G0 : inGen s7 b b0).
+             { apply (sc_gen _ Fscoping (S b0) b0 b Hbd); [rewrite Hsc7; exact Esm|exact Es0|apply Hgen7b, Gm]. }
+             rewrite (V3' q b0 Gq). apply Vb, Hgen7b, G0.
+    - intros n. rewrite Hnd6. destruct (eb_dyn _ _ _ E23 n) as (_&_&_&_&_&_&_&_&_&->&_).
+      destruct (Hst2 n) as (_&_&_&_&_&_&_&_&_&->&_). apply Q4.
+    - rewrite Hbd7, Hbd6b. reflexivity.
+    - rewrite Hnd6, (Hold3 (S b)).
+      + destruct (Hst2 (S b)) as (_&->&_). rewrite (bw_decl_main _ _ _ (A2 b r0 Hr0)).
+        unfold oldRhs, bd. rewrite Hr0. reflexivity.
+      + apply (bw_has_main _ _ _ (A2 b r0 Hr0)).
+    - destruct root as [a|]; [|exact Logic.I]. destruct Hroot as [[H1 H2] H3]. split; [exact H1|]. split; [exact H2|].
+      destruct H3 as [[E _]|[E G]]; [left; exact E|right; split; [exact E|apply Hgen7b, G]].
+    - intros n Hn. apply Hnew, Hgen7b, Hn.
+    - intros n Hn. unfold oldNodes, bd in Hn. rewrite Hr0 in Hn.
+      destruct (bw_rhsNodes _ _ _ (A2 b r0 Hr0) n Hn) as [Hn1 Hn2].
+      split; [exact Hn1|]. rewrite Hnd6, (Hold3 n Hn1). destruct (Hst2 n) as (_&_&->&_&_&_&_&_&->&_).
+      split; [exact Hn2|]. rewrite (V3 n b); [exact Hvb|]. unfold inGen, bd. rewrite Hr0. exact Hn.
+    - intros n Hn. rewrite Hnd6, (Hold3 n Hn). apply Hst2.
+    - intros m b'. rewrite !Hnd6, !Hg3. intros Hm Hs. rewrite (Hsc3 m (has_inGraph s m Hm)) in Hs.
+      apply (Hsreg m b' Hm Hs).
+    - rewrite Hnd6, Hg3.
+      apply (lhs_main_reg s b (t_edges _ _ _ T0) (t_zero _ _ _ T0) (TInv_nec_ok s T0) (TInv_par_ok s T0)
+               (t_obs _ _ _ T0) Q4 A5 (ex_intro _ r0 Hr0) Hk Hg).
+    - rewrite Hnd6, Hg3. split; [exact Hg|]. rewrite (Hold3 b Hhb). destruct (Hst2 b) as (->&_). exact Hk.
+    - unfold oldRhs, oldNodes, bd. rewrite Hr0. simpl. destruct (b_rhs r0) as [o|] eqn:Eo.
+      + intros ->. apply (sc_rhs_nl s A5 b b b); [unfold bd; rewrite Hr0; exact Eo|exact Hk].
+      + apply (bw_nil _ _ _ (A2 b r0 Hr0) Eo).
+    - intros b1 Hin Hkk. unfold oldNodes in *.
+      assert (Hin' : inGen s b (S b1)) by exact Hin.
+      destruct (gen_has s A2 b (S b1) Hin') as [HhS HsS].
+      rewrite Hnd6, (Hold3 _ HhS) in Hkk. destruct (Hst2 (S b1)) as (Ek&_). rewrite Ek in Hkk.
+      pose proof (A3 (S b1) HhS) as K. rewrite Hkk in K. destruct K as [_ [r1 Hr1]].
+      pose proof (A2 b1 r1 Hr1) as W1.
+      apply (sc_gen s A5 (S b1) b1 b); [rewrite (bw_decl_main _ _ _ W1); left|exact HsS|rewrite <- (bw_scope _ _ _ W1); exact HsS|exact Hin'].
+    - intros b1 Hin Hkk. unfold oldNodes in *.
+      assert (Hin' : inGen s b b1) by exact Hin.
+      destruct (gen_has s A2 b b1 Hin') as [Hh1 _].
+      rewrite Hnd6, (Hold3 _ Hh1) in Hkk. destruct (Hst2 b1) as (Ek&_). rewrite Ek in Hkk.
+      apply (sc_pair s A5 b b1 Hin' Hkk).
+    - revert Hp. unfold plan_ok. rewrite !forallb_forall. intros H y Hy. specialize (H y Hy).
+      destruct y as [[n w] a].
+      assert (Hiv : forall v, isVar s v = true -> isVar s7 v = true).
+      { intros v Hv. apply isVar_true in Hv as [Hh [e He]]. apply (isVar_intro s7 v e); [apply Hhas7, (eb_has1 _ _ _ E23), Hhas2, Hh|].
+        assert (E : nkind (nd s7 v) = nkind (nd s3 v)).
+        { destruct (decide (v = S b)) as [->|Hne]; [rewrite Hnd7m; reflexivity|rewrite Hnd7ne by exact Hne; reflexivity]. }
+        rewrite E, (Hold3 v Hh). destruct (Hst2 v) as (->&_). exact He. }
+      destruct a; auto.
+    - change (stabNum s7) with (stabNum s3). rewrite (eb_stabNum _ _ _ E23). apply (so_stabNum _ _ S02).
+  Qed.
+End run_fn.
+
+(** ** the mid-pass rest across the frames *)
+Lemma RestM_ext D s s' :
+  next s' = next s -> binds s' = binds s -> (forall m, has s' m <-> has s m) ->
+  adj s' = adj s -> invq s' = invq s -> status s' = status s -> setDuring s' = setDuring s ->
+  setRemoved s' = setRemoved s -> maxHeight s' = maxHeight s ->
+  stabNum s' = stabNum s -> log s' = log s ->
+  (forall m, nkind (nd s' m) = nkind (nd s m) /\ decl (nd s' m) = decl (nd s m) /\
+             scope (nd s' m) = scope (nd s m) /\ valid (nd s' m) = valid (nd s m) /\
+             inGraph (nd s' m) = inGraph (nd s m) /\
+             hAdj (nd s' m) = hAdj (nd s m) /\ recomputedAt (nd s' m) = recomputedAt (nd s m) /\
+             changedAt (nd s' m) = changedAt (nd s m) /\ setAt (nd s' m) = setAt (nd s m)) ->
+  RestM D s -> RestM D s'.
+Proof.
+  intros Hn Hb Hh Ha Hq Hst Hsd Hsr Hmh Hsn Hl Hnode [A1 A2 A3 A4 A5 V1 V2 V3 A6 A7 A8 Q1 Q2 Q3 Q5].
+  assert (Hk : forall n, nkind (nd s' n) = nkind (nd s n)) by (intros n; apply (Hnode n)).
+  assert (Hd : forall n, decl (nd s' n) = decl (nd s n)) by (intros n; apply (Hnode n)).
+  assert (Hsc : forall n, scope (nd s' n) = scope (nd s n)) by (intros n; apply (Hnode n)).
+  assert (Hv : forall n, valid (nd s' n) = valid (nd s n)) by (intros n; apply (Hnode n)).
+  assert (Hg : forall n, inGraph (nd s' n) = inGraph (nd s n)) by (intros n; apply (Hnode n)).
+  assert (Hbd : forall b, bd s' b = bd s b) by (intros b; unfold bd; rewrite Hb; reflexivity).
+  constructor.
+  - apply (ids_ok_ext s s'); auto.
+  - apply (binds_wf_ext s s'); auto.
+  - apply (kinds_ok_ext s s'); auto.
+  - apply (scopes_ok_ext s s'); auto.
+  - apply (scoping_ok_ext s s'); auto.
+  - intros n. rewrite Hsc, Hv. auto.
+  - intros n b. rewrite Hh, Hsc, Hv, Hg. unfold inGen. rewrite Hbd. apply V2.
+  - intros n b. unfold inGen. rewrite Hbd, !Hv. apply V3.
+  - apply (shape_ok_ext s s'); auto.
+  - apply (stamps_ok_ext s s'); auto; intros n; apply (Hnode n).
+  - intros n. rewrite Hv, Hl. apply A8.
+  - rewrite Hst. exact Q1.
+  - rewrite Hq. exact Q2.
+  - destruct Q3 as (B1 & B2 & B3). unfold adj_idle. rewrite Ha. split; [exact B1|]. split; [exact B2|].
+    intros m. destruct (Hnode m) as (_&_&_&_&_&->&_). apply B3.
+  - intros v. rewrite Hsd, Hsr, Hk. apply Q5.
+Qed.
+
+Lemma RestM_td_frame D s s' :
+  td_frame s s' -> (forall m, valid (nd s' m) = valid (nd s m)) ->
+  (forall m, inGraph (nd s' m) = true -> inGraph (nd s m) = true) ->
+  RestM D s -> RestM D s'.
+Proof.
+  intros F Hv Hm [A1 A2 A3 A4 A5 V1 V2 V3 A6 A7 A8 Q1 Q2 Q3 Q5].
+  assert (Hk : forall n, nkind (nd s' n) = nkind (nd s n)) by (intros n; apply (tf_static _ _ F n)).
+  assert (Hd : forall n, decl (nd s' n) = decl (nd s n)) by (intros n; apply (tf_static _ _ F n)).
+  assert (Hsc : forall n, scope (nd s' n) = scope (nd s n)) by (intros n; apply (tf_static _ _ F n)).
+  assert (Hbd : forall b, bd s' b = bd s b) by (intros b; unfold bd; rewrite (tf_binds _ _ F); reflexivity).
+  constructor.
+  - apply (ids_ok_ext s s'); auto; apply F.
+  - apply (binds_wf_ext s s'); auto; apply F.
+  - apply (kinds_ok_ext s s'); auto; apply F.
+  - apply (scopes_ok_ext s s'); auto; apply F.
+  - apply (scoping_ok_ext s s'); auto; apply F.
+  - intros n. rewrite Hsc, Hv. auto.
+  - intros n b. rewrite (tf_has _ _ F), Hsc, Hv. unfold inGen. rewrite Hbd. intros H1 H2 H3 H4.
+    destruct (V2 n b H1 H2 H3 H4) as [H5 H6]. split; [exact H5|].
+    destruct (inGraph (nd s' n)) eqn:E; [|reflexivity]. apply Hm in E. congruence.
+  - intros n b. unfold inGen. rewrite Hbd, !Hv. auto.
+  - eapply shape_ok_ext; [apply F|apply F|assumption].
+  - destruct A7 as [S1 S2]. split; rewrite (tf_stabNum _ _ F); [exact S1|].
+    intros n. destruct (tf_stamps _ _ F n) as [(-> & -> & ->)|(-> & -> & ->)]; [apply S2|lia].
+  - intros n. rewrite Hv. destruct (tf_log _ _ F) as (l & -> & Hl). rewrite (unnec_inval l n Hl). auto.
+  - rewrite (tf_status _ _ F). exact Q1.
+  - rewrite (tf_invq _ _ F). exact Q2.
+  - destruct Q3 as (B1 & B2 & B3). unfold adj_idle. rewrite (tf_adj _ _ F). split; [exact B1|]. split; [exact B2|].
+    intros m. destruct (tf_hadj _ _ F m) as [-> | ->]; auto.
+  - intros v [Hv'|Hv']; rewrite Hk.
+    + apply Q5. left. apply (tf_setDuring _ _ F), Hv'.
+    + apply Q5. destruct (tf_setRemoved2 _ _ F v Hv'); auto.
+Qed.
+
+Lemma RestM_ac_frame D s s' :
+  ac_frame s s' -> invq s' = [] -> adj_idle s' ->
+  (forall m, inGraph (nd s' m) = true -> valid (nd s' m) = true) ->
+  RestM D s -> RestM D s'.
+Proof.
+  intros F Hq Hidle Hvr [A1 A2 A3 A4 A5 V1 V2 V3 A6 A7 A8 Q1 Q2 Q3 Q5].
+  assert (Hk : forall n, nkind (nd s' n) = nkind (nd s n)) by (intros n; apply (cf_static _ _ F n)).
+  assert (Hd : forall n, decl (nd s' n) = decl (nd s n)) by (intros n; apply (cf_static _ _ F n)).
+  assert (Hsc : forall n, scope (nd s' n) = scope (nd s n)) by (intros n; apply (cf_static _ _ F n)).
+  assert (Hv : forall n, valid (nd s' n) = valid (nd s n)) by (intros n; apply (cf_static _ _ F n)).
+  assert (Hbd : forall b, bd s' b = bd s b) by (intros b; unfold bd; rewrite (cf_binds _ _ F); reflexivity).
+  constructor.
+  - apply (ids_ok_ext s s'); auto; apply F.
+  - apply (binds_wf_ext s s'); auto; apply F.
+  - apply (kinds_ok_ext s s'); auto; apply F.
+  - apply (scopes_ok_ext s s'); auto; apply F.
+  - apply (scoping_ok_ext s s'); auto; apply F.
+  - intros n. rewrite Hsc, Hv. auto.
+  - intros n b. rewrite (cf_has _ _ F), Hsc, Hv. unfold inGen. rewrite Hbd. intros H1 H2 H3 H4.
+    destruct (V2 n b H1 H2 H3 H4) as [H5 H6]. split; [exact H5|].
+    destruct (inGraph (nd s' n)) eqn:E; [|reflexivity]. apply Hvr in E. rewrite Hv in E. congruence.
+  - intros n b. unfold inGen. rewrite Hbd, !Hv. apply V3.
+  - destruct A6 as [A B]. split; [rewrite (cf_maxHeight _ _ F); exact A|].
+    rewrite (cf_len _ _ F), (cf_maxHeight _ _ F). exact B.
+  - destruct A7 as [S1 S2]. split; rewrite (cf_stabNum _ _ F); [exact S1|].
+    intros n. destruct (cf_static _ _ F n) as (_&_&_&_&_&_& -> & -> & -> &_). apply S2.
+  - intros n. rewrite Hv. destruct (cf_log _ _ F) as (l & -> & Hl). rewrite (nec_inval l n Hl). auto.
+  - rewrite (cf_status _ _ F). exact Q1.
+  - exact Hq.
+  - exact Hidle.
+  - intros v. rewrite (cf_setDuring _ _ F), (cf_setRemoved _ _ F), Hk. apply Q5.
+Qed.
+
+(** ** reopening a registered node [c] whose declaration is being changed *)
+Lemma BInv_reopen t t1 c :
+  BInv [] t -> inGraph (nd t c) = true ->
+  (forall m, inGraph (nd t1 m) = inGraph (nd t m)) ->
+  (forall m, observers (nd t1 m) = observers (nd t m)) ->
+  (forall m, height (nd t1 m) = height (nd t m)) ->
+  (forall m, valid (nd t1 m) = valid (nd t m)) ->
+  (forall m, scope (nd t1 m) = scope (nd t m)) ->
+  (forall m, m <> c -> parents (nd t1 m) = parents (nd t m) /\ decl (nd t1 m) = decl (nd t m)) ->
+  edges_ok t1 ->
+  (forall m, m <> c -> inGraph (nd t m) = true -> isNecessary (nd t1 m) = true) ->
+  (forall m, inGraph (nd t m) = false ->
+     children (nd t1 m) = children (nd t m) /\ forceNec (nd t1 m) = forceNec (nd t m)) ->
+  heap t1 = heap t -> reg t1 = reg t -> obs t1 = obs t -> numNodes t1 = numNodes t ->
+  maxHeight t1 = maxHeight t -> log t1 = log t -> binds t1 = binds t -> next t1 = next t ->
+  (forall m, has t1 m <-> has t m) ->
+  BInv [c] t1.
+Proof.
+  intros [b_edges0 b_zero10 b_zero20 b_nec0 b_par0 b_height0 b_heap0 b_count0 b_obs0 b_valid0 b_sreg0 b_log0 b_life0]
+         Hgc Hg Hob Hh Hv Hsc Hpd He Hnec Hun Hheap Hreg Hobs Hnum Hmh Hlog Hbinds Hnext Hhas.
+  assert (Hnil : forall m : nid, m ∉ []) by (intros m Hm; inversion Hm).
+  assert (Hne : forall m, m ∉ [c] -> m <> c) by (intros m Hm ->; apply Hm; left).
+  constructor.
+  - exact He.
+  - intros m. rewrite Hg, Hh. intros Hm.
+    assert (m <> c) by (intros ->; congruence).
+    destruct (Hpd m H) as [-> _]. apply b_zero10, Hm.
+  - intros m _. rewrite Hg, Hob. intros Hm. destruct (Hun m Hm) as [-> _]. apply b_zero20; [apply Hnil|exact Hm].
+  - intros m Hm. apply Hne in Hm. rewrite Hg. destruct (inGraph (nd t m)) eqn:E.
+    + symmetry. apply Hnec; assumption.
+    + destruct (Hun m E) as [E1 E2]. rewrite (isNecessary_ext (nd t1 m) (nd t m) E2 E1 (Hob m)).
+      rewrite <- (b_nec0 m (Hnil m)). symmetry; exact E.
+  - intros m Hm. apply Hne in Hm. rewrite Hg. destruct (Hpd m Hm) as [-> ->]. apply b_par0, Hnil.
+  - intros m Hm. apply Hne in Hm. rewrite Hg. intros Hgm.
+    apply (good_h_ext t t1 m Hmh (proj1 (Hpd m Hm)) (Hsc m) Hh (b_height0 m (Hnil m) Hgm)).
+  - apply (heap_ok_ext t t1); auto.
+  - apply (count_ok_ext t t1); auto.
+  - apply (obs_ok_ext t t1); auto.
+  - intros m. rewrite Hg, Hv. apply b_valid0.
+  - intros m b. rewrite !Hg, Hsc. apply b_sreg0.
+  - rewrite Hlog. exact b_log0.
+  - intros m. rewrite Hg, Hlog. apply b_life0.
+Qed.
+
+(** switching off the forced necessity of [o] *)
+Lemma TInv_unforce t o :
+  TInv [] noE t -> has t o ->
+  TInv [] (eq o) (upd t o (set forceNec (fun _ => false))).
+Proof.
+  intros [t_edges0 t_zero0 t_nec0 t_necE0 t_W0 t_par0 t_height0 t_heap0 t_count0 t_obs0 t_valid0 t_log0 t_life0 t_lifeW0 t_nodup0] Ho.
+  set (t1 := upd t o (set forceNec (fun _ => false))).
+  assert (Hfield : forall {A} (g : node -> A), (forall x f, g (set forceNec f x) = g x) -> forall m, g (nd t1 m) = g (nd t m)).
+  { intros A g Hg' m. unfold t1. apply nd_upd_proj. intros x. apply Hg'. }
+  assert (Hg : forall m, inGraph (nd t1 m) = inGraph (nd t m)) by (apply Hfield; reflexivity).
+  assert (Hnil : forall m : nid, m ∉ []) by (intros m Hm; inversion Hm).
+  constructor.
+  - apply (edges_ok_ext t t1); auto; apply Hfield; reflexivity.
+  - apply (zero_ok_ext t t1); auto; apply Hfield; reflexivity.
+  - intros n _ Hn. rewrite Hg. unfold t1. rewrite nd_upd_ne by (intros ->; apply Hn; reflexivity).
+    apply t_nec0; [apply Hnil|intros []].
+  - intros n <- Hn. rewrite Hg. rewrite (t_nec0 o (Hnil o)); [|intros []].
+    apply isNecessary_true in Hn. apply isNecessary_true.
+    rewrite (Hfield _ children), (Hfield _ observers) in Hn by reflexivity.
+    destruct Hn as [Hn|Hn]; [|auto]. unfold t1 in Hn. rewrite nd_upd_eq in Hn by exact Ho. discriminate.
+  - intros w Hw. inversion Hw.
+  - intros n _. rewrite Hg, (Hfield _ parents), (Hfield _ decl) by reflexivity. apply t_par0, Hnil.
+  - apply (height_ok_ext t t1); auto; apply Hfield; reflexivity.
+  - apply (heap_ok_ext t t1); auto; apply Hfield; reflexivity.
+  - apply (count_ok_ext t t1); auto.
+  - apply (obs_ok_ext t t1); auto; try (apply Hfield; reflexivity). intros m. apply has_upd.
+  - intros n. rewrite Hg, (Hfield _ valid) by reflexivity. apply t_valid0.
+  - exact t_log0.
+  - intros n _. rewrite Hg. apply t_life0, Hnil.
+  - intros w Hw. inversion Hw.
+  - constructor.
+Qed.
+
+(** ** what [changeParent] leaves untouched *)
+Record cp_frame (s s' : state) : Prop := {
+  cpf_binds : binds s' = binds s;
+  cpf_has : forall m, has s' m <-> has s m;
+  cpf_stabNum : stabNum s' = stabNum s;
+  cpf_node : forall m, nkind (nd s' m) = nkind (nd s m) /\ decl (nd s' m) = decl (nd s m) /\
+                       scope (nd s' m) = scope (nd s m) /\ valid (nd s' m) = valid (nd s m)
+}.
+
+Lemma cp_frame_refl s : cp_frame s s.
+Proof. split; auto; reflexivity. Qed.
+
+Lemma cp_frame_trans s1 s2 s3 : cp_frame s1 s2 -> cp_frame s2 s3 -> cp_frame s1 s3.
+Proof.
+  intros [A1 A2 A3 A4] [B1 B2 B3 B4]. split.
+  - congruence.
+  - intros m. rewrite B2. apply A2.
+  - congruence.
+  - intros m. destruct (A4 m) as (?&?&?&?), (B4 m) as (?&?&?&?). repeat split; congruence.
+Qed.
+
+Lemma cp_frame_td s s' : td_frame s s' -> (forall m, valid (nd s' m) = valid (nd s m)) -> cp_frame s s'.
+Proof.
+  intros F Hv. split; try apply F. intros m. destruct (tf_static _ _ F m) as (?&?&?&_). auto.
+Qed.
+
+Lemma cp_frame_ac s s' : ac_frame s s' -> cp_frame s s'.
+Proof.
+  intros F. split; try apply F. intros m. destruct (cf_static _ _ F m) as (?&?&?&?&_). auto.
+Qed.
+
+Section cp.
+  Context (D : nid -> Prop) (t6 : state) (b : nat) (oldRhs root : option nid).
+  Let c := S b.
+  Let t7 := upd t6 c (set decl (fun _ => b :: option_list root)).
+  Hypothesis T6 : TInv [] noE t6.
+  Hypothesis Hsreg6 : forall m b', inGraph (nd t6 m) = true -> scope (nd t6 m) = Some b' -> inGraph (nd t6 b') = true.
+  Hypothesis R7 : RestM D t7.
+  Hypothesis Hvc7 : forall m q, valid (nd t7 m) = true -> q ∈ decl (nd t7 m) -> valid (nd t7 q) = true.
+  Hypothesis Hforce : forall n, forceNec (nd t6 n) = false.
+  Hypothesis Hdecl6 : decl (nd t6 c) = b :: option_list oldRhs.
+  Hypothesis Hgb : inGraph (nd t6 b) = true.
+  Hypothesis Hgc : inGraph (nd t6 c) = true.
+  Hypothesis Hroot : match root with
+                     | Some r => has t6 r /\ r <> b /\ valid (nd t6 r) = true /\
+                                 (forall b', scope (nd t6 r) = Some b' -> b' = b)
+                     | None => True
+                     end.
+  Hypothesis Hold : match oldRhs with Some o => o <> b | None => True end.
+  Hypothesis HD : forall n, D n -> scope (nd t6 n) = Some b.
+  Hypothesis HDdec : forall n, D n \/ ~ D n.
+
+  Local Lemma cp_hc : has t6 c.
+  Proof. apply has_inGraph, Hgc. Qed.
+
+  Local Lemma cp_nd7 m : nd t7 m = if decide (m = c) then set decl (fun _ => b :: option_list root) (nd t6 c) else nd t6 m.
+  Proof. unfold t7. apply nd_upd, cp_hc. Qed.
+
+  Local Lemma cp_field7 {A} (g : node -> A) : (forall x f, g (set decl f x) = g x) -> forall m, g (nd t7 m) = g (nd t6 m).
+  Proof. intros Hg' m. rewrite cp_nd7. destruct (decide (m = c)) as [->|]; [apply Hg'|reflexivity]. Qed.
+
+  Local Lemma cp_decl7 m : decl (nd t7 m) = if decide (m = c) then b :: option_list root else decl (nd t6 m).
+  Proof. rewrite cp_nd7. destruct (decide (m = c)); reflexivity. Qed.
+
+  Local Lemma cp_has7 m : has t7 m <-> has t6 m.
+  Proof. apply has_upd. Qed.
+
+  Local Lemma cp_par6 : parents (nd t6 c) = b :: option_list oldRhs.
+  Proof. rewrite (t_par _ _ _ T6 c) by (try exact Hgc; intros H; inversion H). exact Hdecl6. Qed.
+
+  Local Lemma cp_height6 :
+    0 <= height (nd t6 c) < maxHeight t6 /\
+    (forall p, p ∈ parents (nd t6 c) -> height (nd t6 p) < height (nd t6 c)) /\
+    scopeHeight t6 (scope (nd t6 c)) < height (nd t6 c).
+  Proof. apply (t_height _ _ _ T6 c Hgc). Qed.
+
+  Local Lemma cp_hb : height (nd t6 b) < height (nd t6 c).
+  Proof. destruct cp_height6 as (_ & H & _). apply H. rewrite cp_par6. left. Qed.
+
+  (* the dead nodes, as [addChild_spec] wants them *)
+  Local Lemma cp_dead7 n b' :
+    has t7 n -> scope (nd t7 n) = Some b' -> ~ inGen t7 b' n ->
+    valid (nd t7 n) = false \/ (inGraph (nd t6 b') = true /\ height (nd t6 b') < height (nd t6 c)).
+  Proof.
+    intros H1 H2 H3. destruct (HDdec n) as [Hd|Hd].
+    - right. rewrite (cp_field7 scope) in H2 by reflexivity. rewrite (HD n Hd) in H2. injection H2 as <-.
+      split; [exact Hgb|exact cp_hb].
+    - left. apply (m_vdead _ _ R7 n b' H1 H2 H3 Hd).
+  Qed.
+
+  Local Lemma cp_Sta7 : Sta t7.
+  Proof. destruct R7. split; auto. Qed.
+
+  (* nothing to change *)
+  Local Lemma cp_same : option_list root = option_list oldRhs -> TInv [] noE t7.
+  Proof.
+    intros E.
+    assert (Hd : forall m, decl (nd t7 m) = decl (nd t6 m)).
+    { intros m. rewrite cp_decl7. destruct (decide (m = c)) as [->|]; [|reflexivity]. rewrite E, Hdecl6. reflexivity. }
+    apply (TInv_struct _ _ t6 t7); [| |apply (heap_ok_ext t6 t7)|exact T6]; try reflexivity.
+    - split; try reflexivity; [apply cp_has7|].
+      intros m. repeat split; try (apply cp_field7; reflexivity). apply Hd.
+    - apply cp_field7; reflexivity.
+    - apply cp_field7; reflexivity.
+    - apply T6.
+  Qed.
+
+  (* linking the new right-hand side, in a state [t] that agrees with [t7] except for edges and forced necessity *)
+  Section add.
+    Context (t : state) (r : nid).
+    Hypothesis Hr : root = Some r.
+    Hypothesis Bt : BInv [c] t.
+    Hypothesis Hrel : forall m,
+      nkind (nd t m) = nkind (nd t7 m) /\ decl (nd t m) = decl (nd t7 m) /\
+      scope (nd t m) = scope (nd t7 m) /\ valid (nd t m) = valid (nd t7 m) /\
+      inGraph (nd t m) = inGraph (nd t7 m) /\
+      hAdj (nd t m) = hAdj (nd t7 m) /\ recomputedAt (nd t m) = recomputedAt (nd t7 m) /\
+      changedAt (nd t m) = changedAt (nd t7 m) /\ setAt (nd t m) = setAt (nd t7 m).
+    Hypothesis Hht : forall m, height (nd t m) = height (nd t6 m).
+    Hypothesis Hpar : parents (nd t c) = [b].
+    Hypothesis Hnc : isNecessary (nd t c) = true.
+    Hypothesis (Hnext : next t = next t7) (Hbinds : binds t = binds t7) (Hhas : forall m, has t m <-> has t7 m).
+    Hypothesis (Hadj : adj t = adj t7) (Hinvq : invq t = invq t7) (Hstatus : status t = status t7).
+    Hypothesis (HsD : setDuring t = setDuring t7) (HsR : setRemoved t = setRemoved t7).
+    Hypothesis (Hmh : maxHeight t = maxHeight t7) (Hsn : stabNum t = stabNum t7) (Hlog : log t = log t7).
+
+    Local Lemma add_Rest : RestM D t.
+    Proof. apply (RestM_ext D t7 t); auto. Qed.
+
+    Lemma cp_add fuel tC e :
+      addChild fuel t c r = Ok (tC, e) ->
+      match e with
+      | Some x => adj_err x
+      | None => BInv [] tC /\ ac_frame t tC /\ RestM D tC
+      end.
+    Proof.
+      intros H. pose proof add_Rest as Rt.
+      assert (Hsc : forall m, scope (nd t m) = scope (nd t6 m)).
+      { intros m. destruct (Hrel m) as (_&_&->&_). apply cp_field7. reflexivity. }
+      assert (Hv : forall m, valid (nd t m) = valid (nd t6 m)).
+      { intros m. destruct (Hrel m) as (_&_&_&->&_). apply cp_field7. reflexivity. }
+      assert (Hg : forall m, inGraph (nd t m) = inGraph (nd t6 m)).
+      { intros m. destruct (Hrel m) as (_&_&_&_&->&_). apply cp_field7. reflexivity. }
+      assert (Hbd : forall b', bd t b' = bd t7 b') by (intros b'; unfold bd; rewrite Hbinds; reflexivity).
+      rewrite Hr in Hroot. destruct Hroot as (Hhr & Hrb & Hvr & Hsr).
+      destruct cp_height6 as (Hrange & Hlow & Hscope).
+      assert (St : Sta t).
+      { destruct Rt. split; auto. intros m q. destruct (Hrel m) as (_&->&_&->&_). destruct (Hrel q) as (_&_&_&->&_). apply Hvc7. }
+      pose proof (addChild_spec fuel t c r tC e St Bt (m_adj _ _ Rt) (m_invq _ _ Rt)) as AC.
+      assert (AC' : match e with None => BInv [] tC /\ ac_frame t tC /\ invq tC = [] /\ adj_idle tC | Some x => adj_err x end).
+      { apply AC; auto.
+        - intros n b' Hn Hs Hno. rewrite Hv, Hg, !Hht.
+          rewrite <- (cp_field7 valid) by reflexivity. apply cp_dead7.
+          + apply Hhas, Hn.
+          + destruct (Hrel n) as (_&_&<-&_). exact Hs.
+          + unfold inGen. rewrite <- Hbd. exact Hno.
+        - apply Hhas, cp_has7, cp_hc.
+        - apply Hhas, cp_has7, Hhr.
+        - rewrite Hg. exact Hgc.
+        - rewrite Hv. exact Hvr.
+        - rewrite Hpar. destruct (Hrel c) as (_&->&_). rewrite cp_decl7, decide_True, Hr by reflexivity. reflexivity.
+        - rewrite Hht, Hmh. exact Hrange.
+        - rewrite Hsc, Hht, (scopeHeight_ext t6 t) by exact Hht. exact Hscope.
+        - intros q. rewrite Hpar, !Hht. intros ->%elem_of_list_singleton. exact cp_hb.
+        - intros b'. rewrite Hsc, Hg. intros Hs. rewrite (Hsr b' Hs). exact Hgb. }
+      destruct e as [x|]; [exact AC'|]. destruct AC' as (B2 & F2 & Hq2 & Hidle2).
+      split; [exact B2|]. split; [exact F2|].
+      apply (RestM_ac_frame D t tC F2 Hq2 Hidle2 (b_valid _ _ B2) Rt).
+    Qed.
+  End add.
+
+  Definition cp_post (t8 : state) : Prop :=
+    TInv [] noE t8 /\ RestM D t8 /\ (forall n, forceNec (nd t8 n) = false) /\ cp_frame t7 t8.
+
+  Local Lemma cp_fieldA {A} (g : node -> A) o :
+    (forall x f, g (set decl f x) = g x) -> (forall x f, g (set parents f x) = g x) ->
+    (forall x f, g (set children f x) = g x) ->
+    forall m, g (nd (unlink t7 c o) m) = g (nd t6 m).
+  Proof.
+    intros H1 H2 H3 m. unfold unlink.
+    rewrite (nd_upd_proj g _ o (set children (rm c)) m) by (intros x; apply H3).
+    rewrite (nd_upd_proj g _ c (set parents (rm o)) m) by (intros x; apply H2).
+    apply cp_field7, H1.
+  Qed.
+
+  Local Lemma cp_U o : unlink_like t6 (unlink t7 c o) c o.
+  Proof.
+    split; try reflexivity.
+    - intros m. rewrite parents_nd_unlink, (cp_field7 parents) by reflexivity. reflexivity.
+    - intros m. rewrite children_nd_unlink, (cp_field7 children) by reflexivity. reflexivity.
+    - intros m Hm. rewrite decl_nd_unlink, cp_decl7, decide_False by exact Hm. reflexivity.
+    - apply cp_fieldA; reflexivity.
+    - apply cp_fieldA; reflexivity.
+    - apply cp_fieldA; reflexivity.
+    - apply cp_fieldA; reflexivity.
+    - apply cp_fieldA; reflexivity.
+    - apply cp_fieldA; reflexivity.
+    - intros m. rewrite has_unlink. apply cp_has7.
+  Qed.
+
+  Local Lemma cp_frame7A o : cp_frame t7 (unlink t7 c o).
+  Proof.
+    split; try reflexivity; [intros m; apply has_unlink|].
+    intros m. rewrite nkind_nd_unlink, decl_nd_unlink, scope_nd_unlink, valid_nd_unlink. auto.
+  Qed.
+
+  Local Lemma cp_RestA o : RestM D (unlink t7 c o).
+  Proof.
+    apply (RestM_ext D t7); auto; try reflexivity; [intros m; apply has_unlink|].
+    intros m. rewrite nkind_nd_unlink, decl_nd_unlink, scope_nd_unlink, valid_nd_unlink, inGraph_nd_unlink,
+      hAdj_nd_unlink, recomputedAt_nd_unlink, changedAt_nd_unlink, setAt_nd_unlink. repeat split.
+  Qed.
+
+  (* nothing linked, nothing to link; or the same right-hand side again *)
+  Lemma cp_case_same : option_list root = option_list oldRhs -> cp_post t7.
+  Proof.
+    intros E. split; [apply cp_same, E|]. split; [exact R7|]. split; [|apply cp_frame_refl].
+    intros n. rewrite (cp_field7 forceNec) by reflexivity. apply Hforce.
+  Qed.
+
+  (* only a new right-hand side *)
+  Lemma cp_case_add fuel r t8 e :
+    oldRhs = None -> root = Some r -> addChild fuel t7 c r = Ok (t8, e) ->
+    match e with Some x => adj_err x | None => cp_post t8 end.
+  Proof.
+    intros Eo Er H.
+    assert (Hnil : forall m : nid, m ∉ []) by (intros m Hm; inversion Hm).
+    assert (B7 : BInv [c] t7).
+    { apply (BInv_reopen t6 t7 c (TInv_BInv t6 T6 Hsreg6) Hgc); try reflexivity; try (apply cp_field7; reflexivity).
+      - intros m Hm. split; [apply cp_field7; reflexivity|]. rewrite cp_decl7, decide_False by exact Hm. reflexivity.
+      - apply (edges_ok_ext t6 t7); [apply cp_field7; reflexivity|apply cp_field7; reflexivity|apply T6].
+      - intros m _ Hm. rewrite (isNecessary_ext (nd t7 m) (nd t6 m)) by (apply cp_field7; reflexivity).
+        rewrite <- (t_nec _ _ _ T6 m (Hnil m)); [exact Hm|intros []].
+      - intros m _. split; apply cp_field7; reflexivity.
+      - apply cp_has7. }
+    pose proof (cp_add t7 r Er B7) as AC.
+    specialize (AC ltac:(intros m; repeat split) ltac:(apply cp_field7; reflexivity)).
+    assert (Hp7 : parents (nd t7 c) = [b]).
+    { rewrite (cp_field7 parents) by reflexivity. rewrite cp_par6, Eo. reflexivity. }
+    assert (Hn7 : isNecessary (nd t7 c) = true).
+    { rewrite (isNecessary_ext (nd t7 c) (nd t6 c)) by (apply cp_field7; reflexivity).
+      rewrite <- (t_nec _ _ _ T6 c (Hnil c)); [exact Hgc|intros []]. }
+    specialize (AC Hp7 Hn7 eq_refl eq_refl ltac:(reflexivity) eq_refl eq_refl eq_refl eq_refl eq_refl eq_refl eq_refl eq_refl fuel t8 e H).
+    destruct e as [x|]; [exact AC|]. destruct AC as (B8 & F8 & R8).
+    split; [apply BInv_TInv, B8|]. split; [exact R8|]. split; [|apply cp_frame_ac, F8].
+    intros n. destruct (cf_static _ _ F8 n) as (_&_&_&_&->&_). rewrite (cp_field7 forceNec) by reflexivity. apply Hforce.
+  Qed.
+
+  Local Lemma cp_old_facts o : oldRhs = Some o ->
+    o <> b /\ o <> c /\ has t6 o /\ inGraph (nd t6 o) = true /\ rm o (parents (nd t6 c)) = [b].
+  Proof.
+    intros Eo. rewrite Eo in Hold.
+    assert (Hop : o ∈ parents (nd t6 c)) by (rewrite cp_par6, Eo; right; left).
+    split; [exact Hold|]. split.
+    { intros ->. destruct cp_height6 as (_ & H & _). specialize (H c Hop). lia. }
+    split; [apply (parent_has t6 c o (t_edges _ _ _ T6) Hop)|].
+    split; [apply (parent_registered t6 c o (t_edges _ _ _ T6) (t_zero _ _ _ T6) Hop)|].
+    rewrite cp_par6, Eo. simpl. rewrite !rm_cons, rm_nil, decide_False, decide_True by congruence. reflexivity.
+  Qed.
+
+  (* only the old right-hand side goes *)
+  Lemma cp_case_rm fuel o t8 :
+    oldRhs = Some o -> root = None -> checkIfUnnecessary fuel (unlink t7 c o) o = Ok t8 -> cp_post t8.
+  Proof.
+    intros Eo Er H. destruct (cp_old_facts o Eo) as (Hob & Hoc & Hho & Hgo & Hrm).
+    set (tA := unlink t7 c o) in *.
+    assert (TA : TInv [] (eq o) tA).
+    { apply (TInv_unlink_like [] t6 tA c o T6 (cp_U o)).
+      intros n _ Hn. unfold tA. rewrite parents_nd_unlink, decl_nd_unlink, (cp_field7 parents), cp_decl7 by reflexivity.
+      destruct (decide (n = c)) as [->|Hne].
+      - rewrite Hrm, Er. reflexivity.
+      - apply (t_par _ _ _ T6 n); [intros Hx; inversion Hx|exact Hn]. }
+    destruct (checkIfUnnecessary_spec fuel tA o [] t8 TA ltac:(intros Hx; inversion Hx) H) as [[T8 _ Hv Hm] F].
+    split; [exact T8|]. split; [apply (RestM_td_frame D tA t8 F Hv Hm), cp_RestA|]. split.
+    - intros n. destruct (tf_static _ _ F n) as (_&_&_&->&_). unfold tA. rewrite forceNec_nd_unlink, (cp_field7 forceNec) by reflexivity. apply Hforce.
+    - eapply cp_frame_trans; [apply (cp_frame7A o)|apply (cp_frame_td tA t8 F Hv)].
+  Qed.
+
+  (* the right-hand side is replaced: the old one is kept alive while the new one is linked *)
+  Lemma cp_case_swap fuel o r t8 e :
+    oldRhs = Some o -> root = Some r -> o <> r ->
+    (let s := upd (unlink t7 c o) o (set forceNec (fun _ => true)) in
+     s <-? addChild fuel s c r;
+     let s := upd s o (set forceNec (fun _ => false)) in
+     lift (checkIfUnnecessary fuel s o)) = Ok (t8, e) ->
+    match e with Some x => adj_err x | None => cp_post t8 end.
+  Proof.
+    intros Eo Er Hor H. destruct (cp_old_facts o Eo) as (Hob & Hoc & Hho & Hgo & Hrm).
+    assert (Hnil : forall m : nid, m ∉ []) by (intros m Hm; inversion Hm).
+    set (tA := unlink t7 c o) in *. cbv zeta in H. set (tB := upd tA o (set forceNec (fun _ => true))) in *.
+    assert (HhA : has tA o) by (apply has_unlink, cp_has7, Hho).
+    assert (HfB : forall {A} (g : node -> A), (forall x f, g (set forceNec f x) = g x) -> forall m, g (nd tB m) = g (nd tA m)).
+    { intros A g Hg' m. unfold tB. apply nd_upd_proj. intros x. apply Hg'. }
+    assert (HfldB : forall {A} (g : node -> A),
+               (forall x f, g (set forceNec f x) = g x) -> (forall x f, g (set decl f x) = g x) ->
+               (forall x f, g (set parents f x) = g x) -> (forall x f, g (set children f x) = g x) ->
+               forall m, g (nd tB m) = g (nd t6 m)).
+    { intros A g H1 H2 H3 H4 m. rewrite (HfB _ g H1). apply cp_fieldA; assumption. }
+    assert (HparB : forall m, parents (nd tB m) = if decide (m = c) then [b] else parents (nd t6 m)).
+    { intros m. rewrite (HfB _ parents) by reflexivity. unfold tA. rewrite parents_nd_unlink, (cp_field7 parents) by reflexivity.
+      destruct (decide (m = c)) as [->|]; [exact Hrm|reflexivity]. }
+    assert (HchiB : forall m, m <> o -> children (nd tB m) = children (nd t6 m)).
+    { intros m Hm. rewrite (HfB _ children) by reflexivity. unfold tA. rewrite children_nd_unlink, decide_False by exact Hm.
+      apply cp_field7. reflexivity. }
+    assert (HforB : forall m, m <> o -> forceNec (nd tB m) = forceNec (nd t6 m)).
+    { intros m Hm. unfold tB. rewrite nd_upd_ne by exact Hm. unfold tA. rewrite forceNec_nd_unlink. apply cp_field7. reflexivity. }
+    assert (HdeclB : forall m, decl (nd tB m) = decl (nd t7 m)).
+    { intros m. rewrite (HfB _ decl) by reflexivity. unfold tA. apply decl_nd_unlink. }
+    assert (HhasB : forall m, has tB m <-> has t7 m).
+    { intros m. unfold tB. rewrite has_upd. unfold tA. apply has_unlink. }
+    assert (BB : BInv [c] tB).
+    { apply (BInv_reopen t6 tB c (TInv_BInv t6 T6 Hsreg6) Hgc); try reflexivity; try (apply HfldB; reflexivity).
+      - intros m Hm. split; [rewrite HparB, decide_False by exact Hm; reflexivity|].
+        rewrite HdeclB, cp_decl7, decide_False by exact Hm. reflexivity.
+      - apply (edges_ok_ext tA tB); [apply HfB; reflexivity|apply HfB; reflexivity|].
+        apply edges_ok_unlink. apply (edges_ok_ext t6 t7); [apply cp_field7; reflexivity|apply cp_field7; reflexivity|apply T6].
+      - intros m Hmc Hm. destruct (decide (m = o)) as [->|Hmo].
+        + apply isNecessary_true. left. unfold tB. rewrite nd_upd_eq by exact HhA. reflexivity.
+        + rewrite (isNecessary_ext (nd tB m) (nd t6 m)); [|apply HforB, Hmo|apply HchiB, Hmo|apply HfldB; reflexivity].
+          rewrite <- (t_nec _ _ _ T6 m (Hnil m)); [exact Hm|intros []].
+      - intros m Hm. assert (Hmo : m <> o) by (intros ->; congruence). split; [apply HchiB, Hmo|apply HforB, Hmo].
+      - intros m. rewrite HhasB. apply cp_has7. }
+    apply ebind_inv in H as (tC & e2 & H2 & Hrest).
+    pose proof (cp_add tB r Er BB) as AC.
+    assert (HrelB : forall m,
+      nkind (nd tB m) = nkind (nd t7 m) /\ decl (nd tB m) = decl (nd t7 m) /\
+      scope (nd tB m) = scope (nd t7 m) /\ valid (nd tB m) = valid (nd t7 m) /\
+      inGraph (nd tB m) = inGraph (nd t7 m) /\
+      hAdj (nd tB m) = hAdj (nd t7 m) /\ recomputedAt (nd tB m) = recomputedAt (nd t7 m) /\
+      changedAt (nd tB m) = changedAt (nd t7 m) /\ setAt (nd tB m) = setAt (nd t7 m)).
+    { intros m. repeat split; try apply HdeclB;
+        (etransitivity; [apply HfldB; reflexivity|symmetry; apply cp_field7; reflexivity]). }
+    specialize (AC HrelB).
+    specialize (AC ltac:(apply HfldB; reflexivity)).
+    assert (HpB : parents (nd tB c) = [b]) by (rewrite HparB, decide_True by reflexivity; reflexivity).
+    assert (HnB : isNecessary (nd tB c) = true).
+    { rewrite (isNecessary_ext (nd tB c) (nd t6 c)); [|apply HforB; congruence|apply HchiB; congruence|apply HfldB; reflexivity].
+      rewrite <- (t_nec _ _ _ T6 c (Hnil c)); [exact Hgc|intros []]. }
+    specialize (AC HpB HnB eq_refl eq_refl HhasB eq_refl eq_refl eq_refl eq_refl eq_refl eq_refl eq_refl eq_refl fuel tC e2 H2).
+    destruct e2 as [x|].
+    { destruct Hrest as [[? _]|(_ & _ & ->)]; [discriminate|]. exact AC. }
+    destruct Hrest as [[_ H]|(Hne & _)]; [|congruence]. apply lift_inv in H as [H ->].
+    destruct AC as (BC & FC & RC).
+    set (tD := upd tC o (set forceNec (fun _ => false))) in *.
+    assert (HhC : has tC o) by (apply (cf_has _ _ FC), HhasB, cp_has7, Hho).
+    pose proof (TInv_unforce tC o (BInv_TInv tC BC) HhC) as TD. fold tD in TD.
+    destruct (checkIfUnnecessary_spec fuel tD o [] t8 TD ltac:(intros Hx; inversion Hx) H) as [[T8 _ Hv Hm] F].
+    assert (HfD : forall {A} (g : node -> A), (forall x f, g (set forceNec f x) = g x) -> forall m, g (nd tD m) = g (nd tC m)).
+    { intros A g Hg' m. unfold tD. apply nd_upd_proj. intros x. apply Hg'. }
+    assert (RD : RestM D tD).
+    { apply (RestM_ext D tC tD); auto; try reflexivity; [intros m; apply has_upd|].
+      intros m. repeat split; apply HfD; reflexivity. }
+    split; [exact T8|]. split; [apply (RestM_td_frame D tD t8 F Hv Hm RD)|]. split.
+    - intros n. destruct (tf_static _ _ F n) as (_&_&_&->&_). unfold tD. destruct (decide (n = o)) as [->|Hno].
+      + rewrite nd_upd_eq by exact HhC. reflexivity.
+      + rewrite nd_upd_ne by exact Hno. destruct (cf_static _ _ FC n) as (_&_&_&_&->&_). rewrite HforB by exact Hno. apply Hforce.
+    - apply (cp_frame_trans t7 tD t8); [|apply (cp_frame_td tD t8 F Hv)].
+      apply (cp_frame_trans t7 tC tD); [|split; [reflexivity|intros m; apply has_upd|reflexivity|intros m; repeat split; apply HfD; reflexivity]].
+      apply (cp_frame_trans t7 tB tC); [|apply (cp_frame_ac tB tC FC)].
+      split; [reflexivity|exact HhasB|reflexivity|].
+      intros m. rewrite HdeclB. repeat split; first [apply HfB; reflexivity|idtac].
+      + rewrite (HfB _ nkind) by reflexivity. apply nkind_nd_unlink.
+      + rewrite (HfB _ scope) by reflexivity. apply scope_nd_unlink.
+      + rewrite (HfB _ valid) by reflexivity. apply valid_nd_unlink.
+  Qed.
+
+  Lemma changeParent_spec fuel oR rt t8 e :
+    oR = oldRhs -> rt = root ->
+    changeParent fuel t7 c oR rt = Ok (t8, e) ->
+    match e with Some x => adj_err x | None => cp_post t8 end.
+  Proof.
+    intros Eo Er H. unfold changeParent in H. destruct oR as [o|], rt as [r|].
+    - destruct (decide (o = r)) as [->|Hor].
+      + rewrite bool_decide_true in H by reflexivity. apply ok_inv in H as [-> ->].
+        apply cp_case_same. rewrite <- Eo, <- Er. reflexivity.
+      + rewrite bool_decide_false in H by exact Hor.
+        apply (cp_case_swap fuel o r t8 e (eq_sym Eo) (eq_sym Er) Hor H).
+    - apply lift_inv in H as [H ->]. apply (cp_case_rm fuel o t8 (eq_sym Eo) (eq_sym Er) H).
+    - apply (cp_case_add fuel r t8 e (eq_sym Eo) (eq_sym Er) H).
+    - apply ok_inv in H as [-> ->]. apply cp_case_same. rewrite <- Eo, <- Er. reflexivity.
+  Qed.
+End cp.
+
+(** ** the discarded generation and everything nested in it is out of the graph *)
+Section doomed.
+  Context (D : nid -> Prop) (b : nat) (t : state).
+  Hypothesis T : TInv [] noE t.
+  Hypothesis R : RestM D t.
+  Hypothesis Hf : forall n, forceNec (nd t n) = false.
+  Hypothesis HD : forall n, D n -> scope (nd t n) = Some b /\ ~ inGen t b n.
+  Hypothesis HDdec : forall n, D n \/ ~ D n.
+
+  Inductive doomed : nid -> Prop :=
+  | dm_old n : D n -> doomed n
+  | dm_in n b1 : scope (nd t n) = Some b1 -> doomed b1 -> doomed n.
+
+  Lemma doomed_scope n : doomed n ->
+    exists b1, scope (nd t n) = Some b1 /\ ((b1 = b /\ D n) \/ doomed b1).
+  Proof.
+    intros [n' Hd|n' b1 Hs Hd].
+    - exists b. split; [apply (HD _ Hd)|left; auto].
+    - exists b1. auto.
+  Qed.
+
+  Lemma doomed_gt n : doomed n -> (b < n)%nat.
+  Proof.
+    induction 1 as [n Hd|n b1 Hs _ IH].
+    - destruct (HD n Hd) as [Hs _]. destruct (m_scopes _ _ R n b Hs). lia.
+    - destruct (m_scopes _ _ R n b1 Hs). lia.
+  Qed.
+
+  Lemma doomed_unreg n : doomed n -> inGraph (nd t n) = false.
+  Proof.
+    remember (Z.to_nat (maxHeight t - height (nd t n))) as k eqn:Ek.
+    revert n Ek. induction (lt_wf k) as [k _ IH]. intros n Ek Hdm.
+    destruct (inGraph (nd t n)) eqn:Hg; [exfalso|reflexivity].
+    pose proof (t_edges _ _ _ T) as He. pose proof (t_zero _ _ _ T) as Hz.
+    assert (Hnil : forall m : nid, m ∉ []) by (intros m Hm; inversion Hm).
+    pose proof Hg as Hn. rewrite (t_nec _ _ _ T n (Hnil n)) in Hn by (intros []).
+    destruct (doomed_scope n Hdm) as (b1 & Hsn & Hcase).
+    apply isNecessary_true in Hn as [Hn|[Hn|Hn]].
+    - rewrite Hf in Hn. discriminate.
+    - destruct (children (nd t n)) as [|c' l] eqn:Ec; [congruence|].
+      assert (Hc : c' ∈ children (nd t n)) by (rewrite Ec; left).
+      pose proof (child_registered t c' n He Hz Hc) as Hgc.
+      apply (edges_parent_child t c' n He) in Hc.
+      destruct (t_height _ _ _ T c' Hgc) as (Hrange & Hlow & _).
+      pose proof (Hlow n Hc) as Hlt.
+      destruct (t_height _ _ _ T n Hg) as (Hrange' & _ & _).
+      rewrite (t_par _ _ _ T c' (Hnil c') Hgc) in Hc.
+      assert (Hvc : valid (nd t c') = true) by (apply (t_valid _ _ _ T), Hgc).
+      assert (Hhc : has t c') by (apply has_inGraph, Hgc).
+      assert (Hdc : doomed c').
+      { (* a valid node of scope b that is not of the current generation is of the discarded one *)
+        assert (Hb : scope (nd t c') = Some b -> ~ inGen t b c' -> doomed c').
+        { intros Hs Hng. destruct (HDdec c') as [Hd|Hd]; [apply dm_old, Hd|].
+          destruct (m_vdead _ _ R c' b Hhc Hs Hng Hd) as [E _]. congruence. }
+        destruct (sc_decl t (m_scoping _ _ R) c' n Hc) as [E|[E|(b0 & Hk & Hs0 & Hr)]].
+        - congruence.
+        - rewrite Hsn in E. destruct Hcase as [[-> Hd]|Hd1].
+          + apply Hb; [congruence|]. intros Hgen.
+            apply (proj2 (HD n Hd)). apply (sc_gen t (m_scoping _ _ R) c' n b Hc); congruence.
+          + apply (dm_in c' b1); [congruence|exact Hd1].
+        - rewrite Hsn in Hs0. injection Hs0 as ->.
+          pose proof (m_kinds _ _ R c' Hhc) as K. rewrite Hk in K. destruct K as [-> [r0 Hr0]].
+          pose proof (m_binds _ _ R b0 r0 Hr0) as W.
+          destruct Hcase as [[-> Hd]|Hd0].
+          + exfalso. destruct (sc_rhs t (m_scoping _ _ R) b n Hr) as [E|[_ E]]; [congruence|].
+            apply (proj2 (HD n Hd)), E.
+          + destruct (doomed_scope b0 Hd0) as (b2 & Hs2 & Hcase2).
+            assert (HsS : scope (nd t (S b0)) = Some b2) by (rewrite (bw_scope _ _ _ W); exact Hs2).
+            destruct Hcase2 as [[-> Hd]|Hd2].
+            * apply Hb; [exact HsS|]. intros Hgen. apply (proj2 (HD b0 Hd)).
+              apply (sc_gen t (m_scoping _ _ R) (S b0) b0 b); [rewrite (bw_decl_main _ _ _ W); left|exact HsS|exact Hs2|exact Hgen].
+            * apply (dm_in (S b0) b2 HsS Hd2). }
+      assert (Hgc' : inGraph (nd t c') = false).
+      { apply (IH (Z.to_nat (maxHeight t - height (nd t c')))); [|reflexivity|exact Hdc]. subst k. lia. }
+      congruence.
+    - destruct (observers (nd t n)) as [|o l] eqn:Eo; [congruence|].
+      assert (Ho : o ∈ observers (nd t n)) by (rewrite Eo; left).
+      apply (ob_iff t (t_obs _ _ _ T)) in Ho. destruct (ob_ids t (t_obs _ _ _ T) o n Ho) as (_ & _ & E). congruence.
+  Qed.
+End doomed.
+
+(** ** invalidating the discarded generation *)
+
+(* [t] is [t0] up to validity, the recompute stamps and the log *)
+Record iv_same (t0 t : state) : Prop := {
+  is_next : next t = next t0; is_binds : binds t = binds t0; is_reg : reg t = reg t0; is_obs : obs t = obs t0;
+  is_heap : heap t = heap t0; is_adj : adj t = adj t0; is_invq : invq t = invq t0; is_stabNum : stabNum t = stabNum t0;
+  is_status : status t = status t0; is_numNodes : numNodes t = numNodes t0; is_setDuring : setDuring t = setDuring t0;
+  is_setRemoved : setRemoved t = setRemoved t0; is_handlers : handlers t = handlers t0; is_maxHeight : maxHeight t = maxHeight t0;
+  is_has : forall m, has t m <-> has t0 m;
+  is_node : forall m,
+    nkind (nd t m) = nkind (nd t0 m) /\ decl (nd t m) = decl (nd t0 m) /\ scope (nd t m) = scope (nd t0 m) /\
+    height (nd t m) = height (nd t0 m) /\ hAdj (nd t m) = hAdj (nd t0 m) /\ setAt (nd t m) = setAt (nd t0 m) /\
+    parents (nd t m) = parents (nd t0 m) /\ children (nd t m) = children (nd t0 m) /\
+    observers (nd t m) = observers (nd t0 m) /\ forceNec (nd t m) = forceNec (nd t0 m) /\
+    inGraph (nd t m) = inGraph (nd t0 m)
+}.
+
+Lemma iv_same_refl t : iv_same t t.
+Proof. split; try reflexivity. intros m. repeat split. Qed.
+
+Lemma iv_same_trans t0 t1 t2 : iv_same t0 t1 -> iv_same t1 t2 -> iv_same t0 t2.
+Proof.
+  intros A B. split; try (rewrite ?(is_next _ _ B), ?(is_binds _ _ B), ?(is_reg _ _ B), ?(is_obs _ _ B), ?(is_heap _ _ B),
+      ?(is_adj _ _ B), ?(is_invq _ _ B), ?(is_stabNum _ _ B), ?(is_status _ _ B), ?(is_numNodes _ _ B), ?(is_setDuring _ _ B),
+      ?(is_setRemoved _ _ B), ?(is_handlers _ _ B), ?(is_maxHeight _ _ B); apply A).
+  - intros m. rewrite (is_has _ _ B). apply A.
+  - intros m. destruct (is_node _ _ A m) as (?&?&?&?&?&?&?&?&?&?&?), (is_node _ _ B m) as (?&?&?&?&?&?&?&?&?&?&?).
+    repeat split; congruence.
+Qed.
+
+Lemma iv_same_emit t e : iv_same t (emit e t).
+Proof. split; try reflexivity. intros m. rewrite nd_emit. repeat split. Qed.
+
+Lemma iv_same_upd t n f :
+  (forall x, nkind (f x) = nkind x /\ decl (f x) = decl x /\ scope (f x) = scope x /\ height (f x) = height x /\
+             hAdj (f x) = hAdj x /\ setAt (f x) = setAt x /\ parents (f x) = parents x /\ children (f x) = children x /\
+             observers (f x) = observers x /\ forceNec (f x) = forceNec x /\ inGraph (f x) = inGraph x) ->
+  iv_same t (upd t n f).
+Proof.
+  intros Hf. split; try reflexivity; [intros m; apply has_upd|].
+  intros m. destruct (decide (has t n)) as [Hn|Hn]; [|rewrite (upd_missing t n f Hn); repeat split].
+  rewrite nd_upd by exact Hn. destruct (decide (m = n)) as [->|]; [apply Hf|repeat split].
+Qed.
+
+Lemma invalidateNode_S fuel s n :
+  invalidateNode (S fuel) s n =
+    if negb (valid (nd s n)) then Ok s else
+    let s := emit (EvInval n) s in
+    let s := upd s n (fun x => x <| changedAt := stabNum s |> <| recomputedAt := stabNum s |>) in
+    s <-! (if isNecessary (nd s n)
+           then s <-! removeParents fuel s n;
+                Ok (upd s n (set height (fun _ => scopeHeight s (scope (nd s n)) + 1)))
+           else Ok s);
+    s <-! (match nkind (nd s n) with
+           | KBindMain b => rfold (invalidateNode fuel) (b_rhsNodes (bd s b)) s
+           | _ => Ok s
+           end);
+    let s := upd s n (set valid (fun _ => false)) in
+    let s := s <| invq := invq s ++ children (nd s n) |> in
+    if inHeap s n then heapRemove s n else Ok s.
+Proof. reflexivity. Qed.
+
+Lemma rbind_Ok {A B} (x : A) (k : A -> res B) : rbind (Ok x) k = k x.
+Proof. reflexivity. Qed.
+
+Section inval.
+  Context (D : nid -> Prop) (b : nat) (t0 : state).
+  Hypothesis T0 : TInv [] noE t0.
+  Hypothesis R0 : RestM D t0.
+  Hypothesis Hf0 : forall n, forceNec (nd t0 n) = false.
+  Hypothesis HD : forall n, D n -> scope (nd t0 n) = Some b /\ ~ inGen t0 b n.
+  Hypothesis HDdec : forall n, D n \/ ~ D n.
+  Hypothesis HDpair : forall b1, D (S b1) -> nkind (nd t0 (S b1)) = KBindMain b1 -> D b1.
+
+  Notation dm := (doomed D t0).
+
+  Record JI (P : list nid) (t : state) : Prop := {
+    j_same : iv_same t0 t;
+    j_valid : forall m, valid (nd t m) = valid (nd t0 m) \/ (valid (nd t m) = false /\ dm m);
+    j_stamps : forall m, 0 <= recomputedAt (nd t m) <= stabNum t0 /\ 0 <= changedAt (nd t m) <= stabNum t0;
+    j_log : log_ok (log t);
+    j_lastNU : forall m, lastNU (log t) m = lastNU (log t0) m;
+    j_inval : forall m, EvInval m ∈ log t <-> (valid (nd t m) = false \/ m ∈ P);
+    j_P : forall p, p ∈ P -> valid (nd t p) = true;
+    j_G : forall b1 m, inGen t b1 m -> valid (nd t m) = true -> valid (nd t (S b1)) = true
+  }.
+
+  Definition valid_mono (t t' : state) : Prop := forall m, valid (nd t m) = false -> valid (nd t' m) = false.
+
+  Definition inval_spec (fuel : nat) : Prop := forall P t n t',
+    JI P t -> dm n -> (forall p, p ∈ P -> (p < n)%nat) ->
+    invalidateNode fuel t n = Ok t' ->
+    JI P t' /\ valid (nd t' n) = false /\ valid_mono t t'.
+
+  Lemma inval_loop fuel : inval_spec fuel -> forall l P t t',
+    JI P t -> (forall m, m ∈ l -> dm m /\ forall p, p ∈ P -> (p < m)%nat) ->
+    rfold (invalidateNode fuel) l t = Ok t' ->
+    JI P t' /\ (forall m, m ∈ l -> valid (nd t' m) = false) /\ valid_mono t t'.
+  Proof.
+    intros IH l. induction l as [|a l IHl]; intros P t t' J Hl H; simpl in H.
+    - injection H as <-. split; [exact J|]. split; [intros m Hm; inversion Hm|intros m Hm; exact Hm].
+    - destruct (invalidateNode fuel t a) as [t1| |] eqn:E; simpl in H; try discriminate.
+      destruct (Hl a ltac:(left)) as [Hda Hpa].
+      destruct (IH P t a t1 J Hda Hpa E) as (J1 & Hva & M1).
+      destruct (IHl P t1 t' J1 ltac:(intros m Hm; apply Hl; right; exact Hm) H) as (J' & Hvl & M').
+      split; [exact J'|]. split.
+      + intros m [->|Hm]%elem_of_cons; [apply M', Hva|apply Hvl, Hm].
+      + intros m Hm. apply M', M1, Hm.
+  Qed.
+
+  Lemma dm_has n : dm n -> has t0 n.
+  Proof.
+    intros H. destruct (doomed_scope D b t0 HD n H) as (b1 & Hs & _).
+    apply (has_of_field scope). rewrite Hs. discriminate.
+  Qed.
+
+  Lemma dm_unreg n : dm n -> inGraph (nd t0 n) = false.
+  Proof. apply (doomed_unreg D b t0 T0 R0 Hf0 HD HDdec). Qed.
+
+  Lemma inval_step fuel : inval_spec fuel -> inval_spec (S fuel).
+  Proof.
+    intros IH P t n t' J Hdn HP H. rewrite invalidateNode_S in H.
+    destruct (valid (nd t n)) eqn:Hvn; cbn [negb] in H; cbv iota in H.
+    2:{ injection H as <-. split; [exact J|]. split; [exact Hvn|intros m Hm; exact Hm]. }
+    cbv zeta in H.
+    pose proof (j_same _ _ J) as Sm.
+    set (s1 := emit (EvInval n) t) in *.
+    set (s2 := upd s1 n (fun x => x <| changedAt := stabNum s1 |> <| recomputedAt := stabNum s1 |>)) in *.
+    assert (Hhn : has t n) by (apply (is_has _ _ Sm), dm_has, Hdn).
+    assert (Hnd2 : forall m, nd s2 m = if decide (m = n) then (nd t n) <| changedAt := stabNum t |> <| recomputedAt := stabNum t |> else nd t m).
+    { intros m. unfold s2. rewrite nd_upd by (apply has_emit, Hhn). unfold s1. rewrite !nd_emit. reflexivity. }
+    assert (Hv2 : forall m, valid (nd s2 m) = valid (nd t m)).
+    { intros m. rewrite Hnd2. destruct (decide (m = n)) as [->|]; reflexivity. }
+    assert (S2 : iv_same t0 s2).
+    { eapply iv_same_trans; [exact Sm|]. eapply iv_same_trans; [apply (iv_same_emit t (EvInval n))|].
+      apply iv_same_upd. intros x. repeat split. }
+    assert (HnP : n ∉ P) by (intros Hx; specialize (HP n Hx); lia).
+    assert (Hnlog : EvInval n ∉ log t).
+    { intros Hx. apply (j_inval _ _ J) in Hx as [Hx|Hx]; [congruence|contradiction]. }
+    assert (J2 : JI (n :: P) s2).
+    { split.
+      - exact S2.
+      - intros m. rewrite Hv2. apply (j_valid _ _ J).
+      - intros m. rewrite Hnd2. destruct (decide (m = n)) as [->|]; [|apply (j_stamps _ _ J)].
+        cbn. rewrite (is_stabNum _ _ Sm). pose proof (st_num _ (m_stamps _ _ R0)). lia.
+      - change (log s2) with (EvInval n :: log t). split; [exact Hnlog|apply (j_log _ _ J)].
+      - intros m. change (log s2) with (EvInval n :: log t). simpl. apply (j_lastNU _ _ J).
+      - intros m. change (log s2) with (EvInval n :: log t). rewrite Hv2, !elem_of_cons, (j_inval _ _ J m).
+        split; [intros [[= ->]|[?|?]]; auto|intros [?|[->|?]]; auto].
+      - intros p [->|Hp]%elem_of_cons; rewrite Hv2; [exact Hvn|apply (j_P _ _ J), Hp].
+      - intros b1 m. unfold inGen. change (bd s2 b1) with (bd t b1). rewrite !Hv2. apply (j_G _ _ J). }
+    (* the node is not in the graph: nothing to tear down *)
+    assert (Hg0 : inGraph (nd t0 n) = false) by apply dm_unreg, Hdn.
+    destruct (t_zero _ _ _ T0 n Hg0) as (_ & Hc0 & Ho0 & _).
+    assert (Hnec : isNecessary (nd s2 n) = false).
+    { apply isNecessary_false. destruct (is_node _ _ S2 n) as (_&_&_&_&_&_&_&->&->&->&_). auto. }
+    rewrite Hnec in H. rewrite rbind_Ok in H. cbv beta in H.
+    (* the nested generation *)
+    assert (Hk2 : nkind (nd s2 n) = nkind (nd t0 n)) by apply (is_node _ _ S2 n).
+    assert (Mid : exists s3, (match nkind (nd s2 n) with
+                              | KBindMain b1 => rfold (invalidateNode fuel) (b_rhsNodes (bd s2 b1)) s2
+                              | _ => Ok s2 end) = Ok s3 /\
+                             JI (n :: P) s3 /\ valid_mono s2 s3 /\
+                             (forall b1 m, n = S b1 -> inGen s3 b1 m -> valid (nd s3 m) = false)).
+    { rewrite Hk2 in H |- *.
+      destruct (match nkind (nd t0 n) with
+                | KBindMain b1 => rfold (invalidateNode fuel) (b_rhsNodes (bd s2 b1)) s2
+                | _ => Ok s2 end) as [s3| |] eqn:E3; simpl in H; try discriminate.
+      exists s3. split; [reflexivity|].
+      destruct (nkind (nd t0 n)) as [e0| |f0|f0|f0|c0| |b1|b1] eqn:Ek;
+        try (injection E3 as <-; split; [exact J2|]; split; [intros m Hm; exact Hm|];
+             intros b1' m -> Hg; exfalso;
+             assert (Hb1 : is_Some (binds t0 !! b1'));
+             [unfold inGen, bd in Hg; rewrite (is_binds _ _ S2) in Hg; destruct (binds t0 !! b1'); [eauto|inversion Hg]|];
+             destruct Hb1 as [r1 Hr1]; pose proof (bw_kind_main _ _ _ (m_binds _ _ R0 b1' r1 Hr1)) as K;
+             rewrite Ek in K; discriminate).
+      (* a bind's main node *)
+      pose proof (m_kinds _ _ R0 n (dm_has n Hdn)) as K. rewrite Ek in K. destruct K as [-> [r1 Hr1]].
+      pose proof (m_binds _ _ R0 b1 r1 Hr1) as W.
+      assert (Hdb1 : dm b1).
+      { destruct (doomed_scope D b t0 HD (S b1) Hdn) as (b2 & Hs2 & [[-> Hd]|Hd2]).
+        - apply dm_old. apply HDpair; [exact Hd|exact Ek].
+        - apply (dm_in D t0 b1 b2); [rewrite <- (bw_scope _ _ _ W); exact Hs2|exact Hd2]. }
+      assert (Hgen : forall m, m ∈ b_rhsNodes (bd s2 b1) -> dm m /\ forall p, p ∈ S b1 :: P -> (p < m)%nat).
+      { intros m Hm. change (bd s2 b1) with (bd t b1) in Hm. unfold bd in Hm. rewrite (is_binds _ _ Sm), Hr1 in Hm. simpl in Hm.
+        destruct (bw_rhsNodes _ _ _ W m Hm) as [_ Hsm].
+        split; [apply (dm_in D t0 m b1 Hsm Hdb1)|].
+        destruct (m_scopes _ _ R0 m b1 Hsm) as [_ Hlt].
+        intros p [->|Hp]%elem_of_cons; [exact Hlt|]. specialize (HP p Hp). lia. }
+      destruct (inval_loop fuel IH _ (S b1 :: P) s2 s3 J2 Hgen E3) as (J3 & Hall & M3).
+      split; [exact J3|]. split; [exact M3|].
+      intros b1' m [= <-] Hg. apply Hall. unfold inGen in Hg.
+      change (bd s2 b1) with (bd t b1). unfold bd in *. rewrite (is_binds _ _ (j_same _ _ J3)) in Hg. rewrite (is_binds _ _ Sm). exact Hg. }
+    destruct Mid as (s3 & E3 & J3 & M3 & Hall). rewrite E3 in H. rewrite rbind_Ok in H. cbv beta in H.
+    pose proof (j_same _ _ J3) as S3.
+    set (s4 := upd s3 n (set valid (fun _ => false))) in *.
+    assert (Hhn3 : has s3 n) by (apply (is_has _ _ S3), dm_has, Hdn).
+    assert (Hc4 : children (nd s4 n) = []).
+    { unfold s4. rewrite nd_upd_eq by exact Hhn3. cbn. destruct (is_node _ _ S3 n) as (_&_&_&_&_&_&_&->&_). exact Hc0. }
+    rewrite Hc4 in H.
+    set (s5 := s4 <| invq := invq s4 ++ [] |>) in *.
+    assert (Hih : inHeap s5 n = false).
+    { destruct (inHeap s5 n) eqn:E; [|reflexivity]. exfalso.
+      assert (Hk : hinv (heap s5)).
+      { change (heap s5) with (heap s3). rewrite (is_heap _ _ S3). apply (t_heap _ _ _ T0). }
+      apply (inHeap_iff s5 n Hk) in E. change (heap s5) with (heap s3) in E. rewrite (is_heap _ _ S3) in E.
+      destruct (t_heap _ _ _ T0) as [_ Hin]. destruct (Hin n E) as [Hx _]. congruence. }
+    rewrite Hih in H. injection H as <-.
+    assert (Hnd5 : forall m, nd s5 m = if decide (m = n) then set valid (fun _ => false) (nd s3 n) else nd s3 m).
+    { intros m. change (nd s5 m) with (nd s4 m). unfold s4. apply nd_upd, Hhn3. }
+    assert (Hv5 : forall m, valid (nd s5 m) = if decide (m = n) then false else valid (nd s3 m)).
+    { intros m. rewrite Hnd5. destruct (decide (m = n)) as [->|]; reflexivity. }
+    assert (S5 : iv_same t0 s5).
+    { eapply iv_same_trans; [exact S3|].
+      pose proof (iv_same_upd s3 n (set valid (fun _ => false)) ltac:(intros x; repeat split)) as S4. fold s4 in S4.
+      destruct S4. split; try assumption. change (invq s5) with (invq s4 ++ []). rewrite app_nil_r. assumption. }
+    split; [|split].
+    - split.
+      + exact S5.
+      + intros m. rewrite Hv5. destruct (decide (m = n)) as [->|]; [right; auto|apply (j_valid _ _ J3)].
+      + intros m. rewrite Hnd5. destruct (decide (m = n)) as [->|]; apply (j_stamps _ _ J3).
+      + apply (j_log _ _ J3).
+      + apply (j_lastNU _ _ J3).
+      + intros m. change (log s5) with (log s3). rewrite (j_inval _ _ J3 m), Hv5, elem_of_cons.
+        destruct (decide (m = n)) as [->|Hne]; [tauto|]. tauto.
+      + intros p Hp. rewrite Hv5. rewrite decide_False by (intros ->; contradiction).
+        apply (j_P _ _ J3). right. exact Hp.
+      + intros b1 m. unfold inGen. change (bd s5 b1) with (bd s3 b1). rewrite !Hv5.
+        destruct (decide (m = n)) as [->|Hmn]; [discriminate|]. intros Hg Hvm.
+        destruct (decide (S b1 = n)) as [<-|Hne]; [|apply (j_G _ _ J3 b1 m Hg Hvm)].
+        rewrite (Hall b1 m eq_refl Hg) in Hvm. discriminate.
+    - rewrite Hv5, decide_True by reflexivity. reflexivity.
+    - intros m Hm. rewrite Hv5. destruct (decide (m = n)); [reflexivity|]. apply M3. rewrite Hv2. exact Hm.
+  Qed.
+
+  Lemma inval_all fuel : inval_spec fuel.
+  Proof.
+    induction fuel as [|fuel IH]; [|apply inval_step, IH].
+    intros P t n t' _ _ _ H. discriminate.
+  Qed.
+End inval.
+
+(** ** the pass invariant after the discarded generation has been invalidated *)
+Section inval_done.
+  Context (D : nid -> Prop) (b : nat) (t0 : state).
+  Hypothesis T0 : TInv [] noE t0.
+  Hypothesis R0 : RestM D t0.
+  Hypothesis Hf0 : forall n, forceNec (nd t0 n) = false.
+  Hypothesis HD : forall n, D n -> scope (nd t0 n) = Some b /\ ~ inGen t0 b n.
+  Hypothesis HDdec : forall n, D n \/ ~ D n.
+  Hypothesis HDpair2 : forall b1, D b1 -> nkind (nd t0 b1) = KBindLhs b1 -> D (S b1).
+  Hypothesis HDvalid : forall n, D n -> valid (nd t0 n) = true.
+
+  Notation dm := (doomed D t0).
+
+  Lemma JI_start : JI D t0 [] t0.
+  Proof.
+    split.
+    - apply iv_same_refl.
+    - intros m. left. reflexivity.
+    - intros m. destruct (st_le _ (m_stamps _ _ R0) m) as (A & B & _). auto.
+    - apply (t_log _ _ _ T0).
+    - reflexivity.
+    - intros m. rewrite <- (m_inval _ _ R0 m). split; [auto|]. intros [H|H]; [exact H|inversion H].
+    - intros p Hp. inversion Hp.
+    - intros b1 m Hg Hvm.
+      assert (Hb1 : is_Some (binds t0 !! b1)).
+      { unfold inGen, bd in Hg. destruct (binds t0 !! b1); [eauto|inversion Hg]. }
+      destruct Hb1 as [r1 Hr1]. pose proof (m_binds _ _ R0 b1 r1 Hr1) as W.
+      destruct (scope (nd t0 b1)) as [b2|] eqn:Es.
+      2:{ apply (m_vtop _ _ R0). rewrite (bw_scope _ _ _ W). exact Es. }
+      rewrite (m_vgen _ _ R0 m b1 Hg) in Hvm.
+      destruct (HDdec b1) as [Hd|Hd].
+      { apply HDvalid, HDpair2; [exact Hd|apply (bw_kind_lhs _ _ _ W)]. }
+      destruct (decide (b1 ∈ b_rhsNodes (bd t0 b2))) as [Hin|Hin].
+      + pose proof (sc_pair t0 (m_scoping _ _ R0) b2 b1 Hin (bw_kind_lhs _ _ _ W)) as Hin'.
+        rewrite (m_vgen _ _ R0 _ b2 Hin'), <- (m_vgen _ _ R0 _ b2 Hin). exact Hvm.
+      + destruct (m_vdead _ _ R0 b1 b2 (bw_has_lhs _ _ _ W) Es Hin Hd) as [E _]. congruence.
+  Qed.
+
+  Section done.
+    Context (t9 : state).
+    Hypothesis J : JI D t0 [] t9.
+    Hypothesis HDinv : forall m, D m -> valid (nd t9 m) = false.
+
+    Lemma doomed_invalid : forall n, dm n -> valid (nd t9 n) = false.
+    Proof.
+      intros n. induction (lt_wf n) as [n _ IH]. intros Hdn.
+      destruct (doomed_scope D b t0 HD n Hdn) as (b1 & Hsn & [[-> Hd]|Hd1]); [apply HDinv, Hd|].
+      destruct (HDdec n) as [Hd|Hd]; [apply HDinv, Hd|].
+      destruct (valid (nd t9 n)) eqn:Hv; [exfalso|reflexivity].
+      pose proof (j_same _ _ _ _ J) as Sm.
+      assert (Hv0 : valid (nd t0 n) = true).
+      { destruct (j_valid _ _ _ _ J n) as [E|[E _]]; congruence. }
+      assert (Hhn : has t0 n) by (apply (has_of_field scope); rewrite Hsn; discriminate).
+      destruct (decide (n ∈ b_rhsNodes (bd t0 b1))) as [Hin|Hin].
+      2:{ destruct (m_vdead _ _ R0 n b1 Hhn Hsn Hin Hd) as [E _]. congruence. }
+      assert (Hin9 : inGen t9 b1 n) by (unfold inGen, bd; rewrite (is_binds _ _ Sm); exact Hin).
+      pose proof (j_G _ _ _ _ J b1 n Hin9 Hv) as HvS.
+      assert (Hb1 : is_Some (binds t0 !! b1)).
+      { unfold bd in Hin. destruct (binds t0 !! b1); [eauto|inversion Hin]. }
+      destruct Hb1 as [r1 Hr1]. pose proof (m_binds _ _ R0 b1 r1 Hr1) as W.
+      assert (HdS : dm (S b1)).
+      { destruct (doomed_scope D b t0 HD b1 Hd1) as (b2 & Hs2 & [[-> Hdb]|Hd2]).
+        - apply dm_old, HDpair2; [exact Hdb|apply (bw_kind_lhs _ _ _ W)].
+        - apply (dm_in D t0 (S b1) b2); [rewrite (bw_scope _ _ _ W); exact Hs2|exact Hd2]. }
+      destruct (m_scopes _ _ R0 n b1 Hsn) as [_ Hlt].
+      rewrite (IH (S b1) Hlt HdS) in HvS. discriminate.
+    Qed.
+
+    Lemma inval_PInv : PInv t9.
+    Proof.
+      pose proof (j_same _ _ _ _ J) as Sm.
+      assert (Hnode : forall m, _) by (exact (is_node _ _ Sm)).
+      assert (Hk : forall m, nkind (nd t9 m) = nkind (nd t0 m)) by (intros m; apply (Hnode m)).
+      assert (Hd : forall m, decl (nd t9 m) = decl (nd t0 m)) by (intros m; apply (Hnode m)).
+      assert (Hsc : forall m, scope (nd t9 m) = scope (nd t0 m)) by (intros m; apply (Hnode m)).
+      assert (Hh : forall m, height (nd t9 m) = height (nd t0 m)) by (intros m; apply (Hnode m)).
+      assert (Hpa : forall m, parents (nd t9 m) = parents (nd t0 m)) by (intros m; apply (Hnode m)).
+      assert (Hch : forall m, children (nd t9 m) = children (nd t0 m)) by (intros m; apply (Hnode m)).
+      assert (Hob : forall m, observers (nd t9 m) = observers (nd t0 m)) by (intros m; apply (Hnode m)).
+      assert (Hfo : forall m, forceNec (nd t9 m) = forceNec (nd t0 m)) by (intros m; apply (Hnode m)).
+      assert (Hg : forall m, inGraph (nd t9 m) = inGraph (nd t0 m)) by (intros m; apply (Hnode m)).
+      assert (Hbd : forall b', bd t9 b' = bd t0 b') by (intros b'; unfold bd; rewrite (is_binds _ _ Sm); reflexivity).
+      assert (Hnil : forall m : nid, m ∉ []) by (intros m Hm; inversion Hm).
+      assert (Hdmv : forall m, dm m -> valid (nd t9 m) = false) by exact doomed_invalid.
+      assert (Hnd : forall m, ~ dm m -> valid (nd t9 m) = valid (nd t0 m)).
+      { intros m Hm. destruct (j_valid _ _ _ _ J m) as [E|[_ E]]; [exact E|contradiction]. }
+      assert (Hmono : forall m, valid (nd t0 m) = false -> valid (nd t9 m) = false).
+      { intros m Hm. destruct (j_valid _ _ _ _ J m) as [E|[E _]]; congruence. }
+      apply PInv_join.
+      - destruct T0 as [t_edges0 t_zero0 t_nec0 t_necE0 t_W0 t_par0 t_height0 t_heap0 t_count0 t_obs0 t_valid0 t_log0 t_life0 t_lifeW0 t_nodup0].
+        constructor.
+        + apply (edges_ok_ext t0 t9); auto.
+        + apply (zero_ok_ext t0 t9); auto.
+        + intros n _ _. rewrite Hg, (isNecessary_ext (nd t9 n) (nd t0 n)) by auto. apply t_nec0; [apply Hnil|intros []].
+        + intros n [].
+        + intros w Hw. inversion Hw.
+        + intros n _. rewrite Hg, Hpa, Hd. apply t_par0, Hnil.
+        + apply (height_ok_ext t0 t9); auto. apply Sm.
+        + apply (heap_ok_ext t0 t9); auto. apply Sm.
+        + apply (count_ok_ext t0 t9); auto; apply Sm.
+        + apply (obs_ok_ext t0 t9); auto; apply Sm.
+        + intros n. rewrite Hg. intros Hn. rewrite Hnd; [apply t_valid0, Hn|].
+          intros Hdn. rewrite (doomed_unreg D b t0 ltac:(constructor; assumption) R0 Hf0 HD HDdec n Hdn) in Hn. discriminate.
+        + apply (j_log _ _ _ _ J).
+        + intros n _. rewrite Hg, (j_lastNU _ _ _ _ J). apply t_life0, Hnil.
+        + intros w Hw. inversion Hw.
+        + constructor.
+      - destruct R0 as [A1 A2 A3 A4 A5 V1 V2 V3 A6 A7 A8 Q1 Q2 Q3 Q5]. constructor.
+        + apply (ids_ok_ext t0 t9); auto; apply Sm.
+        + apply (binds_wf_ext t0 t9); auto; apply Sm.
+        + apply (kinds_ok_ext t0 t9); auto; apply Sm.
+        + apply (scopes_ok_ext t0 t9); auto; apply Sm.
+        + apply (scoping_ok_ext t0 t9); auto; apply Sm.
+        + intros n. rewrite Hsc. intros Hs. rewrite Hnd; [apply V1, Hs|].
+          intros Hdn. destruct (doomed_scope D b t0 HD n Hdn) as (b1 & Hs1 & _). congruence.
+        + intros n b'. rewrite (is_has _ _ Sm), Hsc, Hg. unfold inGen. rewrite Hbd. intros H1 H2 H3 _.
+          destruct (HDdec n) as [Hdn|Hdn].
+          * split; [apply Hdmv, dm_old, Hdn|].
+            apply (doomed_unreg D b t0 T0 ltac:(constructor; assumption) Hf0 HD HDdec n (dm_old D t0 n Hdn)).
+          * destruct (V2 n b' H1 H2 H3 Hdn) as [E1 E2]. split; [apply Hmono, E1|exact E2].
+        + intros n b1. unfold inGen. rewrite Hbd. intros Hin.
+          assert (Hb1 : is_Some (binds t0 !! b1)).
+          { unfold bd in Hin. destruct (binds t0 !! b1); [eauto|inversion Hin]. }
+          destruct Hb1 as [r1 Hr1].
+          assert (Hsn : scope (nd t0 n) = Some b1).
+          { apply (bw_rhsNodes _ _ _ (A2 b1 r1 Hr1) n). unfold bd in Hin. rewrite Hr1 in Hin. exact Hin. }
+          destruct (j_valid _ _ _ _ J b1) as [E1|[E1 Hd1]].
+          * destruct (j_valid _ _ _ _ J n) as [E2|[E2 Hd2]]; [rewrite E1, E2; apply V3, Hin|].
+            destruct (doomed_scope D b t0 HD n Hd2) as (b1' & Hs1 & [[-> Hdn]|Hd1]).
+            -- exfalso. apply (proj2 (HD n Hdn)). assert (b1 = b) as <- by congruence. exact Hin.
+            -- assert (b1' = b1) as -> by congruence. rewrite E2. symmetry. apply Hdmv, Hd1.
+          * rewrite E1. apply Hdmv. apply (dm_in D t0 n b1 Hsn Hd1).
+        + apply (shape_ok_ext t0 t9); auto; apply Sm.
+        + destruct A7 as [S1 S2]. split; rewrite (is_stabNum _ _ Sm); [exact S1|].
+          intros n. destruct (j_stamps _ _ _ _ J n) as [B1 B2]. split; [exact B1|]. split; [exact B2|].
+          destruct (Hnode n) as (_&_&_&_&_&->&_). apply (S2 n).
+        + intros n. rewrite (j_inval _ _ _ _ J n). split; [auto|]. intros [H|H]; [exact H|inversion H].
+        + rewrite (is_status _ _ Sm). exact Q1.
+        + rewrite (is_invq _ _ Sm). exact Q2.
+        + destruct Q3 as (B1 & B2 & B3). unfold adj_idle. rewrite (is_adj _ _ Sm). split; [exact B1|]. split; [exact B2|].
+          intros m. destruct (Hnode m) as (_&_&_&_&->&_). apply B3.
+        + intros v. rewrite (is_setDuring _ _ Sm), (is_setRemoved _ _ Sm), Hk. apply Q5.
+      - intros n. rewrite Hfo. apply Hf0.
+    Qed.
+  End done.
+End inval_done.
+
+Lemma alter_alter_at {A} (f g : A -> A) (m : gmap nat A) b x :
+  m !! b = Some x -> f (g x) = x -> alter f b (alter g b m) = m.
+Proof.
+  intros Hx H. apply map_eq. intros k. destruct (decide (k = b)) as [->|Hne].
+  - rewrite !lookup_alter, Hx. simpl. rewrite H. reflexivity.
+  - rewrite !lookup_alter_ne by congruence. reflexivity.
+Qed.
+
+Lemma RestM_impl (D D' : nid -> Prop) s : (forall n, D n -> D' n) -> RestM D s -> RestM D' s.
+Proof.
+  intros H [A1 A2 A3 A4 A5 V1 V2 V3 A6 A7 A8 Q1 Q2 Q3 Q5]. constructor; auto.
+  intros n b H1 H2 H3 H4. apply (V2 n b); auto.
+Qed.
+
+Lemma plan_ok_kinds t t' p :
+  (forall m, has t' m <-> has t m) -> (forall m, nkind (nd t' m) = nkind (nd t m)) ->
+  plan_ok t p = true -> plan_ok t' p = true.
+Proof.
+  intros Hh Hk. unfold plan_ok. rewrite !forallb_forall. intros H y Hy. specialize (H y Hy).
+  destruct y as [[n w] a].
+  assert (Hiv : forall v, isVar t v = true -> isVar t' v = true).
+  { intros v Hv. apply isVar_true in Hv as [Hhv [e He]]. apply (isVar_intro t' v e); [apply Hh, Hhv|]. rewrite Hk. exact He. }
+  destruct a; auto.
+Qed.
+
+Lemma propagateInvalidity_nil_inv fuel s s' : invq s = [] -> propagateInvalidity fuel s = Ok s' -> s' = s.
+Proof.
+  intros Hq H. destruct fuel as [|fuel]; simpl in H; [discriminate|]. rewrite Hq in H. injection H as <-. reflexivity.
+Qed.
+
+Theorem bind_spec_holds : bind_spec (fun _ => True).
+Proof.
+  intros fuel p s b s' e _ P Hp Hk Hg H.
+  pose proof (p_kinds s P b (has_inGraph s b Hg)) as K. rewrite Hk in K. destruct K as [_ [r0 Hr0]].
+  pose proof (p_binds s P b r0 Hr0) as W0.
+  assert (Hbd : bd s b = r0) by (unfold bd; rewrite Hr0; reflexivity).
+  unfold bindLhsStabilize in H. rewrite Hbd in H. rewrite (bw_memo _ _ _ W0), (bw_main _ _ _ W0) in H.
+  cbv zeta in H. cbv iota in H.
+  set (f1 := set b_rhsNodes (fun _ : list nid => [])) in *.
+  set (s1 := updb s b f1) in *.
+  apply rbind_ok in H as ([[sx ex] built] & H1 & H).
+  apply rbind_ok in H1 as ([s2 e1] & Hinv & H1).
+  assert (Hst1 : status s1 = 1) by apply (pq_status s (p_pq s P)).
+  pose proof (invoke_soft p s1 b WFn s2 e1 Hst1 Hp Hinv) as S12.
+  destruct e1 as [x1|].
+  - (* the bind function failed: the scope's node list is restored *)
+    injection H1 as <- <- <-. apply fail_inv in H as [-> ->].
+    right.
+    assert (E : updb s2 b (set b_rhsNodes (fun _ => b_rhsNodes r0)) = s2 <| binds := binds s |>).
+    { assert (Ealt : alter (set b_rhsNodes (fun _ => b_rhsNodes r0)) b (binds s2) = binds s).
+      { rewrite (ss_binds _ _ (so_struct _ _ S12)). change (binds s1) with (alter f1 b (binds s)).
+        apply (alter_alter_at _ _ (binds s) b r0 Hr0). destruct r0; reflexivity. }
+      unfold updb. rewrite Ealt. reflexivity. }
+    rewrite E.
+    pose proof (soft_binds_irrel s s2 _ (binds s1) S12 eq_refl) as S02.
+    split; [apply (PInv_of_soft s _ P S02)|]. split; [apply (plan_ok_struct s _ p (so_struct _ _ S02) Hp)|].
+    split; [apply (so_stabNum _ _ S02)|exact Logic.I].
+  - (* the bind function returned: instantiate the chosen template *)
+    set (x := valueOf s1 (b_lhs r0)) in *.
+    set (case := nth (Z.to_nat (x mod Z.of_nat (length (b_cases r0)))) (b_cases r0) TNil) in *.
+    destruct (inst s2 (Some b) x case) as [s3 root] eqn:Hinst.
+    injection H1 as <- <- <-.
+    assert (Hinst' : inst s2 (Some b) x (nth (Z.to_nat (x mod Z.of_nat (length (b_cases (bd s b))))) (b_cases (bd s b)) TNil) = (s3, root))
+      by (rewrite Hbd; exact Hinst).
+    pose proof (run_fn_post p s b P Hp Hk Hg s2 Hinv x s3 root Hinst') as FP.
+    destruct FP as [T6 R7 Hvc7 Hforce Hrhs Hdecl6 Hroot Hnew Hold Holdnd Hsreg6 Hmain [Hgb6 Hkb6] Holdne Hpair1 Hpair2 Hplan7 Hstab7].
+    rewrite Hbd in *.
+    set (s6 := updb (updb (emit (EvBindFn b x root) s3) b
+                 (fun r => r <| b_gen := S (b_gen r) |> <| b_cache := if b_memo r then b_cache r ++ [(x, root)] else b_cache r |>))
+                 b (set b_rhs (fun _ => root))) in *.
+    set (oldNodes := b_rhsNodes r0) in *. set (oldRhs := b_rhs r0) in *.
+    set (D := fun n : nid => n ∈ oldNodes).
+    assert (HDdec : forall n, D n \/ ~ D n) by (intros n; unfold D; destruct (decide (n ∈ oldNodes)); auto).
+    assert (Hs7 : upd s6 (S b) (set decl (fun _ => match root with Some r => [b; r] | None => [b] end)) =
+                  upd s6 (S b) (set decl (fun _ => b :: option_list root))) by (destruct root; reflexivity).
+    rewrite Hs7 in *.
+    set (s7 := upd s6 (S b) (set decl (fun _ => b :: option_list root))) in *.
+    assert (Hfield7 : forall {A} (g : node -> A), (forall y f, g (set decl f y) = g y) -> forall m, g (nd s7 m) = g (nd s6 m)).
+    { intros A g Hg' m. unfold s7. apply nd_upd_proj. intros y. apply Hg'. }
+    assert (Hvb6 : valid (nd s6 b) = true) by (apply (t_valid _ _ _ T6), Hgb6).
+    assert (Hroot' : match root with
+                     | Some r => has s6 r /\ r <> b /\ valid (nd s6 r) = true /\
+                                 (forall b', scope (nd s6 r) = Some b' -> b' = b)
+                     | None => True end).
+    { destruct root as [r|]; [|exact Logic.I]. destruct Hroot as (H1 & H2 & H3).
+      split; [exact H1|]. split; [intros ->; unfold not_lhs in H2; rewrite Hkb6 in H2; exact H2|].
+      split.
+      - rewrite <- (Hfield7 _ valid) by reflexivity. destruct H3 as [E|[E G]].
+        + apply (m_vtop _ _ R7). rewrite (Hfield7 _ scope) by reflexivity. exact E.
+        + rewrite (m_vgen _ _ R7 r b G). rewrite (Hfield7 _ valid) by reflexivity. exact Hvb6.
+      - intros b' Hs. destruct H3 as [E|[E _]]; congruence. }
+    apply ebind_inv in H as (t8 & e2 & Hcp & Hrest).
+    pose proof (changeParent_spec D s6 b oldRhs root T6 Hsreg6 R7 Hvc7 Hforce Hdecl6 Hgb6 Hmain Hroot'
+                  ltac:(destruct oldRhs; [exact Holdne|exact Logic.I])
+                  ltac:(intros n Hn; apply (Hold n Hn)) HDdec fuel oldRhs root t8 e2 eq_refl eq_refl Hcp) as CP.
+    destruct e2 as [x2|].
+    { destruct Hrest as [[? _]|(_ & _ & ->)]; [discriminate|]. left. destruct CP as [-> | ->]; [left|right]; reflexivity. }
+    destruct Hrest as [[_ H]|(Hne & _)]; [|congruence].
+    destruct CP as (T8 & R8 & Hf8 & F8).
+    apply ebind_inv in H as (t9 & e3 & Hiv & Hrest).
+    apply lift_inv in Hiv as [Hiv ->]. destruct Hrest as [[_ H]|(Hne & _)]; [|congruence].
+    apply lift_inv in H as [H ->]. right.
+    assert (Hsc8 : forall m, scope (nd t8 m) = scope (nd s6 m)).
+    { intros m. destruct (cpf_node _ _ F8 m) as (_&_&->&_). apply Hfield7. reflexivity. }
+    assert (Hv8 : forall m, valid (nd t8 m) = valid (nd s6 m)).
+    { intros m. destruct (cpf_node _ _ F8 m) as (_&_&_&->). apply Hfield7. reflexivity. }
+    assert (Hk8 : forall m, nkind (nd t8 m) = nkind (nd s6 m)).
+    { intros m. destruct (cpf_node _ _ F8 m) as (->&_). apply Hfield7. reflexivity. }
+    assert (P9 : PInv t9 /\ (forall m, has t9 m <-> has t8 m) /\ (forall m, nkind (nd t9 m) = nkind (nd t8 m)) /\ stabNum t9 = stabNum t8).
+    { destruct oldRhs as [o|] eqn:Eo.
+      - (* the old generation is invalidated *)
+        assert (HD : forall n, D n -> scope (nd t8 n) = Some b /\ ~ inGen t8 b n).
+        { intros n Hn. destruct (Hold n Hn) as (Hhn & Hsn & _). split; [rewrite Hsc8; exact Hsn|].
+          unfold inGen, bd. rewrite (cpf_binds _ _ F8). intros Hg8. apply (Hnew n Hg8 Hhn). }
+        assert (HDp1 : forall b1, D (S b1) -> nkind (nd t8 (S b1)) = KBindMain b1 -> D b1).
+        { intros b1 Hd1. rewrite Hk8. apply Hpair1, Hd1. }
+        assert (HDp2 : forall b1, D b1 -> nkind (nd t8 b1) = KBindLhs b1 -> D (S b1)).
+        { intros b1 Hd1. rewrite Hk8. apply Hpair2, Hd1. }
+        assert (HDv : forall n, D n -> valid (nd t8 n) = true).
+        { intros n Hn. rewrite Hv8. apply (Hold n Hn). }
+        pose proof (JI_start D t8 T8 R8 HDdec HDp2 HDv) as J8.
+        pose proof (inval_all D b t8 T8 R8 Hf8 HD HDdec HDp1 fuel) as IS.
+        destruct (inval_loop D t8 fuel IS oldNodes [] t8 t9 J8) as (J9 & Hall & _); [|exact Hiv|].
+        { intros m Hm. split; [apply dm_old; exact Hm|intros q Hq; inversion Hq]. }
+        split; [apply (inval_PInv D b t8 T8 R8 Hf8 HD HDdec HDp2 t9 J9 Hall)|].
+        pose proof (j_same _ _ _ _ J9) as Sm. split; [apply Sm|]. split; [intros m; apply (is_node _ _ Sm m)|apply Sm].
+      - injection Hiv as <-. split; [|split; [reflexivity|split; reflexivity]].
+        apply PInv_join; [exact T8| |exact Hf8].
+        apply (RestM_impl D noD t8); [|exact R8]. intros n Hn. unfold D in Hn. rewrite Holdne in Hn. inversion Hn. }
+    destruct P9 as (P9 & Hh9 & Hk9 & Hs9).
+    apply propagateInvalidity_nil_inv in H; [|apply (pq_invq t9 (p_pq t9 P9))]. subst s'.
+    split; [exact P9|]. split.
+    + apply (plan_ok_kinds s7 t9 p); [| |exact Hplan7].
+      * intros m. rewrite Hh9. apply (cpf_has _ _ F8).
+      * intros m. rewrite Hk9. apply (cpf_node _ _ F8 m).
+    + split; [|exact Logic.I]. rewrite Hs9, (cpf_stabNum _ _ F8). exact Hstab7.
+Qed.
+
 From stdpp Require Import sorting.
 Local Open Scope Z_scope.
 (** * The invariant implies the boolean well-formedness predicate of EngineWf *)
@@ -5284,12 +7786,19 @@ Section wfb.
 End wfb.
 
 (** * All operations; clean histories *)
-Theorem Inv_step_cond s o s' e :
-  bind_spec (fun _ => True) ->
+Theorem Inv_step_stabilize s o s' e :
+  Inv s -> op_ok s o = true -> is_stabilize o = true -> step s o = Ok (s', e) ->
+  e <> Some ECycle -> e <> Some EHeightLimit -> Inv s'.
+Proof.
+  intros HI Hok Hg Hstep He1 He2.
+  apply (Inv_step_stabilize_gen (fun _ => True) s o s' e ltac:(auto) bind_spec_holds HI I Hok Hg Hstep He1 He2).
+Qed.
+
+Theorem Inv_step s o s' e :
   Inv s -> op_ok s o = true -> op_clean s o = true -> step s o = Ok (s', e) ->
   e <> Some ECycle -> e <> Some EHeightLimit -> Inv s'.
 Proof.
-  intros HB HI Hok Hcl Hstep He1 He2.
+  intros HI Hok Hcl Hstep He1 He2. pose proof bind_spec_holds as HB.
   destruct o; try (simpl in Hcl; discriminate).
   - apply (Inv_step_new s _ s' e HI Hok Hcl eq_refl Hstep).
   - apply (Inv_step_new s _ s' e HI Hok Hcl eq_refl Hstep).
@@ -5309,22 +7818,33 @@ Proof.
   - apply (Inv_step_stabilize_gen (fun _ => True) s _ s' e ltac:(auto) HB HI I Hok eq_refl Hstep He1 He2).
 Qed.
 
+(* the earlier conditional form, kept for clients *)
+Theorem Inv_step_cond s o s' e :
+  bind_spec (fun _ => True) ->
+  Inv s -> op_ok s o = true -> op_clean s o = true -> step s o = Ok (s', e) ->
+  e <> Some ECycle -> e <> Some EHeightLimit -> Inv s'.
+Proof. intros _. apply Inv_step. Qed.
+
 Lemma rejected_not e : rejected e = false -> e <> Some ECycle /\ e <> Some EHeightLimit.
 Proof. destruct e as [[]|]; simpl; try discriminate; intros _; split; discriminate. Qed.
 
-Theorem Inv_run_clean_from_cond s os s' :
-  bind_spec (fun _ => True) -> Inv s -> run_clean s os = Some s' -> Inv s'.
+Theorem Inv_run_clean_from s os s' :
+  Inv s -> run_clean s os = Some s' -> Inv s'.
 Proof.
-  intros HB. revert s. induction os as [|o os IH]; intros s HI H; simpl in H; [injection H as <-; exact HI|].
+  revert s. induction os as [|o os IH]; intros s HI H; simpl in H; [injection H as <-; exact HI|].
   destruct (op_ok s o && op_clean s o) eqn:Eo; [|discriminate]. apply andb_true_iff in Eo as [Hok Hcl].
   destruct (step s o) as [[s1 e]| |] eqn:Es; try discriminate.
   destruct (rejected e) eqn:Er; [discriminate|]. destruct (rejected_not e Er) as [He1 He2].
-  apply (IH s1); [|exact H]. apply (Inv_step_cond s o s1 e HB HI Hok Hcl Es He1 He2).
+  apply (IH s1); [|exact H]. apply (Inv_step s o s1 e HI Hok Hcl Es He1 He2).
 Qed.
+
+Theorem Inv_run_clean mh os s :
+  (0 < mh)%nat -> run_clean (init mh) os = Some s -> Inv s.
+Proof. intros Hmh. apply Inv_run_clean_from. apply Inv_init, Hmh. Qed.
 
 Theorem Inv_run_clean_cond mh os s :
   bind_spec (fun _ => True) -> (0 < mh)%nat -> run_clean (init mh) os = Some s -> Inv s.
-Proof. intros HB Hmh. apply Inv_run_clean_from_cond; [exact HB|apply Inv_init, Hmh]. Qed.
+Proof. intros _. apply Inv_run_clean. Qed.
 
 (** * The bind-free fragment, over whole histories *)
 Lemma heapOp_binds s s' : only_heap s s' -> binds s' = binds s.
@@ -5698,9 +8218,13 @@ Theorem wf_every_boundary_bindfree mh os s :
   (0 < mh)%nat -> forallb op_nobind os = true -> run_clean (init mh) os = Some s -> wfb s = true.
 Proof. intros Hmh Hn H. apply Inv_wfb. apply (Inv_run_clean_bindfree mh os s Hmh Hn H). Qed.
 
+Theorem wf_every_boundary mh os s :
+  (0 < mh)%nat -> run_clean (init mh) os = Some s -> wfb s = true.
+Proof. intros Hmh H. apply Inv_wfb. apply (Inv_run_clean mh os s Hmh H). Qed.
+
 Theorem wf_every_boundary_cond mh os s :
   bind_spec (fun _ => True) -> (0 < mh)%nat -> run_clean (init mh) os = Some s -> wfb s = true.
-Proof. intros HB Hmh H. apply Inv_wfb. apply (Inv_run_clean_cond mh os s HB Hmh H). Qed.
+Proof. intros _. apply wf_every_boundary. Qed.
 
 (** ** Witnesses *)
 (* an operation rejected for the height limit leaves the state ill-formed (MaxHeight 6) *)
